@@ -6,176 +6,22 @@
  */
 /* VERIF-UNIT
 {
- "name": "rb_test_bit_n0",
- "props": [
-  "C16"
- ],
- "level": "B(0)",
- "tier": "wip",
- "harness": "h_rb_test",
- "defines": [
-  "EXT2_CUSTOM_MEMORY_ROUTINES",
-  "RB_N=0",
-  "RB_NEW=0"
- ],
- "unwind": 9,
- "unwind_reason": "x",
- "sources": [
-  "lib/ext2fs/rbtree.c"
- ],
- "functions": [
-  "lib/ext2fs/blkmap64_rb.c:rb_test_bmap",
-  "lib/ext2fs/blkmap64_rb.c:rb_test_bit"
- ],
- "assumes": [
-  "BOUNDED: tree of exactly 0 well-formed extents, every red-black shape, arbitrary cursors"
- ],
- "backend": "minisat",
- "native": true,
- "cbmc_flags": [
-  "--object-bits",
-  "10"
- ],
- "unwindset": {
-  "ext2fs_rb_next.0": 1,
-  "ext2fs_rb_next.1": 1,
-  "rb_test_bit.0": 1
- }
-}
-*/
-/* VERIF-UNIT
-{
- "name": "rb_test_bit_n1",
- "props": [
-  "C16"
- ],
- "level": "B(1)",
- "tier": "wip",
- "harness": "h_rb_test",
- "defines": [
-  "EXT2_CUSTOM_MEMORY_ROUTINES",
-  "RB_N=1",
-  "RB_NEW=0"
- ],
- "unwind": 9,
- "unwind_reason": "x",
- "sources": [
-  "lib/ext2fs/rbtree.c"
- ],
- "functions": [
-  "lib/ext2fs/blkmap64_rb.c:rb_test_bmap",
-  "lib/ext2fs/blkmap64_rb.c:rb_test_bit"
- ],
- "assumes": [
-  "BOUNDED: tree of exactly 1 well-formed extents, every red-black shape, arbitrary cursors"
- ],
- "backend": "minisat",
- "native": true,
- "cbmc_flags": [
-  "--object-bits",
-  "10"
- ],
- "unwindset": {
-  "ext2fs_rb_next.0": 2,
-  "ext2fs_rb_next.1": 2,
-  "rb_test_bit.0": 2
- }
-}
-*/
-/* VERIF-UNIT
-{
- "name": "rb_test_bit_n2",
- "props": [
-  "C16"
- ],
- "level": "B(2)",
- "tier": "wip",
- "harness": "h_rb_test",
- "defines": [
-  "EXT2_CUSTOM_MEMORY_ROUTINES",
-  "RB_N=2",
-  "RB_NEW=0"
- ],
- "unwind": 9,
- "unwind_reason": "x",
- "sources": [
-  "lib/ext2fs/rbtree.c"
- ],
- "functions": [
-  "lib/ext2fs/blkmap64_rb.c:rb_test_bmap",
-  "lib/ext2fs/blkmap64_rb.c:rb_test_bit"
- ],
- "assumes": [
-  "BOUNDED: tree of exactly 2 well-formed extents, every red-black shape, arbitrary cursors"
- ],
- "backend": "minisat",
- "native": true,
- "cbmc_flags": [
-  "--object-bits",
-  "10"
- ],
- "unwindset": {
-  "ext2fs_rb_next.0": 3,
-  "ext2fs_rb_next.1": 3,
-  "rb_test_bit.0": 3
- }
-}
-*/
-/* VERIF-UNIT
-{
- "name": "rb_test_bit_n3",
- "props": [
-  "C16"
- ],
- "level": "B(3)",
- "tier": "wip",
- "harness": "h_rb_test",
- "defines": [
-  "EXT2_CUSTOM_MEMORY_ROUTINES",
-  "RB_N=3",
-  "RB_NEW=0"
- ],
- "unwind": 9,
- "unwind_reason": "x",
- "sources": [
-  "lib/ext2fs/rbtree.c"
- ],
- "functions": [
-  "lib/ext2fs/blkmap64_rb.c:rb_test_bmap",
-  "lib/ext2fs/blkmap64_rb.c:rb_test_bit"
- ],
- "assumes": [
-  "BOUNDED: tree of exactly 3 well-formed extents, every red-black shape, arbitrary cursors"
- ],
- "backend": "minisat",
- "native": true,
- "cbmc_flags": [
-  "--object-bits",
-  "10"
- ],
- "unwindset": {
-  "ext2fs_rb_next.0": 3,
-  "ext2fs_rb_next.1": 3,
-  "rb_test_bit.0": 3
- }
-}
-*/
-/* VERIF-UNIT
-{
- "name": "rb_test_bit_n4",
+ "name": "rb_test_bit_b4",
  "props": [
   "C16"
  ],
  "level": "B(4)",
- "tier": "wip",
+ "tier": "quick",
  "harness": "h_rb_test",
  "defines": [
   "EXT2_CUSTOM_MEMORY_ROUTINES",
   "RB_N=4",
-  "RB_NEW=0"
+  "RB_NSYM",
+  "RB_NEW=0",
+  "RB_BITS=62"
  ],
  "unwind": 9,
- "unwind_reason": "x",
+ "unwind_reason": "BOUNDED: a tree of at most 4 nodes has height <= 3, so every descent / successor / predecessor loop of blkmap64_rb.c and rbtree.c runs at most that often (+1 for the exit test), the neighbour loops at most once per node; rebalancing loops climb at most one level per round; harness loops have constant bounds <= 8 (global unwind 9). Every bound is confirmed by an unwinding assertion.",
  "sources": [
   "lib/ext2fs/rbtree.c"
  ],
@@ -184,9 +30,13 @@
   "lib/ext2fs/blkmap64_rb.c:rb_test_bit"
  ],
  "assumes": [
-  "BOUNDED: tree of exactly 4 well-formed extents, every red-black shape, arbitrary cursors"
+  "BOUNDED stand-in, not counted as proved: the tree has 0..4 extents (sorted, disjoint, non-adjacent, count > 0) in every red-black shape of that size; wcursor/rcursor NULL or any node, rcursor_next NULL or the successor of rcursor (any node if rcursor is NULL)",
+  "allocation does not fail: ext2fs.h is compiled with its own hook EXT2_CUSTOM_MEMORY_ROUTINES and ext2fs_get_mem/ext2fs_free_mem are the trivial malloc/free stubs of rb_common.h (typed pointer store instead of memcpy); malloc is __CPROVER_allocate, i.e. never NULL (rb_get_new_extent abort()s on failure anyway)",
+  "bitmap->real_end - bitmap->start < 2^62",
+  "argument inside [start, real_end] (guaranteed by the generic layer)"
  ],
  "backend": "minisat",
+ "no_cross_check": true,
  "native": true,
  "cbmc_flags": [
   "--object-bits",
@@ -196,666 +46,28 @@
   "ext2fs_rb_next.0": 4,
   "ext2fs_rb_next.1": 4,
   "rb_test_bit.0": 4
- }
+ },
+ "timeout": 300
 }
 */
 /* VERIF-UNIT
 {
- "name": "rb_insert_extent_n0",
- "props": [
-  "C16"
- ],
- "level": "B(0)",
- "tier": "wip",
- "harness": "h_rb_insert",
- "defines": [
-  "EXT2_CUSTOM_MEMORY_ROUTINES",
-  "RB_N=0",
-  "RB_NEW=1"
- ],
- "unwind": 9,
- "unwind_reason": "x",
- "sources": [
-  "lib/ext2fs/rbtree.c"
- ],
- "functions": [
-  "lib/ext2fs/blkmap64_rb.c:rb_insert_extent",
-  "lib/ext2fs/blkmap64_rb.c:rb_mark_bmap",
-  "lib/ext2fs/blkmap64_rb.c:rb_mark_bmap_extent",
-  "lib/ext2fs/blkmap64_rb.c:rb_get_new_extent",
-  "lib/ext2fs/blkmap64_rb.c:rb_free_extent"
- ],
- "assumes": [
-  "BOUNDED: tree of exactly 0 well-formed extents, every red-black shape, arbitrary cursors"
- ],
- "backend": "minisat",
- "native": true,
- "cbmc_flags": [
-  "--object-bits",
-  "10"
- ],
- "unwindset": {
-  "ext2fs_rb_next.0": 2,
-  "ext2fs_rb_next.1": 2,
-  "ext2fs_rb_prev.0": 2,
-  "ext2fs_rb_prev.1": 2,
-  "ext2fs_rb_erase.0": 1,
-  "__rb_erase_color.0": 1,
-  "ext2fs_rb_insert_color.0": 1,
-  "rb_insert_extent.0": 1,
-  "rb_insert_extent.1": 1
- }
-}
-*/
-/* VERIF-UNIT
-{
- "name": "rb_insert_extent_n1",
- "props": [
-  "C16"
- ],
- "level": "B(1)",
- "tier": "wip",
- "harness": "h_rb_insert",
- "defines": [
-  "EXT2_CUSTOM_MEMORY_ROUTINES",
-  "RB_N=1",
-  "RB_NEW=1"
- ],
- "unwind": 9,
- "unwind_reason": "x",
- "sources": [
-  "lib/ext2fs/rbtree.c"
- ],
- "functions": [
-  "lib/ext2fs/blkmap64_rb.c:rb_insert_extent",
-  "lib/ext2fs/blkmap64_rb.c:rb_mark_bmap",
-  "lib/ext2fs/blkmap64_rb.c:rb_mark_bmap_extent",
-  "lib/ext2fs/blkmap64_rb.c:rb_get_new_extent",
-  "lib/ext2fs/blkmap64_rb.c:rb_free_extent"
- ],
- "assumes": [
-  "BOUNDED: tree of exactly 1 well-formed extents, every red-black shape, arbitrary cursors"
- ],
- "backend": "minisat",
- "native": true,
- "cbmc_flags": [
-  "--object-bits",
-  "10"
- ],
- "unwindset": {
-  "ext2fs_rb_next.0": 3,
-  "ext2fs_rb_next.1": 3,
-  "ext2fs_rb_prev.0": 3,
-  "ext2fs_rb_prev.1": 3,
-  "ext2fs_rb_erase.0": 1,
-  "__rb_erase_color.0": 1,
-  "ext2fs_rb_insert_color.0": 1,
-  "rb_insert_extent.0": 2,
-  "rb_insert_extent.1": 2
- }
-}
-*/
-/* VERIF-UNIT
-{
- "name": "rb_insert_extent_n2",
- "props": [
-  "C16"
- ],
- "level": "B(2)",
- "tier": "wip",
- "harness": "h_rb_insert",
- "defines": [
-  "EXT2_CUSTOM_MEMORY_ROUTINES",
-  "RB_N=2",
-  "RB_NEW=1"
- ],
- "unwind": 9,
- "unwind_reason": "x",
- "sources": [
-  "lib/ext2fs/rbtree.c"
- ],
- "functions": [
-  "lib/ext2fs/blkmap64_rb.c:rb_insert_extent",
-  "lib/ext2fs/blkmap64_rb.c:rb_mark_bmap",
-  "lib/ext2fs/blkmap64_rb.c:rb_mark_bmap_extent",
-  "lib/ext2fs/blkmap64_rb.c:rb_get_new_extent",
-  "lib/ext2fs/blkmap64_rb.c:rb_free_extent"
- ],
- "assumes": [
-  "BOUNDED: tree of exactly 2 well-formed extents, every red-black shape, arbitrary cursors"
- ],
- "backend": "minisat",
- "native": true,
- "cbmc_flags": [
-  "--object-bits",
-  "10"
- ],
- "unwindset": {
-  "ext2fs_rb_next.0": 3,
-  "ext2fs_rb_next.1": 3,
-  "ext2fs_rb_prev.0": 3,
-  "ext2fs_rb_prev.1": 3,
-  "ext2fs_rb_erase.0": 2,
-  "__rb_erase_color.0": 2,
-  "ext2fs_rb_insert_color.0": 2,
-  "rb_insert_extent.0": 3,
-  "rb_insert_extent.1": 3
- }
-}
-*/
-/* VERIF-UNIT
-{
- "name": "rb_insert_extent_n3",
- "props": [
-  "C16"
- ],
- "level": "B(3)",
- "tier": "wip",
- "harness": "h_rb_insert",
- "defines": [
-  "EXT2_CUSTOM_MEMORY_ROUTINES",
-  "RB_N=3",
-  "RB_NEW=1"
- ],
- "unwind": 9,
- "unwind_reason": "x",
- "sources": [
-  "lib/ext2fs/rbtree.c"
- ],
- "functions": [
-  "lib/ext2fs/blkmap64_rb.c:rb_insert_extent",
-  "lib/ext2fs/blkmap64_rb.c:rb_mark_bmap",
-  "lib/ext2fs/blkmap64_rb.c:rb_mark_bmap_extent",
-  "lib/ext2fs/blkmap64_rb.c:rb_get_new_extent",
-  "lib/ext2fs/blkmap64_rb.c:rb_free_extent"
- ],
- "assumes": [
-  "BOUNDED: tree of exactly 3 well-formed extents, every red-black shape, arbitrary cursors"
- ],
- "backend": "minisat",
- "native": true,
- "cbmc_flags": [
-  "--object-bits",
-  "10"
- ],
- "unwindset": {
-  "ext2fs_rb_next.0": 4,
-  "ext2fs_rb_next.1": 4,
-  "ext2fs_rb_prev.0": 4,
-  "ext2fs_rb_prev.1": 4,
-  "ext2fs_rb_erase.0": 2,
-  "__rb_erase_color.0": 2,
-  "ext2fs_rb_insert_color.0": 2,
-  "rb_insert_extent.0": 3,
-  "rb_insert_extent.1": 4
- }
-}
-*/
-/* VERIF-UNIT
-{
- "name": "rb_insert_extent_n4",
+ "name": "rb_test_clear_extent_b4",
  "props": [
   "C16"
  ],
  "level": "B(4)",
- "tier": "wip",
- "harness": "h_rb_insert",
- "defines": [
-  "EXT2_CUSTOM_MEMORY_ROUTINES",
-  "RB_N=4",
-  "RB_NEW=1"
- ],
- "unwind": 9,
- "unwind_reason": "x",
- "sources": [
-  "lib/ext2fs/rbtree.c"
- ],
- "functions": [
-  "lib/ext2fs/blkmap64_rb.c:rb_insert_extent",
-  "lib/ext2fs/blkmap64_rb.c:rb_mark_bmap",
-  "lib/ext2fs/blkmap64_rb.c:rb_mark_bmap_extent",
-  "lib/ext2fs/blkmap64_rb.c:rb_get_new_extent",
-  "lib/ext2fs/blkmap64_rb.c:rb_free_extent"
- ],
- "assumes": [
-  "BOUNDED: tree of exactly 4 well-formed extents, every red-black shape, arbitrary cursors"
- ],
- "backend": "minisat",
- "native": true,
- "cbmc_flags": [
-  "--object-bits",
-  "10"
- ],
- "unwindset": {
-  "ext2fs_rb_next.0": 4,
-  "ext2fs_rb_next.1": 4,
-  "ext2fs_rb_prev.0": 4,
-  "ext2fs_rb_prev.1": 4,
-  "ext2fs_rb_erase.0": 3,
-  "__rb_erase_color.0": 3,
-  "ext2fs_rb_insert_color.0": 2,
-  "rb_insert_extent.0": 4,
-  "rb_insert_extent.1": 5
- }
-}
-*/
-/* VERIF-UNIT
-{
- "name": "rb_remove_extent_n0",
- "props": [
-  "C16"
- ],
- "level": "B(0)",
- "tier": "wip",
- "harness": "h_rb_remove",
- "defines": [
-  "EXT2_CUSTOM_MEMORY_ROUTINES",
-  "RB_N=0",
-  "RB_NEW=1"
- ],
- "unwind": 9,
- "unwind_reason": "x",
- "sources": [
-  "lib/ext2fs/rbtree.c"
- ],
- "functions": [
-  "lib/ext2fs/blkmap64_rb.c:rb_remove_extent",
-  "lib/ext2fs/blkmap64_rb.c:rb_unmark_bmap",
-  "lib/ext2fs/blkmap64_rb.c:rb_unmark_bmap_extent",
-  "lib/ext2fs/blkmap64_rb.c:rb_free_extent"
- ],
- "assumes": [
-  "BOUNDED: tree of exactly 0 well-formed extents, every red-black shape, arbitrary cursors"
- ],
- "backend": "minisat",
- "native": true,
- "cbmc_flags": [
-  "--object-bits",
-  "10"
- ],
- "unwindset": {
-  "ext2fs_rb_next.0": 2,
-  "ext2fs_rb_next.1": 2,
-  "ext2fs_rb_prev.0": 2,
-  "ext2fs_rb_prev.1": 2,
-  "ext2fs_rb_erase.0": 1,
-  "__rb_erase_color.0": 1,
-  "ext2fs_rb_insert_color.0": 1,
-  "rb_insert_extent.0": 1,
-  "rb_insert_extent.1": 1,
-  "rb_remove_extent.0": 2,
-  "rb_remove_extent.1": 2
- }
-}
-*/
-/* VERIF-UNIT
-{
- "name": "rb_remove_extent_n1",
- "props": [
-  "C16"
- ],
- "level": "B(1)",
- "tier": "wip",
- "harness": "h_rb_remove",
- "defines": [
-  "EXT2_CUSTOM_MEMORY_ROUTINES",
-  "RB_N=1",
-  "RB_NEW=1"
- ],
- "unwind": 9,
- "unwind_reason": "x",
- "sources": [
-  "lib/ext2fs/rbtree.c"
- ],
- "functions": [
-  "lib/ext2fs/blkmap64_rb.c:rb_remove_extent",
-  "lib/ext2fs/blkmap64_rb.c:rb_unmark_bmap",
-  "lib/ext2fs/blkmap64_rb.c:rb_unmark_bmap_extent",
-  "lib/ext2fs/blkmap64_rb.c:rb_free_extent"
- ],
- "assumes": [
-  "BOUNDED: tree of exactly 1 well-formed extents, every red-black shape, arbitrary cursors"
- ],
- "backend": "minisat",
- "native": true,
- "cbmc_flags": [
-  "--object-bits",
-  "10"
- ],
- "unwindset": {
-  "ext2fs_rb_next.0": 3,
-  "ext2fs_rb_next.1": 3,
-  "ext2fs_rb_prev.0": 3,
-  "ext2fs_rb_prev.1": 3,
-  "ext2fs_rb_erase.0": 1,
-  "__rb_erase_color.0": 1,
-  "ext2fs_rb_insert_color.0": 1,
-  "rb_insert_extent.0": 2,
-  "rb_insert_extent.1": 2,
-  "rb_remove_extent.0": 3,
-  "rb_remove_extent.1": 3
- }
-}
-*/
-/* VERIF-UNIT
-{
- "name": "rb_remove_extent_n2",
- "props": [
-  "C16"
- ],
- "level": "B(2)",
- "tier": "wip",
- "harness": "h_rb_remove",
- "defines": [
-  "EXT2_CUSTOM_MEMORY_ROUTINES",
-  "RB_N=2",
-  "RB_NEW=1"
- ],
- "unwind": 9,
- "unwind_reason": "x",
- "sources": [
-  "lib/ext2fs/rbtree.c"
- ],
- "functions": [
-  "lib/ext2fs/blkmap64_rb.c:rb_remove_extent",
-  "lib/ext2fs/blkmap64_rb.c:rb_unmark_bmap",
-  "lib/ext2fs/blkmap64_rb.c:rb_unmark_bmap_extent",
-  "lib/ext2fs/blkmap64_rb.c:rb_free_extent"
- ],
- "assumes": [
-  "BOUNDED: tree of exactly 2 well-formed extents, every red-black shape, arbitrary cursors"
- ],
- "backend": "minisat",
- "native": true,
- "cbmc_flags": [
-  "--object-bits",
-  "10"
- ],
- "unwindset": {
-  "ext2fs_rb_next.0": 3,
-  "ext2fs_rb_next.1": 3,
-  "ext2fs_rb_prev.0": 3,
-  "ext2fs_rb_prev.1": 3,
-  "ext2fs_rb_erase.0": 2,
-  "__rb_erase_color.0": 2,
-  "ext2fs_rb_insert_color.0": 2,
-  "rb_insert_extent.0": 3,
-  "rb_insert_extent.1": 3,
-  "rb_remove_extent.0": 4,
-  "rb_remove_extent.1": 4
- }
-}
-*/
-/* VERIF-UNIT
-{
- "name": "rb_remove_extent_n3",
- "props": [
-  "C16"
- ],
- "level": "B(3)",
- "tier": "wip",
- "harness": "h_rb_remove",
- "defines": [
-  "EXT2_CUSTOM_MEMORY_ROUTINES",
-  "RB_N=3",
-  "RB_NEW=1"
- ],
- "unwind": 9,
- "unwind_reason": "x",
- "sources": [
-  "lib/ext2fs/rbtree.c"
- ],
- "functions": [
-  "lib/ext2fs/blkmap64_rb.c:rb_remove_extent",
-  "lib/ext2fs/blkmap64_rb.c:rb_unmark_bmap",
-  "lib/ext2fs/blkmap64_rb.c:rb_unmark_bmap_extent",
-  "lib/ext2fs/blkmap64_rb.c:rb_free_extent"
- ],
- "assumes": [
-  "BOUNDED: tree of exactly 3 well-formed extents, every red-black shape, arbitrary cursors"
- ],
- "backend": "minisat",
- "native": true,
- "cbmc_flags": [
-  "--object-bits",
-  "10"
- ],
- "unwindset": {
-  "ext2fs_rb_next.0": 4,
-  "ext2fs_rb_next.1": 4,
-  "ext2fs_rb_prev.0": 4,
-  "ext2fs_rb_prev.1": 4,
-  "ext2fs_rb_erase.0": 2,
-  "__rb_erase_color.0": 2,
-  "ext2fs_rb_insert_color.0": 2,
-  "rb_insert_extent.0": 3,
-  "rb_insert_extent.1": 4,
-  "rb_remove_extent.0": 4,
-  "rb_remove_extent.1": 5
- }
-}
-*/
-/* VERIF-UNIT
-{
- "name": "rb_remove_extent_n4",
- "props": [
-  "C16"
- ],
- "level": "B(4)",
- "tier": "wip",
- "harness": "h_rb_remove",
- "defines": [
-  "EXT2_CUSTOM_MEMORY_ROUTINES",
-  "RB_N=4",
-  "RB_NEW=1"
- ],
- "unwind": 9,
- "unwind_reason": "x",
- "sources": [
-  "lib/ext2fs/rbtree.c"
- ],
- "functions": [
-  "lib/ext2fs/blkmap64_rb.c:rb_remove_extent",
-  "lib/ext2fs/blkmap64_rb.c:rb_unmark_bmap",
-  "lib/ext2fs/blkmap64_rb.c:rb_unmark_bmap_extent",
-  "lib/ext2fs/blkmap64_rb.c:rb_free_extent"
- ],
- "assumes": [
-  "BOUNDED: tree of exactly 4 well-formed extents, every red-black shape, arbitrary cursors"
- ],
- "backend": "minisat",
- "native": true,
- "cbmc_flags": [
-  "--object-bits",
-  "10"
- ],
- "unwindset": {
-  "ext2fs_rb_next.0": 4,
-  "ext2fs_rb_next.1": 4,
-  "ext2fs_rb_prev.0": 4,
-  "ext2fs_rb_prev.1": 4,
-  "ext2fs_rb_erase.0": 3,
-  "__rb_erase_color.0": 3,
-  "ext2fs_rb_insert_color.0": 2,
-  "rb_insert_extent.0": 4,
-  "rb_insert_extent.1": 5,
-  "rb_remove_extent.0": 5,
-  "rb_remove_extent.1": 6
- }
-}
-*/
-/* VERIF-UNIT
-{
- "name": "rb_test_clear_extent_n0",
- "props": [
-  "C16"
- ],
- "level": "B(0)",
- "tier": "wip",
- "harness": "h_rb_test_clear",
- "defines": [
-  "EXT2_CUSTOM_MEMORY_ROUTINES",
-  "RB_N=0",
-  "RB_NEW=0"
- ],
- "unwind": 9,
- "unwind_reason": "x",
- "sources": [
-  "lib/ext2fs/rbtree.c"
- ],
- "functions": [
-  "lib/ext2fs/blkmap64_rb.c:rb_test_clear_bmap_extent"
- ],
- "assumes": [
-  "BOUNDED: tree of exactly 0 well-formed extents, every red-black shape, arbitrary cursors"
- ],
- "backend": "minisat",
- "native": true,
- "cbmc_flags": [
-  "--object-bits",
-  "10"
- ],
- "unwindset": {
-  "ext2fs_rb_next.0": 1,
-  "ext2fs_rb_next.1": 1,
-  "rb_test_clear_bmap_extent.0": 1,
-  "rb_test_clear_bmap_extent.1": 1
- }
-}
-*/
-/* VERIF-UNIT
-{
- "name": "rb_test_clear_extent_n1",
- "props": [
-  "C16"
- ],
- "level": "B(1)",
- "tier": "wip",
- "harness": "h_rb_test_clear",
- "defines": [
-  "EXT2_CUSTOM_MEMORY_ROUTINES",
-  "RB_N=1",
-  "RB_NEW=0"
- ],
- "unwind": 9,
- "unwind_reason": "x",
- "sources": [
-  "lib/ext2fs/rbtree.c"
- ],
- "functions": [
-  "lib/ext2fs/blkmap64_rb.c:rb_test_clear_bmap_extent"
- ],
- "assumes": [
-  "BOUNDED: tree of exactly 1 well-formed extents, every red-black shape, arbitrary cursors"
- ],
- "backend": "minisat",
- "native": true,
- "cbmc_flags": [
-  "--object-bits",
-  "10"
- ],
- "unwindset": {
-  "ext2fs_rb_next.0": 2,
-  "ext2fs_rb_next.1": 2,
-  "rb_test_clear_bmap_extent.0": 2,
-  "rb_test_clear_bmap_extent.1": 2
- }
-}
-*/
-/* VERIF-UNIT
-{
- "name": "rb_test_clear_extent_n2",
- "props": [
-  "C16"
- ],
- "level": "B(2)",
- "tier": "wip",
- "harness": "h_rb_test_clear",
- "defines": [
-  "EXT2_CUSTOM_MEMORY_ROUTINES",
-  "RB_N=2",
-  "RB_NEW=0"
- ],
- "unwind": 9,
- "unwind_reason": "x",
- "sources": [
-  "lib/ext2fs/rbtree.c"
- ],
- "functions": [
-  "lib/ext2fs/blkmap64_rb.c:rb_test_clear_bmap_extent"
- ],
- "assumes": [
-  "BOUNDED: tree of exactly 2 well-formed extents, every red-black shape, arbitrary cursors"
- ],
- "backend": "minisat",
- "native": true,
- "cbmc_flags": [
-  "--object-bits",
-  "10"
- ],
- "unwindset": {
-  "ext2fs_rb_next.0": 3,
-  "ext2fs_rb_next.1": 3,
-  "rb_test_clear_bmap_extent.0": 3,
-  "rb_test_clear_bmap_extent.1": 3
- }
-}
-*/
-/* VERIF-UNIT
-{
- "name": "rb_test_clear_extent_n3",
- "props": [
-  "C16"
- ],
- "level": "B(3)",
- "tier": "wip",
- "harness": "h_rb_test_clear",
- "defines": [
-  "EXT2_CUSTOM_MEMORY_ROUTINES",
-  "RB_N=3",
-  "RB_NEW=0"
- ],
- "unwind": 9,
- "unwind_reason": "x",
- "sources": [
-  "lib/ext2fs/rbtree.c"
- ],
- "functions": [
-  "lib/ext2fs/blkmap64_rb.c:rb_test_clear_bmap_extent"
- ],
- "assumes": [
-  "BOUNDED: tree of exactly 3 well-formed extents, every red-black shape, arbitrary cursors"
- ],
- "backend": "minisat",
- "native": true,
- "cbmc_flags": [
-  "--object-bits",
-  "10"
- ],
- "unwindset": {
-  "ext2fs_rb_next.0": 3,
-  "ext2fs_rb_next.1": 3,
-  "rb_test_clear_bmap_extent.0": 3,
-  "rb_test_clear_bmap_extent.1": 4
- }
-}
-*/
-/* VERIF-UNIT
-{
- "name": "rb_test_clear_extent_n4",
- "props": [
-  "C16"
- ],
- "level": "B(4)",
- "tier": "wip",
+ "tier": "quick",
  "harness": "h_rb_test_clear",
  "defines": [
   "EXT2_CUSTOM_MEMORY_ROUTINES",
   "RB_N=4",
-  "RB_NEW=0"
+  "RB_NSYM",
+  "RB_NEW=0",
+  "RB_BITS=62"
  ],
  "unwind": 9,
- "unwind_reason": "x",
+ "unwind_reason": "BOUNDED: a tree of at most 4 nodes has height <= 3, so every descent / successor / predecessor loop of blkmap64_rb.c and rbtree.c runs at most that often (+1 for the exit test), the neighbour loops at most once per node; rebalancing loops climb at most one level per round; harness loops have constant bounds <= 8 (global unwind 9). Every bound is confirmed by an unwinding assertion.",
  "sources": [
   "lib/ext2fs/rbtree.c"
  ],
@@ -863,9 +75,13 @@
   "lib/ext2fs/blkmap64_rb.c:rb_test_clear_bmap_extent"
  ],
  "assumes": [
-  "BOUNDED: tree of exactly 4 well-formed extents, every red-black shape, arbitrary cursors"
+  "BOUNDED stand-in, not counted as proved: the tree has 0..4 extents (sorted, disjoint, non-adjacent, count > 0) in every red-black shape of that size; wcursor/rcursor NULL or any node, rcursor_next NULL or the successor of rcursor (any node if rcursor is NULL)",
+  "allocation does not fail: ext2fs.h is compiled with its own hook EXT2_CUSTOM_MEMORY_ROUTINES and ext2fs_get_mem/ext2fs_free_mem are the trivial malloc/free stubs of rb_common.h (typed pointer store instead of memcpy); malloc is __CPROVER_allocate, i.e. never NULL (rb_get_new_extent abort()s on failure anyway)",
+  "bitmap->real_end - bitmap->start < 2^62",
+  "range inside [start, real_end], len >= 1 (generic layer)"
  ],
  "backend": "minisat",
+ "no_cross_check": true,
  "native": true,
  "cbmc_flags": [
   "--object-bits",
@@ -876,133 +92,28 @@
   "ext2fs_rb_next.1": 4,
   "rb_test_clear_bmap_extent.0": 4,
   "rb_test_clear_bmap_extent.1": 5
- }
+ },
+ "timeout": 300
 }
 */
 /* VERIF-UNIT
 {
- "name": "rb_find_first_zero_n0",
- "props": [
-  "C16"
- ],
- "level": "B(0)",
- "tier": "wip",
- "harness": "h_rb_ffz",
- "defines": [
-  "EXT2_CUSTOM_MEMORY_ROUTINES",
-  "RB_N=0",
-  "RB_NEW=0"
- ],
- "unwind": 9,
- "unwind_reason": "x",
- "sources": [
-  "lib/ext2fs/rbtree.c"
- ],
- "functions": [
-  "lib/ext2fs/blkmap64_rb.c:rb_find_first_zero"
- ],
- "assumes": [
-  "BOUNDED: tree of exactly 0 well-formed extents, every red-black shape, arbitrary cursors"
- ],
- "backend": "minisat",
- "native": true,
- "cbmc_flags": [
-  "--object-bits",
-  "10"
- ],
- "unwindset": {
-  "rb_find_first_zero.0": 1
- }
-}
-*/
-/* VERIF-UNIT
-{
- "name": "rb_find_first_zero_n1",
- "props": [
-  "C16"
- ],
- "level": "B(1)",
- "tier": "wip",
- "harness": "h_rb_ffz",
- "defines": [
-  "EXT2_CUSTOM_MEMORY_ROUTINES",
-  "RB_N=1",
-  "RB_NEW=0"
- ],
- "unwind": 9,
- "unwind_reason": "x",
- "sources": [
-  "lib/ext2fs/rbtree.c"
- ],
- "functions": [
-  "lib/ext2fs/blkmap64_rb.c:rb_find_first_zero"
- ],
- "assumes": [
-  "BOUNDED: tree of exactly 1 well-formed extents, every red-black shape, arbitrary cursors"
- ],
- "backend": "minisat",
- "native": true,
- "cbmc_flags": [
-  "--object-bits",
-  "10"
- ],
- "unwindset": {
-  "rb_find_first_zero.0": 2
- }
-}
-*/
-/* VERIF-UNIT
-{
- "name": "rb_find_first_zero_n2",
- "props": [
-  "C16"
- ],
- "level": "B(2)",
- "tier": "wip",
- "harness": "h_rb_ffz",
- "defines": [
-  "EXT2_CUSTOM_MEMORY_ROUTINES",
-  "RB_N=2",
-  "RB_NEW=0"
- ],
- "unwind": 9,
- "unwind_reason": "x",
- "sources": [
-  "lib/ext2fs/rbtree.c"
- ],
- "functions": [
-  "lib/ext2fs/blkmap64_rb.c:rb_find_first_zero"
- ],
- "assumes": [
-  "BOUNDED: tree of exactly 2 well-formed extents, every red-black shape, arbitrary cursors"
- ],
- "backend": "minisat",
- "native": true,
- "cbmc_flags": [
-  "--object-bits",
-  "10"
- ],
- "unwindset": {
-  "rb_find_first_zero.0": 3
- }
-}
-*/
-/* VERIF-UNIT
-{
- "name": "rb_find_first_zero_n3",
+ "name": "rb_find_first_zero_b3",
  "props": [
   "C16"
  ],
  "level": "B(3)",
- "tier": "wip",
+ "tier": "quick",
  "harness": "h_rb_ffz",
  "defines": [
   "EXT2_CUSTOM_MEMORY_ROUTINES",
   "RB_N=3",
-  "RB_NEW=0"
+  "RB_NSYM",
+  "RB_NEW=0",
+  "RB_BITS=62"
  ],
  "unwind": 9,
- "unwind_reason": "x",
+ "unwind_reason": "BOUNDED: a tree of at most 3 nodes has height <= 2, so every descent / successor / predecessor loop of blkmap64_rb.c and rbtree.c runs at most that often (+1 for the exit test), the neighbour loops at most once per node; rebalancing loops climb at most one level per round; harness loops have constant bounds <= 8 (global unwind 9). Every bound is confirmed by an unwinding assertion.",
  "sources": [
   "lib/ext2fs/rbtree.c"
  ],
@@ -1010,9 +121,13 @@
   "lib/ext2fs/blkmap64_rb.c:rb_find_first_zero"
  ],
  "assumes": [
-  "BOUNDED: tree of exactly 3 well-formed extents, every red-black shape, arbitrary cursors"
+  "BOUNDED stand-in, not counted as proved: the tree has 0..3 extents (sorted, disjoint, non-adjacent, count > 0) in every red-black shape of that size; wcursor/rcursor NULL or any node, rcursor_next NULL or the successor of rcursor (any node if rcursor is NULL)",
+  "allocation does not fail: ext2fs.h is compiled with its own hook EXT2_CUSTOM_MEMORY_ROUTINES and ext2fs_get_mem/ext2fs_free_mem are the trivial malloc/free stubs of rb_common.h (typed pointer store instead of memcpy); malloc is __CPROVER_allocate, i.e. never NULL (rb_get_new_extent abort()s on failure anyway)",
+  "bitmap->real_end - bitmap->start < 2^62",
+  "bitmap start <= start <= end <= bitmap end (checked by the generic layer)"
  ],
  "backend": "minisat",
+ "no_cross_check": true,
  "native": true,
  "cbmc_flags": [
   "--object-bits",
@@ -1020,25 +135,28 @@
  ],
  "unwindset": {
   "rb_find_first_zero.0": 3
- }
+ },
+ "timeout": 300
 }
 */
 /* VERIF-UNIT
 {
- "name": "rb_find_first_zero_n4",
+ "name": "rb_find_first_zero_b4",
  "props": [
   "C16"
  ],
  "level": "B(4)",
- "tier": "wip",
+ "tier": "thorough",
  "harness": "h_rb_ffz",
  "defines": [
   "EXT2_CUSTOM_MEMORY_ROUTINES",
   "RB_N=4",
-  "RB_NEW=0"
+  "RB_NSYM",
+  "RB_NEW=0",
+  "RB_BITS=62"
  ],
  "unwind": 9,
- "unwind_reason": "x",
+ "unwind_reason": "BOUNDED: a tree of at most 4 nodes has height <= 3, so every descent / successor / predecessor loop of blkmap64_rb.c and rbtree.c runs at most that often (+1 for the exit test), the neighbour loops at most once per node; rebalancing loops climb at most one level per round; harness loops have constant bounds <= 8 (global unwind 9). Every bound is confirmed by an unwinding assertion.",
  "sources": [
   "lib/ext2fs/rbtree.c"
  ],
@@ -1046,9 +164,13 @@
   "lib/ext2fs/blkmap64_rb.c:rb_find_first_zero"
  ],
  "assumes": [
-  "BOUNDED: tree of exactly 4 well-formed extents, every red-black shape, arbitrary cursors"
+  "BOUNDED stand-in, not counted as proved: the tree has 0..4 extents (sorted, disjoint, non-adjacent, count > 0) in every red-black shape of that size; wcursor/rcursor NULL or any node, rcursor_next NULL or the successor of rcursor (any node if rcursor is NULL)",
+  "allocation does not fail: ext2fs.h is compiled with its own hook EXT2_CUSTOM_MEMORY_ROUTINES and ext2fs_get_mem/ext2fs_free_mem are the trivial malloc/free stubs of rb_common.h (typed pointer store instead of memcpy); malloc is __CPROVER_allocate, i.e. never NULL (rb_get_new_extent abort()s on failure anyway)",
+  "bitmap->real_end - bitmap->start < 2^62",
+  "bitmap start <= start <= end <= bitmap end (checked by the generic layer)"
  ],
  "backend": "minisat",
+ "no_cross_check": true,
  "native": true,
  "cbmc_flags": [
   "--object-bits",
@@ -1056,177 +178,28 @@
  ],
  "unwindset": {
   "rb_find_first_zero.0": 4
- }
+ },
+ "timeout": 1200
 }
 */
 /* VERIF-UNIT
 {
- "name": "rb_find_first_set_n0",
- "props": [
-  "C16"
- ],
- "level": "B(0)",
- "tier": "wip",
- "harness": "h_rb_ffs",
- "defines": [
-  "EXT2_CUSTOM_MEMORY_ROUTINES",
-  "RB_N=0",
-  "RB_NEW=0"
- ],
- "unwind": 9,
- "unwind_reason": "x",
- "sources": [
-  "lib/ext2fs/rbtree.c"
- ],
- "functions": [
-  "lib/ext2fs/blkmap64_rb.c:rb_find_first_set"
- ],
- "assumes": [
-  "BOUNDED: tree of exactly 0 well-formed extents, every red-black shape, arbitrary cursors"
- ],
- "backend": "minisat",
- "native": true,
- "cbmc_flags": [
-  "--object-bits",
-  "10"
- ],
- "unwindset": {
-  "ext2fs_rb_next.0": 1,
-  "ext2fs_rb_next.1": 1,
-  "rb_find_first_set.0": 1
- }
-}
-*/
-/* VERIF-UNIT
-{
- "name": "rb_find_first_set_n1",
- "props": [
-  "C16"
- ],
- "level": "B(1)",
- "tier": "wip",
- "harness": "h_rb_ffs",
- "defines": [
-  "EXT2_CUSTOM_MEMORY_ROUTINES",
-  "RB_N=1",
-  "RB_NEW=0"
- ],
- "unwind": 9,
- "unwind_reason": "x",
- "sources": [
-  "lib/ext2fs/rbtree.c"
- ],
- "functions": [
-  "lib/ext2fs/blkmap64_rb.c:rb_find_first_set"
- ],
- "assumes": [
-  "BOUNDED: tree of exactly 1 well-formed extents, every red-black shape, arbitrary cursors"
- ],
- "backend": "minisat",
- "native": true,
- "cbmc_flags": [
-  "--object-bits",
-  "10"
- ],
- "unwindset": {
-  "ext2fs_rb_next.0": 2,
-  "ext2fs_rb_next.1": 2,
-  "rb_find_first_set.0": 2
- }
-}
-*/
-/* VERIF-UNIT
-{
- "name": "rb_find_first_set_n2",
- "props": [
-  "C16"
- ],
- "level": "B(2)",
- "tier": "wip",
- "harness": "h_rb_ffs",
- "defines": [
-  "EXT2_CUSTOM_MEMORY_ROUTINES",
-  "RB_N=2",
-  "RB_NEW=0"
- ],
- "unwind": 9,
- "unwind_reason": "x",
- "sources": [
-  "lib/ext2fs/rbtree.c"
- ],
- "functions": [
-  "lib/ext2fs/blkmap64_rb.c:rb_find_first_set"
- ],
- "assumes": [
-  "BOUNDED: tree of exactly 2 well-formed extents, every red-black shape, arbitrary cursors"
- ],
- "backend": "minisat",
- "native": true,
- "cbmc_flags": [
-  "--object-bits",
-  "10"
- ],
- "unwindset": {
-  "ext2fs_rb_next.0": 3,
-  "ext2fs_rb_next.1": 3,
-  "rb_find_first_set.0": 3
- }
-}
-*/
-/* VERIF-UNIT
-{
- "name": "rb_find_first_set_n3",
- "props": [
-  "C16"
- ],
- "level": "B(3)",
- "tier": "wip",
- "harness": "h_rb_ffs",
- "defines": [
-  "EXT2_CUSTOM_MEMORY_ROUTINES",
-  "RB_N=3",
-  "RB_NEW=0"
- ],
- "unwind": 9,
- "unwind_reason": "x",
- "sources": [
-  "lib/ext2fs/rbtree.c"
- ],
- "functions": [
-  "lib/ext2fs/blkmap64_rb.c:rb_find_first_set"
- ],
- "assumes": [
-  "BOUNDED: tree of exactly 3 well-formed extents, every red-black shape, arbitrary cursors"
- ],
- "backend": "minisat",
- "native": true,
- "cbmc_flags": [
-  "--object-bits",
-  "10"
- ],
- "unwindset": {
-  "ext2fs_rb_next.0": 3,
-  "ext2fs_rb_next.1": 3,
-  "rb_find_first_set.0": 3
- }
-}
-*/
-/* VERIF-UNIT
-{
- "name": "rb_find_first_set_n4",
+ "name": "rb_find_first_set_b4",
  "props": [
   "C16"
  ],
  "level": "B(4)",
- "tier": "wip",
+ "tier": "quick",
  "harness": "h_rb_ffs",
  "defines": [
   "EXT2_CUSTOM_MEMORY_ROUTINES",
   "RB_N=4",
-  "RB_NEW=0"
+  "RB_NSYM",
+  "RB_NEW=0",
+  "RB_BITS=62"
  ],
  "unwind": 9,
- "unwind_reason": "x",
+ "unwind_reason": "BOUNDED: a tree of at most 4 nodes has height <= 3, so every descent / successor / predecessor loop of blkmap64_rb.c and rbtree.c runs at most that often (+1 for the exit test), the neighbour loops at most once per node; rebalancing loops climb at most one level per round; harness loops have constant bounds <= 8 (global unwind 9). Every bound is confirmed by an unwinding assertion.",
  "sources": [
   "lib/ext2fs/rbtree.c"
  ],
@@ -1234,9 +207,13 @@
   "lib/ext2fs/blkmap64_rb.c:rb_find_first_set"
  ],
  "assumes": [
-  "BOUNDED: tree of exactly 4 well-formed extents, every red-black shape, arbitrary cursors"
+  "BOUNDED stand-in, not counted as proved: the tree has 0..4 extents (sorted, disjoint, non-adjacent, count > 0) in every red-black shape of that size; wcursor/rcursor NULL or any node, rcursor_next NULL or the successor of rcursor (any node if rcursor is NULL)",
+  "allocation does not fail: ext2fs.h is compiled with its own hook EXT2_CUSTOM_MEMORY_ROUTINES and ext2fs_get_mem/ext2fs_free_mem are the trivial malloc/free stubs of rb_common.h (typed pointer store instead of memcpy); malloc is __CPROVER_allocate, i.e. never NULL (rb_get_new_extent abort()s on failure anyway)",
+  "bitmap->real_end - bitmap->start < 2^62",
+  "bitmap start <= start <= end <= bitmap end (checked by the generic layer)"
  ],
  "backend": "minisat",
+ "no_cross_check": true,
  "native": true,
  "cbmc_flags": [
   "--object-bits",
@@ -1246,1048 +223,29 @@
   "ext2fs_rb_next.0": 4,
   "ext2fs_rb_next.1": 4,
   "rb_find_first_set.0": 4
- }
+ },
+ "timeout": 300
 }
 */
 /* VERIF-UNIT
 {
- "name": "rb_resize_bmap_n0",
- "props": [
-  "C16"
- ],
- "level": "B(0)",
- "tier": "wip",
- "harness": "h_rb_resize",
- "defines": [
-  "EXT2_CUSTOM_MEMORY_ROUTINES",
-  "RB_N=0",
-  "RB_NEW=1"
- ],
- "unwind": 9,
- "unwind_reason": "x",
- "sources": [
-  "lib/ext2fs/rbtree.c"
- ],
- "functions": [
-  "lib/ext2fs/blkmap64_rb.c:rb_resize_bmap",
-  "lib/ext2fs/blkmap64_rb.c:rb_truncate",
-  "lib/ext2fs/blkmap64_rb.c:rb_insert_extent"
- ],
- "assumes": [
-  "BOUNDED: tree of exactly 0 well-formed extents, every red-black shape, arbitrary cursors"
- ],
- "backend": "minisat",
- "native": true,
- "cbmc_flags": [
-  "--object-bits",
-  "10"
- ],
- "unwindset": {
-  "ext2fs_rb_next.0": 2,
-  "ext2fs_rb_next.1": 2,
-  "ext2fs_rb_prev.0": 2,
-  "ext2fs_rb_prev.1": 2,
-  "ext2fs_rb_last.0": 2,
-  "ext2fs_rb_erase.0": 1,
-  "__rb_erase_color.0": 1,
-  "ext2fs_rb_insert_color.0": 1,
-  "rb_insert_extent.0": 1,
-  "rb_insert_extent.1": 1,
-  "rb_truncate.0": 3
- }
-}
-*/
-/* VERIF-UNIT
-{
- "name": "rb_resize_bmap_n1",
+ "name": "rb_get_bmap_range_b1",
  "props": [
   "C16"
  ],
  "level": "B(1)",
- "tier": "wip",
- "harness": "h_rb_resize",
- "defines": [
-  "EXT2_CUSTOM_MEMORY_ROUTINES",
-  "RB_N=1",
-  "RB_NEW=1"
- ],
- "unwind": 9,
- "unwind_reason": "x",
- "sources": [
-  "lib/ext2fs/rbtree.c"
- ],
- "functions": [
-  "lib/ext2fs/blkmap64_rb.c:rb_resize_bmap",
-  "lib/ext2fs/blkmap64_rb.c:rb_truncate",
-  "lib/ext2fs/blkmap64_rb.c:rb_insert_extent"
- ],
- "assumes": [
-  "BOUNDED: tree of exactly 1 well-formed extents, every red-black shape, arbitrary cursors"
- ],
- "backend": "minisat",
- "native": true,
- "cbmc_flags": [
-  "--object-bits",
-  "10"
- ],
- "unwindset": {
-  "ext2fs_rb_next.0": 3,
-  "ext2fs_rb_next.1": 3,
-  "ext2fs_rb_prev.0": 3,
-  "ext2fs_rb_prev.1": 3,
-  "ext2fs_rb_last.0": 3,
-  "ext2fs_rb_erase.0": 1,
-  "__rb_erase_color.0": 1,
-  "ext2fs_rb_insert_color.0": 1,
-  "rb_insert_extent.0": 2,
-  "rb_insert_extent.1": 2,
-  "rb_truncate.0": 4
- }
-}
-*/
-/* VERIF-UNIT
-{
- "name": "rb_resize_bmap_n2",
- "props": [
-  "C16"
- ],
- "level": "B(2)",
- "tier": "wip",
- "harness": "h_rb_resize",
- "defines": [
-  "EXT2_CUSTOM_MEMORY_ROUTINES",
-  "RB_N=2",
-  "RB_NEW=1"
- ],
- "unwind": 9,
- "unwind_reason": "x",
- "sources": [
-  "lib/ext2fs/rbtree.c"
- ],
- "functions": [
-  "lib/ext2fs/blkmap64_rb.c:rb_resize_bmap",
-  "lib/ext2fs/blkmap64_rb.c:rb_truncate",
-  "lib/ext2fs/blkmap64_rb.c:rb_insert_extent"
- ],
- "assumes": [
-  "BOUNDED: tree of exactly 2 well-formed extents, every red-black shape, arbitrary cursors"
- ],
- "backend": "minisat",
- "native": true,
- "cbmc_flags": [
-  "--object-bits",
-  "10"
- ],
- "unwindset": {
-  "ext2fs_rb_next.0": 3,
-  "ext2fs_rb_next.1": 3,
-  "ext2fs_rb_prev.0": 3,
-  "ext2fs_rb_prev.1": 3,
-  "ext2fs_rb_last.0": 3,
-  "ext2fs_rb_erase.0": 2,
-  "__rb_erase_color.0": 2,
-  "ext2fs_rb_insert_color.0": 2,
-  "rb_insert_extent.0": 3,
-  "rb_insert_extent.1": 3,
-  "rb_truncate.0": 5
- }
-}
-*/
-/* VERIF-UNIT
-{
- "name": "rb_resize_bmap_n3",
- "props": [
-  "C16"
- ],
- "level": "B(3)",
- "tier": "wip",
- "harness": "h_rb_resize",
- "defines": [
-  "EXT2_CUSTOM_MEMORY_ROUTINES",
-  "RB_N=3",
-  "RB_NEW=1"
- ],
- "unwind": 9,
- "unwind_reason": "x",
- "sources": [
-  "lib/ext2fs/rbtree.c"
- ],
- "functions": [
-  "lib/ext2fs/blkmap64_rb.c:rb_resize_bmap",
-  "lib/ext2fs/blkmap64_rb.c:rb_truncate",
-  "lib/ext2fs/blkmap64_rb.c:rb_insert_extent"
- ],
- "assumes": [
-  "BOUNDED: tree of exactly 3 well-formed extents, every red-black shape, arbitrary cursors"
- ],
- "backend": "minisat",
- "native": true,
- "cbmc_flags": [
-  "--object-bits",
-  "10"
- ],
- "unwindset": {
-  "ext2fs_rb_next.0": 4,
-  "ext2fs_rb_next.1": 4,
-  "ext2fs_rb_prev.0": 4,
-  "ext2fs_rb_prev.1": 4,
-  "ext2fs_rb_last.0": 4,
-  "ext2fs_rb_erase.0": 2,
-  "__rb_erase_color.0": 2,
-  "ext2fs_rb_insert_color.0": 2,
-  "rb_insert_extent.0": 3,
-  "rb_insert_extent.1": 4,
-  "rb_truncate.0": 6
- }
-}
-*/
-/* VERIF-UNIT
-{
- "name": "rb_resize_bmap_n4",
- "props": [
-  "C16"
- ],
- "level": "B(4)",
- "tier": "wip",
- "harness": "h_rb_resize",
- "defines": [
-  "EXT2_CUSTOM_MEMORY_ROUTINES",
-  "RB_N=4",
-  "RB_NEW=1"
- ],
- "unwind": 9,
- "unwind_reason": "x",
- "sources": [
-  "lib/ext2fs/rbtree.c"
- ],
- "functions": [
-  "lib/ext2fs/blkmap64_rb.c:rb_resize_bmap",
-  "lib/ext2fs/blkmap64_rb.c:rb_truncate",
-  "lib/ext2fs/blkmap64_rb.c:rb_insert_extent"
- ],
- "assumes": [
-  "BOUNDED: tree of exactly 4 well-formed extents, every red-black shape, arbitrary cursors"
- ],
- "backend": "minisat",
- "native": true,
- "cbmc_flags": [
-  "--object-bits",
-  "10"
- ],
- "unwindset": {
-  "ext2fs_rb_next.0": 4,
-  "ext2fs_rb_next.1": 4,
-  "ext2fs_rb_prev.0": 4,
-  "ext2fs_rb_prev.1": 4,
-  "ext2fs_rb_last.0": 4,
-  "ext2fs_rb_erase.0": 3,
-  "__rb_erase_color.0": 3,
-  "ext2fs_rb_insert_color.0": 2,
-  "rb_insert_extent.0": 4,
-  "rb_insert_extent.1": 5,
-  "rb_truncate.0": 7
- }
-}
-*/
-/* VERIF-UNIT
-{
- "name": "rbtree_erase_n1",
- "props": [
-  "C16"
- ],
- "level": "B(1)",
- "tier": "wip",
- "harness": "h_rbtree_erase",
- "defines": [
-  "EXT2_CUSTOM_MEMORY_ROUTINES",
-  "RB_N=1",
-  "RB_NEW=0"
- ],
- "unwind": 9,
- "unwind_reason": "x",
- "sources": [
-  "lib/ext2fs/rbtree.c"
- ],
- "functions": [
-  "lib/ext2fs/rbtree.c:ext2fs_rb_erase"
- ],
- "assumes": [
-  "x"
- ],
- "backend": "minisat",
- "native": true,
- "cbmc_flags": [
-  "--object-bits",
-  "10"
- ],
- "unwindset": {
-  "ext2fs_rb_erase.0": 2,
-  "__rb_erase_color.0": 2
- }
-}
-*/
-/* VERIF-UNIT
-{
- "name": "rbtree_erase_n2",
- "props": [
-  "C16"
- ],
- "level": "B(2)",
- "tier": "wip",
- "harness": "h_rbtree_erase",
- "defines": [
-  "EXT2_CUSTOM_MEMORY_ROUTINES",
-  "RB_N=2",
-  "RB_NEW=0"
- ],
- "unwind": 9,
- "unwind_reason": "x",
- "sources": [
-  "lib/ext2fs/rbtree.c"
- ],
- "functions": [
-  "lib/ext2fs/rbtree.c:ext2fs_rb_erase"
- ],
- "assumes": [
-  "x"
- ],
- "backend": "minisat",
- "native": true,
- "cbmc_flags": [
-  "--object-bits",
-  "10"
- ],
- "unwindset": {
-  "ext2fs_rb_erase.0": 3,
-  "__rb_erase_color.0": 3
- }
-}
-*/
-/* VERIF-UNIT
-{
- "name": "rbtree_erase_n3",
- "props": [
-  "C16"
- ],
- "level": "B(3)",
- "tier": "wip",
- "harness": "h_rbtree_erase",
- "defines": [
-  "EXT2_CUSTOM_MEMORY_ROUTINES",
-  "RB_N=3",
-  "RB_NEW=0"
- ],
- "unwind": 9,
- "unwind_reason": "x",
- "sources": [
-  "lib/ext2fs/rbtree.c"
- ],
- "functions": [
-  "lib/ext2fs/rbtree.c:ext2fs_rb_erase"
- ],
- "assumes": [
-  "x"
- ],
- "backend": "minisat",
- "native": true,
- "cbmc_flags": [
-  "--object-bits",
-  "10"
- ],
- "unwindset": {
-  "ext2fs_rb_erase.0": 3,
-  "__rb_erase_color.0": 3
- }
-}
-*/
-/* VERIF-UNIT
-{
- "name": "rbtree_erase_n4",
- "props": [
-  "C16"
- ],
- "level": "B(4)",
- "tier": "wip",
- "harness": "h_rbtree_erase",
- "defines": [
-  "EXT2_CUSTOM_MEMORY_ROUTINES",
-  "RB_N=4",
-  "RB_NEW=0"
- ],
- "unwind": 9,
- "unwind_reason": "x",
- "sources": [
-  "lib/ext2fs/rbtree.c"
- ],
- "functions": [
-  "lib/ext2fs/rbtree.c:ext2fs_rb_erase"
- ],
- "assumes": [
-  "x"
- ],
- "backend": "minisat",
- "native": true,
- "cbmc_flags": [
-  "--object-bits",
-  "10"
- ],
- "unwindset": {
-  "ext2fs_rb_erase.0": 4,
-  "__rb_erase_color.0": 4
- }
-}
-*/
-/* VERIF-UNIT
-{
- "name": "rb_test_bit_s2",
- "props": [
-  "C16"
- ],
- "level": "B(2)",
- "tier": "wip",
- "harness": "h_rb_test",
- "defines": [
-  "EXT2_CUSTOM_MEMORY_ROUTINES",
-  "RB_N=2",
-  "RB_NSYM",
-  "RB_NEW=0"
- ],
- "unwind": 9,
- "unwind_reason": "x",
- "sources": [
-  "lib/ext2fs/rbtree.c"
- ],
- "functions": [
-  "lib/ext2fs/blkmap64_rb.c:rb_test_bmap",
-  "lib/ext2fs/blkmap64_rb.c:rb_test_bit"
- ],
- "assumes": [
-  "x"
- ],
- "backend": "minisat",
- "native": true,
- "cbmc_flags": [
-  "--object-bits",
-  "10"
- ],
- "unwindset": {
-  "ext2fs_rb_next.0": 3,
-  "ext2fs_rb_next.1": 3,
-  "rb_test_bit.0": 3
- }
-}
-*/
-/* VERIF-UNIT
-{
- "name": "rb_test_bit_s3",
- "props": [
-  "C16"
- ],
- "level": "B(3)",
- "tier": "wip",
- "harness": "h_rb_test",
- "defines": [
-  "EXT2_CUSTOM_MEMORY_ROUTINES",
-  "RB_N=3",
-  "RB_NSYM",
-  "RB_NEW=0"
- ],
- "unwind": 9,
- "unwind_reason": "x",
- "sources": [
-  "lib/ext2fs/rbtree.c"
- ],
- "functions": [
-  "lib/ext2fs/blkmap64_rb.c:rb_test_bmap",
-  "lib/ext2fs/blkmap64_rb.c:rb_test_bit"
- ],
- "assumes": [
-  "x"
- ],
- "backend": "minisat",
- "native": true,
- "cbmc_flags": [
-  "--object-bits",
-  "10"
- ],
- "unwindset": {
-  "ext2fs_rb_next.0": 3,
-  "ext2fs_rb_next.1": 3,
-  "rb_test_bit.0": 3
- }
-}
-*/
-/* VERIF-UNIT
-{
- "name": "rb_test_bit_s4",
- "props": [
-  "C16"
- ],
- "level": "B(4)",
- "tier": "wip",
- "harness": "h_rb_test",
- "defines": [
-  "EXT2_CUSTOM_MEMORY_ROUTINES",
-  "RB_N=4",
-  "RB_NSYM",
-  "RB_NEW=0"
- ],
- "unwind": 9,
- "unwind_reason": "x",
- "sources": [
-  "lib/ext2fs/rbtree.c"
- ],
- "functions": [
-  "lib/ext2fs/blkmap64_rb.c:rb_test_bmap",
-  "lib/ext2fs/blkmap64_rb.c:rb_test_bit"
- ],
- "assumes": [
-  "x"
- ],
- "backend": "minisat",
- "native": true,
- "cbmc_flags": [
-  "--object-bits",
-  "10"
- ],
- "unwindset": {
-  "ext2fs_rb_next.0": 4,
-  "ext2fs_rb_next.1": 4,
-  "rb_test_bit.0": 4
- }
-}
-*/
-/* VERIF-UNIT
-{
- "name": "rb_test_clear_extent_s2",
- "props": [
-  "C16"
- ],
- "level": "B(2)",
- "tier": "wip",
- "harness": "h_rb_test_clear",
- "defines": [
-  "EXT2_CUSTOM_MEMORY_ROUTINES",
-  "RB_N=2",
-  "RB_NSYM",
-  "RB_NEW=0"
- ],
- "unwind": 9,
- "unwind_reason": "x",
- "sources": [
-  "lib/ext2fs/rbtree.c"
- ],
- "functions": [
-  "lib/ext2fs/blkmap64_rb.c:rb_test_clear_bmap_extent"
- ],
- "assumes": [
-  "x"
- ],
- "backend": "minisat",
- "native": true,
- "cbmc_flags": [
-  "--object-bits",
-  "10"
- ],
- "unwindset": {
-  "ext2fs_rb_next.0": 3,
-  "ext2fs_rb_next.1": 3,
-  "rb_test_clear_bmap_extent.0": 3,
-  "rb_test_clear_bmap_extent.1": 3
- }
-}
-*/
-/* VERIF-UNIT
-{
- "name": "rb_test_clear_extent_s3",
- "props": [
-  "C16"
- ],
- "level": "B(3)",
- "tier": "wip",
- "harness": "h_rb_test_clear",
- "defines": [
-  "EXT2_CUSTOM_MEMORY_ROUTINES",
-  "RB_N=3",
-  "RB_NSYM",
-  "RB_NEW=0"
- ],
- "unwind": 9,
- "unwind_reason": "x",
- "sources": [
-  "lib/ext2fs/rbtree.c"
- ],
- "functions": [
-  "lib/ext2fs/blkmap64_rb.c:rb_test_clear_bmap_extent"
- ],
- "assumes": [
-  "x"
- ],
- "backend": "minisat",
- "native": true,
- "cbmc_flags": [
-  "--object-bits",
-  "10"
- ],
- "unwindset": {
-  "ext2fs_rb_next.0": 3,
-  "ext2fs_rb_next.1": 3,
-  "rb_test_clear_bmap_extent.0": 3,
-  "rb_test_clear_bmap_extent.1": 4
- }
-}
-*/
-/* VERIF-UNIT
-{
- "name": "rb_test_clear_extent_s4",
- "props": [
-  "C16"
- ],
- "level": "B(4)",
- "tier": "wip",
- "harness": "h_rb_test_clear",
- "defines": [
-  "EXT2_CUSTOM_MEMORY_ROUTINES",
-  "RB_N=4",
-  "RB_NSYM",
-  "RB_NEW=0"
- ],
- "unwind": 9,
- "unwind_reason": "x",
- "sources": [
-  "lib/ext2fs/rbtree.c"
- ],
- "functions": [
-  "lib/ext2fs/blkmap64_rb.c:rb_test_clear_bmap_extent"
- ],
- "assumes": [
-  "x"
- ],
- "backend": "minisat",
- "native": true,
- "cbmc_flags": [
-  "--object-bits",
-  "10"
- ],
- "unwindset": {
-  "ext2fs_rb_next.0": 4,
-  "ext2fs_rb_next.1": 4,
-  "rb_test_clear_bmap_extent.0": 4,
-  "rb_test_clear_bmap_extent.1": 5
- }
-}
-*/
-/* VERIF-UNIT
-{
- "name": "rb_find_first_zero_s2",
- "props": [
-  "C16"
- ],
- "level": "B(2)",
- "tier": "wip",
- "harness": "h_rb_ffz",
- "defines": [
-  "EXT2_CUSTOM_MEMORY_ROUTINES",
-  "RB_N=2",
-  "RB_NSYM",
-  "RB_NEW=0"
- ],
- "unwind": 9,
- "unwind_reason": "x",
- "sources": [
-  "lib/ext2fs/rbtree.c"
- ],
- "functions": [
-  "lib/ext2fs/blkmap64_rb.c:rb_find_first_zero"
- ],
- "assumes": [
-  "x"
- ],
- "backend": "minisat",
- "native": true,
- "cbmc_flags": [
-  "--object-bits",
-  "10"
- ],
- "unwindset": {
-  "rb_find_first_zero.0": 3
- }
-}
-*/
-/* VERIF-UNIT
-{
- "name": "rb_find_first_zero_s3",
- "props": [
-  "C16"
- ],
- "level": "B(3)",
- "tier": "wip",
- "harness": "h_rb_ffz",
- "defines": [
-  "EXT2_CUSTOM_MEMORY_ROUTINES",
-  "RB_N=3",
-  "RB_NSYM",
-  "RB_NEW=0"
- ],
- "unwind": 9,
- "unwind_reason": "x",
- "sources": [
-  "lib/ext2fs/rbtree.c"
- ],
- "functions": [
-  "lib/ext2fs/blkmap64_rb.c:rb_find_first_zero"
- ],
- "assumes": [
-  "x"
- ],
- "backend": "minisat",
- "native": true,
- "cbmc_flags": [
-  "--object-bits",
-  "10"
- ],
- "unwindset": {
-  "rb_find_first_zero.0": 3
- }
-}
-*/
-/* VERIF-UNIT
-{
- "name": "rb_find_first_zero_s4",
- "props": [
-  "C16"
- ],
- "level": "B(4)",
- "tier": "wip",
- "harness": "h_rb_ffz",
- "defines": [
-  "EXT2_CUSTOM_MEMORY_ROUTINES",
-  "RB_N=4",
-  "RB_NSYM",
-  "RB_NEW=0"
- ],
- "unwind": 9,
- "unwind_reason": "x",
- "sources": [
-  "lib/ext2fs/rbtree.c"
- ],
- "functions": [
-  "lib/ext2fs/blkmap64_rb.c:rb_find_first_zero"
- ],
- "assumes": [
-  "x"
- ],
- "backend": "minisat",
- "native": true,
- "cbmc_flags": [
-  "--object-bits",
-  "10"
- ],
- "unwindset": {
-  "rb_find_first_zero.0": 4
- }
-}
-*/
-/* VERIF-UNIT
-{
- "name": "rb_find_first_set_s2",
- "props": [
-  "C16"
- ],
- "level": "B(2)",
- "tier": "wip",
- "harness": "h_rb_ffs",
- "defines": [
-  "EXT2_CUSTOM_MEMORY_ROUTINES",
-  "RB_N=2",
-  "RB_NSYM",
-  "RB_NEW=0"
- ],
- "unwind": 9,
- "unwind_reason": "x",
- "sources": [
-  "lib/ext2fs/rbtree.c"
- ],
- "functions": [
-  "lib/ext2fs/blkmap64_rb.c:rb_find_first_set"
- ],
- "assumes": [
-  "x"
- ],
- "backend": "minisat",
- "native": true,
- "cbmc_flags": [
-  "--object-bits",
-  "10"
- ],
- "unwindset": {
-  "ext2fs_rb_next.0": 3,
-  "ext2fs_rb_next.1": 3,
-  "rb_find_first_set.0": 3
- }
-}
-*/
-/* VERIF-UNIT
-{
- "name": "rb_find_first_set_s3",
- "props": [
-  "C16"
- ],
- "level": "B(3)",
- "tier": "wip",
- "harness": "h_rb_ffs",
- "defines": [
-  "EXT2_CUSTOM_MEMORY_ROUTINES",
-  "RB_N=3",
-  "RB_NSYM",
-  "RB_NEW=0"
- ],
- "unwind": 9,
- "unwind_reason": "x",
- "sources": [
-  "lib/ext2fs/rbtree.c"
- ],
- "functions": [
-  "lib/ext2fs/blkmap64_rb.c:rb_find_first_set"
- ],
- "assumes": [
-  "x"
- ],
- "backend": "minisat",
- "native": true,
- "cbmc_flags": [
-  "--object-bits",
-  "10"
- ],
- "unwindset": {
-  "ext2fs_rb_next.0": 3,
-  "ext2fs_rb_next.1": 3,
-  "rb_find_first_set.0": 3
- }
-}
-*/
-/* VERIF-UNIT
-{
- "name": "rb_find_first_set_s4",
- "props": [
-  "C16"
- ],
- "level": "B(4)",
- "tier": "wip",
- "harness": "h_rb_ffs",
- "defines": [
-  "EXT2_CUSTOM_MEMORY_ROUTINES",
-  "RB_N=4",
-  "RB_NSYM",
-  "RB_NEW=0"
- ],
- "unwind": 9,
- "unwind_reason": "x",
- "sources": [
-  "lib/ext2fs/rbtree.c"
- ],
- "functions": [
-  "lib/ext2fs/blkmap64_rb.c:rb_find_first_set"
- ],
- "assumes": [
-  "x"
- ],
- "backend": "minisat",
- "native": true,
- "cbmc_flags": [
-  "--object-bits",
-  "10"
- ],
- "unwindset": {
-  "ext2fs_rb_next.0": 4,
-  "ext2fs_rb_next.1": 4,
-  "rb_find_first_set.0": 4
- }
-}
-*/
-/* VERIF-UNIT
-{
- "name": "rb_get_bmap_range_s2",
- "props": [
-  "C16"
- ],
- "level": "B(2)",
- "tier": "wip",
- "harness": "h_rb_get_range",
- "defines": [
-  "EXT2_CUSTOM_MEMORY_ROUTINES",
-  "RB_N=2",
-  "RB_NSYM",
-  "RB_NEW=0"
- ],
- "unwind": 9,
- "unwind_reason": "x",
- "sources": [
-  "lib/ext2fs/rbtree.c",
-  "lib/ext2fs/bitops.c"
- ],
- "functions": [
-  "lib/ext2fs/blkmap64_rb.c:rb_get_bmap_range"
- ],
- "assumes": [
-  "x"
- ],
- "backend": "minisat",
- "native": true,
- "cbmc_flags": [
-  "--object-bits",
-  "10"
- ],
- "unwindset": {
-  "ext2fs_rb_next.0": 3,
-  "ext2fs_rb_next.1": 3,
-  "rb_get_bmap_range.0": 3,
-  "rb_get_bmap_range.1": 16,
-  "rb_get_bmap_range.2": 4
- }
-}
-*/
-/* VERIF-UNIT
-{
- "name": "rb_get_bmap_range_s3",
- "props": [
-  "C16"
- ],
- "level": "B(3)",
- "tier": "wip",
- "harness": "h_rb_get_range",
- "defines": [
-  "EXT2_CUSTOM_MEMORY_ROUTINES",
-  "RB_N=3",
-  "RB_NSYM",
-  "RB_NEW=0"
- ],
- "unwind": 9,
- "unwind_reason": "x",
- "sources": [
-  "lib/ext2fs/rbtree.c",
-  "lib/ext2fs/bitops.c"
- ],
- "functions": [
-  "lib/ext2fs/blkmap64_rb.c:rb_get_bmap_range"
- ],
- "assumes": [
-  "x"
- ],
- "backend": "minisat",
- "native": true,
- "cbmc_flags": [
-  "--object-bits",
-  "10"
- ],
- "unwindset": {
-  "ext2fs_rb_next.0": 3,
-  "ext2fs_rb_next.1": 3,
-  "rb_get_bmap_range.0": 3,
-  "rb_get_bmap_range.1": 16,
-  "rb_get_bmap_range.2": 5
- }
-}
-*/
-/* VERIF-UNIT
-{
- "name": "rb_get_bmap_range_s4",
- "props": [
-  "C16"
- ],
- "level": "B(4)",
- "tier": "wip",
- "harness": "h_rb_get_range",
- "defines": [
-  "EXT2_CUSTOM_MEMORY_ROUTINES",
-  "RB_N=4",
-  "RB_NSYM",
-  "RB_NEW=0"
- ],
- "unwind": 9,
- "unwind_reason": "x",
- "sources": [
-  "lib/ext2fs/rbtree.c",
-  "lib/ext2fs/bitops.c"
- ],
- "functions": [
-  "lib/ext2fs/blkmap64_rb.c:rb_get_bmap_range"
- ],
- "assumes": [
-  "x"
- ],
- "backend": "minisat",
- "native": true,
- "cbmc_flags": [
-  "--object-bits",
-  "10"
- ],
- "unwindset": {
-  "ext2fs_rb_next.0": 4,
-  "ext2fs_rb_next.1": 4,
-  "rb_get_bmap_range.0": 4,
-  "rb_get_bmap_range.1": 16,
-  "rb_get_bmap_range.2": 6
- }
-}
-*/
-/* VERIF-UNIT
-{
- "name": "rb_get_bmap_range_n0",
- "props": [
-  "C16"
- ],
- "level": "B(0)",
- "tier": "wip",
- "harness": "h_rb_get_range",
- "defines": [
-  "EXT2_CUSTOM_MEMORY_ROUTINES",
-  "RB_N=0",
-  "RB_NEW=0"
- ],
- "unwind": 9,
- "unwind_reason": "x",
- "sources": [
-  "lib/ext2fs/rbtree.c",
-  "lib/ext2fs/bitops.c"
- ],
- "functions": [
-  "lib/ext2fs/blkmap64_rb.c:rb_get_bmap_range"
- ],
- "assumes": [
-  "x"
- ],
- "backend": "minisat",
- "native": true,
- "cbmc_flags": [
-  "--object-bits",
-  "10"
- ],
- "unwindset": {
-  "ext2fs_rb_next.0": 1,
-  "ext2fs_rb_next.1": 1,
-  "rb_get_bmap_range.0": 1,
-  "rb_get_bmap_range.1": 16,
-  "rb_get_bmap_range.2": 2
- }
-}
-*/
-/* VERIF-UNIT
-{
- "name": "rb_get_bmap_range_n1",
- "props": [
-  "C16"
- ],
- "level": "B(1)",
- "tier": "wip",
+ "tier": "thorough",
  "harness": "h_rb_get_range",
  "defines": [
   "EXT2_CUSTOM_MEMORY_ROUTINES",
   "RB_N=1",
-  "RB_NEW=0"
+  "RB_NSYM",
+  "RB_NEW=0",
+  "RB_BITS=62",
+  "RB_RANGE_BITS=17"
  ],
- "unwind": 9,
- "unwind_reason": "x",
+ "unwind": 6,
+ "unwind_reason": "BOUNDED: a tree of at most 1 nodes has height <= 1, so every descent / successor / predecessor loop of blkmap64_rb.c and rbtree.c runs at most that often (+1 for the exit test), the neighbour loops at most once per node; rebalancing loops climb at most one level per round; harness loops have constant bounds <= 8 (global unwind 9). Every bound is confirmed by an unwinding assertion.",
  "sources": [
   "lib/ext2fs/rbtree.c",
   "lib/ext2fs/bitops.c"
@@ -2296,9 +254,14 @@
   "lib/ext2fs/blkmap64_rb.c:rb_get_bmap_range"
  ],
  "assumes": [
-  "x"
+  "BOUNDED stand-in, not counted as proved: the tree has 0..1 extents (sorted, disjoint, non-adjacent, count > 0) in every red-black shape of that size; wcursor/rcursor NULL or any node, rcursor_next NULL or the successor of rcursor (any node if rcursor is NULL)",
+  "allocation does not fail: ext2fs.h is compiled with its own hook EXT2_CUSTOM_MEMORY_ROUTINES and ext2fs_get_mem/ext2fs_free_mem are the trivial malloc/free stubs of rb_common.h (typed pointer store instead of memcpy); malloc is __CPROVER_allocate, i.e. never NULL (rb_get_new_extent abort()s on failure anyway)",
+  "bitmap->real_end - bitmap->start < 2^62",
+  "BOUNDED: 1 <= num <= 17 (three-byte output buffer with arbitrary previous content; the bit/byte loop runs at most 14 times per extent: 7 single bits up to a byte boundary and 7 behind it, or 7 + one memset + 1)",
+  "range inside [start, real_end]"
  ],
  "backend": "minisat",
+ "no_cross_check": true,
  "native": true,
  "cbmc_flags": [
   "--object-bits",
@@ -2308,27 +271,30 @@
   "ext2fs_rb_next.0": 2,
   "ext2fs_rb_next.1": 2,
   "rb_get_bmap_range.0": 2,
-  "rb_get_bmap_range.1": 16,
+  "rb_get_bmap_range.1": 15,
   "rb_get_bmap_range.2": 3
- }
+ },
+ "timeout": 1200
 }
 */
 /* VERIF-UNIT
 {
- "name": "rb_get_bmap_range_n2",
+ "name": "rb_get_bmap_range_b0",
  "props": [
   "C16"
  ],
- "level": "B(2)",
- "tier": "wip",
+ "level": "B(0)",
+ "tier": "quick",
  "harness": "h_rb_get_range",
  "defines": [
   "EXT2_CUSTOM_MEMORY_ROUTINES",
-  "RB_N=2",
-  "RB_NEW=0"
+  "RB_N=0",
+  "RB_NEW=0",
+  "RB_BITS=62",
+  "RB_RANGE_BITS=17"
  ],
- "unwind": 9,
- "unwind_reason": "x",
+ "unwind": 6,
+ "unwind_reason": "BOUNDED: a tree of at most 0 nodes has height <= 0, so every descent / successor / predecessor loop of blkmap64_rb.c and rbtree.c runs at most that often (+1 for the exit test), the neighbour loops at most once per node; rebalancing loops climb at most one level per round; harness loops have constant bounds <= 8 (global unwind 9). Every bound is confirmed by an unwinding assertion.",
  "sources": [
   "lib/ext2fs/rbtree.c",
   "lib/ext2fs/bitops.c"
@@ -2337,39 +303,48 @@
   "lib/ext2fs/blkmap64_rb.c:rb_get_bmap_range"
  ],
  "assumes": [
-  "x"
+  "BOUNDED stand-in, not counted as proved: the tree has exactly 0 extents (sorted, disjoint, non-adjacent, count > 0) in every red-black shape of that size; wcursor/rcursor NULL or any node, rcursor_next NULL or the successor of rcursor (any node if rcursor is NULL)",
+  "allocation does not fail: ext2fs.h is compiled with its own hook EXT2_CUSTOM_MEMORY_ROUTINES and ext2fs_get_mem/ext2fs_free_mem are the trivial malloc/free stubs of rb_common.h (typed pointer store instead of memcpy); malloc is __CPROVER_allocate, i.e. never NULL (rb_get_new_extent abort()s on failure anyway)",
+  "bitmap->real_end - bitmap->start < 2^62",
+  "BOUNDED: 1 <= num <= 17 (output buffer of 3 bytes with arbitrary previous content)",
+  "range inside [start, real_end]"
  ],
  "backend": "minisat",
+ "no_cross_check": true,
  "native": true,
  "cbmc_flags": [
   "--object-bits",
   "10"
  ],
  "unwindset": {
-  "ext2fs_rb_next.0": 3,
-  "ext2fs_rb_next.1": 3,
-  "rb_get_bmap_range.0": 3,
-  "rb_get_bmap_range.1": 16,
-  "rb_get_bmap_range.2": 4
- }
+  "ext2fs_rb_next.0": 1,
+  "ext2fs_rb_next.1": 1,
+  "rb_get_bmap_range.0": 1,
+  "rb_get_bmap_range.1": 15,
+  "rb_get_bmap_range.2": 2
+ },
+ "timeout": 300
 }
 */
 /* VERIF-UNIT
 {
- "name": "rb_get_bmap_range_n3",
+ "name": "rb_get_bmap_range_b1_9bit",
  "props": [
   "C16"
  ],
- "level": "B(3)",
- "tier": "wip",
+ "level": "B(1)",
+ "tier": "thorough",
  "harness": "h_rb_get_range",
  "defines": [
   "EXT2_CUSTOM_MEMORY_ROUTINES",
-  "RB_N=3",
-  "RB_NEW=0"
+  "RB_N=1",
+  "RB_NSYM",
+  "RB_NEW=0",
+  "RB_BITS=62",
+  "RB_RANGE_BITS=9"
  ],
- "unwind": 9,
- "unwind_reason": "x",
+ "unwind": 6,
+ "unwind_reason": "BOUNDED: a tree of at most 1 nodes has height <= 1, so every descent / successor / predecessor loop of blkmap64_rb.c and rbtree.c runs at most that often (+1 for the exit test), the neighbour loops at most once per node; rebalancing loops climb at most one level per round; harness loops have constant bounds <= 8 (global unwind 9). Every bound is confirmed by an unwinding assertion.",
  "sources": [
   "lib/ext2fs/rbtree.c",
   "lib/ext2fs/bitops.c"
@@ -2378,2290 +353,1959 @@
   "lib/ext2fs/blkmap64_rb.c:rb_get_bmap_range"
  ],
  "assumes": [
-  "x"
+  "BOUNDED stand-in, not counted as proved: the tree has 0..1 extents (sorted, disjoint, non-adjacent, count > 0) in every red-black shape of that size; wcursor/rcursor NULL or any node, rcursor_next NULL or the successor of rcursor (any node if rcursor is NULL)",
+  "allocation does not fail: ext2fs.h is compiled with its own hook EXT2_CUSTOM_MEMORY_ROUTINES and ext2fs_get_mem/ext2fs_free_mem are the trivial malloc/free stubs of rb_common.h (typed pointer store instead of memcpy); malloc is __CPROVER_allocate, i.e. never NULL (rb_get_new_extent abort()s on failure anyway)",
+  "bitmap->real_end - bitmap->start < 2^62",
+  "BOUNDED: 1 <= num <= 9 (output buffer of 2 bytes with arbitrary previous content)",
+  "range inside [start, real_end]"
  ],
  "backend": "minisat",
+ "no_cross_check": true,
  "native": true,
  "cbmc_flags": [
   "--object-bits",
   "10"
  ],
  "unwindset": {
-  "ext2fs_rb_next.0": 3,
-  "ext2fs_rb_next.1": 3,
-  "rb_get_bmap_range.0": 3,
-  "rb_get_bmap_range.1": 16,
-  "rb_get_bmap_range.2": 5
- }
+  "ext2fs_rb_next.0": 2,
+  "ext2fs_rb_next.1": 2,
+  "rb_get_bmap_range.0": 2,
+  "rb_get_bmap_range.1": 9,
+  "rb_get_bmap_range.2": 3
+ },
+ "timeout": 1200
 }
 */
 /* VERIF-UNIT
 {
- "name": "rb_get_bmap_range_n4",
+ "name": "rb_insert_extent_keep_b2",
+ "props": [
+  "C16"
+ ],
+ "level": "B(2)",
+ "tier": "quick",
+ "harness": "h_rb_insert",
+ "defines": [
+  "EXT2_CUSTOM_MEMORY_ROUTINES",
+  "RB_N=2",
+  "RB_NEW=0",
+  "RB_BITS=16",
+  "RB_SCEN=1"
+ ],
+ "unwind": 9,
+ "unwind_reason": "BOUNDED: a tree of at most 2 nodes has height <= 2, so every descent / successor / predecessor loop of blkmap64_rb.c and rbtree.c runs at most that often (+1 for the exit test), the neighbour loops at most once per node; rebalancing loops climb at most one level per round; harness loops have constant bounds <= 8 (global unwind 9). Every bound is confirmed by an unwinding assertion.",
+ "sources": [
+  "lib/ext2fs/rbtree.c"
+ ],
+ "functions": [
+  "lib/ext2fs/blkmap64_rb.c:rb_insert_extent",
+  "lib/ext2fs/blkmap64_rb.c:rb_get_new_extent",
+  "lib/ext2fs/blkmap64_rb.c:rb_free_extent",
+  "lib/ext2fs/blkmap64_rb.c:rb_mark_bmap",
+  "lib/ext2fs/blkmap64_rb.c:rb_mark_bmap_extent"
+ ],
+ "assumes": [
+  "BOUNDED stand-in, not counted as proved: the tree has exactly 2 extents (sorted, disjoint, non-adjacent, count > 0) in every red-black shape of that size; wcursor/rcursor NULL or any node, rcursor_next NULL or the successor of rcursor (any node if rcursor is NULL)",
+  "allocation does not fail: ext2fs.h is compiled with its own hook EXT2_CUSTOM_MEMORY_ROUTINES and ext2fs_get_mem/ext2fs_free_mem are the trivial malloc/free stubs of rb_common.h (typed pointer store instead of memcpy); malloc is __CPROVER_allocate, i.e. never NULL (rb_get_new_extent abort()s on failure anyway)",
+  "BOUNDED: bitmap->real_end - bitmap->start < 2^16 (offsets are 64-bit in the code and in the harness; the cap only narrows the values, chosen because the SAT proof of the ordering lemmas is the bottleneck)",
+  "range inside [start, real_end], count >= 1; rb_insert_extent is called directly with offsets relative to bitmap->start (rb_mark_bmap / rb_mark_bmap_extent only subtract bitmap->start, see rb_wrappers)",
+  "SCENARIO keep: the range starts inside or immediately behind an extent and neither reaches nor touches the next one (no new node, nothing erased); the four insert scenarios partition the input space",
+  "ext2fs_rb_erase is NOT abstracted: its contract is REQUIRES(false); the obligation that no call is reachable in this scenario is checked at every call site",
+  "ext2fs_rb_insert_color is NOT abstracted: its contract is REQUIRES(false); the obligation that no call is reachable in this scenario is checked at every call site"
+ ],
+ "backend": "minisat",
+ "no_cross_check": true,
+ "native": true,
+ "cbmc_flags": [
+  "--object-bits",
+  "10"
+ ],
+ "unwindset": {
+  "rb_insert_extent.0": 3,
+  "rb_insert_extent.1": 2,
+  "ext2fs_rb_next.0": 3,
+  "ext2fs_rb_next.1": 3,
+  "ext2fs_rb_prev.0": 3,
+  "ext2fs_rb_prev.1": 3
+ },
+ "replace": [
+  "ext2fs_rb_erase",
+  "ext2fs_rb_insert_color"
+ ],
+ "timeout": 300
+}
+*/
+/* VERIF-UNIT
+{
+ "name": "rb_insert_extent_keep_b3",
+ "props": [
+  "C16"
+ ],
+ "level": "B(3)",
+ "tier": "thorough",
+ "harness": "h_rb_insert",
+ "defines": [
+  "EXT2_CUSTOM_MEMORY_ROUTINES",
+  "RB_N=3",
+  "RB_NEW=0",
+  "RB_BITS=16",
+  "RB_SCEN=1"
+ ],
+ "unwind": 9,
+ "unwind_reason": "BOUNDED: a tree of at most 3 nodes has height <= 2, so every descent / successor / predecessor loop of blkmap64_rb.c and rbtree.c runs at most that often (+1 for the exit test), the neighbour loops at most once per node; rebalancing loops climb at most one level per round; harness loops have constant bounds <= 8 (global unwind 9). Every bound is confirmed by an unwinding assertion.",
+ "sources": [
+  "lib/ext2fs/rbtree.c"
+ ],
+ "functions": [
+  "lib/ext2fs/blkmap64_rb.c:rb_insert_extent",
+  "lib/ext2fs/blkmap64_rb.c:rb_get_new_extent",
+  "lib/ext2fs/blkmap64_rb.c:rb_free_extent",
+  "lib/ext2fs/blkmap64_rb.c:rb_mark_bmap",
+  "lib/ext2fs/blkmap64_rb.c:rb_mark_bmap_extent"
+ ],
+ "assumes": [
+  "BOUNDED stand-in, not counted as proved: the tree has exactly 3 extents (sorted, disjoint, non-adjacent, count > 0) in every red-black shape of that size; wcursor/rcursor NULL or any node, rcursor_next NULL or the successor of rcursor (any node if rcursor is NULL)",
+  "allocation does not fail: ext2fs.h is compiled with its own hook EXT2_CUSTOM_MEMORY_ROUTINES and ext2fs_get_mem/ext2fs_free_mem are the trivial malloc/free stubs of rb_common.h (typed pointer store instead of memcpy); malloc is __CPROVER_allocate, i.e. never NULL (rb_get_new_extent abort()s on failure anyway)",
+  "BOUNDED: bitmap->real_end - bitmap->start < 2^16 (offsets are 64-bit in the code and in the harness; the cap only narrows the values, chosen because the SAT proof of the ordering lemmas is the bottleneck)",
+  "range inside [start, real_end], count >= 1; rb_insert_extent is called directly with offsets relative to bitmap->start (rb_mark_bmap / rb_mark_bmap_extent only subtract bitmap->start, see rb_wrappers)",
+  "SCENARIO keep: the range starts inside or immediately behind an extent and neither reaches nor touches the next one (no new node, nothing erased); the four insert scenarios partition the input space",
+  "ext2fs_rb_erase is NOT abstracted: its contract is REQUIRES(false); the obligation that no call is reachable in this scenario is checked at every call site",
+  "ext2fs_rb_insert_color is NOT abstracted: its contract is REQUIRES(false); the obligation that no call is reachable in this scenario is checked at every call site"
+ ],
+ "backend": "minisat",
+ "no_cross_check": true,
+ "native": true,
+ "cbmc_flags": [
+  "--object-bits",
+  "10"
+ ],
+ "unwindset": {
+  "rb_insert_extent.0": 3,
+  "rb_insert_extent.1": 2,
+  "ext2fs_rb_next.0": 3,
+  "ext2fs_rb_next.1": 3,
+  "ext2fs_rb_prev.0": 3,
+  "ext2fs_rb_prev.1": 3
+ },
+ "replace": [
+  "ext2fs_rb_erase",
+  "ext2fs_rb_insert_color"
+ ],
+ "timeout": 1200
+}
+*/
+/* VERIF-UNIT
+{
+ "name": "rb_insert_extent_keep_b4",
  "props": [
   "C16"
  ],
  "level": "B(4)",
- "tier": "wip",
- "harness": "h_rb_get_range",
+ "tier": "thorough",
+ "harness": "h_rb_insert",
  "defines": [
   "EXT2_CUSTOM_MEMORY_ROUTINES",
   "RB_N=4",
-  "RB_NEW=0"
+  "RB_NEW=0",
+  "RB_BITS=16",
+  "RB_SCEN=1"
  ],
  "unwind": 9,
- "unwind_reason": "x",
+ "unwind_reason": "BOUNDED: a tree of at most 4 nodes has height <= 3, so every descent / successor / predecessor loop of blkmap64_rb.c and rbtree.c runs at most that often (+1 for the exit test), the neighbour loops at most once per node; rebalancing loops climb at most one level per round; harness loops have constant bounds <= 8 (global unwind 9). Every bound is confirmed by an unwinding assertion.",
+ "sources": [
+  "lib/ext2fs/rbtree.c"
+ ],
+ "functions": [
+  "lib/ext2fs/blkmap64_rb.c:rb_insert_extent",
+  "lib/ext2fs/blkmap64_rb.c:rb_get_new_extent",
+  "lib/ext2fs/blkmap64_rb.c:rb_free_extent",
+  "lib/ext2fs/blkmap64_rb.c:rb_mark_bmap",
+  "lib/ext2fs/blkmap64_rb.c:rb_mark_bmap_extent"
+ ],
+ "assumes": [
+  "BOUNDED stand-in, not counted as proved: the tree has exactly 4 extents (sorted, disjoint, non-adjacent, count > 0) in every red-black shape of that size; wcursor/rcursor NULL or any node, rcursor_next NULL or the successor of rcursor (any node if rcursor is NULL)",
+  "allocation does not fail: ext2fs.h is compiled with its own hook EXT2_CUSTOM_MEMORY_ROUTINES and ext2fs_get_mem/ext2fs_free_mem are the trivial malloc/free stubs of rb_common.h (typed pointer store instead of memcpy); malloc is __CPROVER_allocate, i.e. never NULL (rb_get_new_extent abort()s on failure anyway)",
+  "BOUNDED: bitmap->real_end - bitmap->start < 2^16 (offsets are 64-bit in the code and in the harness; the cap only narrows the values, chosen because the SAT proof of the ordering lemmas is the bottleneck)",
+  "range inside [start, real_end], count >= 1; rb_insert_extent is called directly with offsets relative to bitmap->start (rb_mark_bmap / rb_mark_bmap_extent only subtract bitmap->start, see rb_wrappers)",
+  "SCENARIO keep: the range starts inside or immediately behind an extent and neither reaches nor touches the next one (no new node, nothing erased); the four insert scenarios partition the input space",
+  "ext2fs_rb_erase is NOT abstracted: its contract is REQUIRES(false); the obligation that no call is reachable in this scenario is checked at every call site",
+  "ext2fs_rb_insert_color is NOT abstracted: its contract is REQUIRES(false); the obligation that no call is reachable in this scenario is checked at every call site"
+ ],
+ "backend": "minisat",
+ "no_cross_check": true,
+ "native": true,
+ "cbmc_flags": [
+  "--object-bits",
+  "10"
+ ],
+ "unwindset": {
+  "rb_insert_extent.0": 4,
+  "rb_insert_extent.1": 2,
+  "ext2fs_rb_next.0": 4,
+  "ext2fs_rb_next.1": 4,
+  "ext2fs_rb_prev.0": 4,
+  "ext2fs_rb_prev.1": 4
+ },
+ "replace": [
+  "ext2fs_rb_erase",
+  "ext2fs_rb_insert_color"
+ ],
+ "timeout": 1200
+}
+*/
+/* VERIF-UNIT
+{
+ "name": "rb_insert_extent_new_b1",
+ "props": [
+  "C16"
+ ],
+ "level": "B(1)",
+ "tier": "quick",
+ "harness": "h_rb_insert",
+ "defines": [
+  "EXT2_CUSTOM_MEMORY_ROUTINES",
+  "RB_N=1",
+  "RB_NEW=1",
+  "RB_BITS=16",
+  "RB_SCEN=2"
+ ],
+ "unwind": 9,
+ "unwind_reason": "BOUNDED: a tree of at most 2 nodes has height <= 2, so every descent / successor / predecessor loop of blkmap64_rb.c and rbtree.c runs at most that often (+1 for the exit test), the neighbour loops at most once per node; rebalancing loops climb at most one level per round; harness loops have constant bounds <= 8 (global unwind 9). Every bound is confirmed by an unwinding assertion.",
+ "sources": [
+  "lib/ext2fs/rbtree.c"
+ ],
+ "functions": [
+  "lib/ext2fs/blkmap64_rb.c:rb_insert_extent",
+  "lib/ext2fs/blkmap64_rb.c:rb_get_new_extent",
+  "lib/ext2fs/blkmap64_rb.c:rb_free_extent",
+  "lib/ext2fs/blkmap64_rb.c:rb_mark_bmap",
+  "lib/ext2fs/blkmap64_rb.c:rb_mark_bmap_extent"
+ ],
+ "assumes": [
+  "BOUNDED stand-in, not counted as proved: the tree has exactly 1 extents (sorted, disjoint, non-adjacent, count > 0) in every red-black shape of that size; wcursor/rcursor NULL or any node, rcursor_next NULL or the successor of rcursor (any node if rcursor is NULL)",
+  "allocation does not fail: ext2fs.h is compiled with its own hook EXT2_CUSTOM_MEMORY_ROUTINES and ext2fs_get_mem/ext2fs_free_mem are the trivial malloc/free stubs of rb_common.h (typed pointer store instead of memcpy); malloc is __CPROVER_allocate, i.e. never NULL (rb_get_new_extent abort()s on failure anyway)",
+  "BOUNDED: bitmap->real_end - bitmap->start < 2^16 (offsets are 64-bit in the code and in the harness; the cap only narrows the values, chosen because the SAT proof of the ordering lemmas is the bottleneck)",
+  "range inside [start, real_end], count >= 1; rb_insert_extent is called directly with offsets relative to bitmap->start (rb_mark_bmap / rb_mark_bmap_extent only subtract bitmap->start, see rb_wrappers)",
+  "SCENARIO new: the range neither starts in/behind an extent nor reaches/touches a later one (a new node, nothing erased); the four insert scenarios partition the input space",
+  "ext2fs_rb_erase is NOT abstracted: its contract is REQUIRES(false); the obligation that no call is reachable in this scenario is checked at every call site"
+ ],
+ "backend": "minisat",
+ "no_cross_check": true,
+ "native": true,
+ "cbmc_flags": [
+  "--object-bits",
+  "10"
+ ],
+ "unwindset": {
+  "rb_insert_extent.0": 2,
+  "rb_insert_extent.1": 2,
+  "ext2fs_rb_next.0": 3,
+  "ext2fs_rb_next.1": 3,
+  "ext2fs_rb_prev.0": 3,
+  "ext2fs_rb_prev.1": 3,
+  "ext2fs_rb_insert_color.0": 1
+ },
+ "replace": [
+  "ext2fs_rb_erase"
+ ],
+ "timeout": 300
+}
+*/
+/* VERIF-UNIT
+{
+ "name": "rb_insert_extent_new_b2",
+ "props": [
+  "C16"
+ ],
+ "level": "B(2)",
+ "tier": "quick",
+ "harness": "h_rb_insert",
+ "defines": [
+  "EXT2_CUSTOM_MEMORY_ROUTINES",
+  "RB_N=2",
+  "RB_NEW=1",
+  "RB_BITS=16",
+  "RB_SCEN=2"
+ ],
+ "unwind": 9,
+ "unwind_reason": "BOUNDED: a tree of at most 3 nodes has height <= 2, so every descent / successor / predecessor loop of blkmap64_rb.c and rbtree.c runs at most that often (+1 for the exit test), the neighbour loops at most once per node; rebalancing loops climb at most one level per round; harness loops have constant bounds <= 8 (global unwind 9). Every bound is confirmed by an unwinding assertion.",
+ "sources": [
+  "lib/ext2fs/rbtree.c"
+ ],
+ "functions": [
+  "lib/ext2fs/blkmap64_rb.c:rb_insert_extent",
+  "lib/ext2fs/blkmap64_rb.c:rb_get_new_extent",
+  "lib/ext2fs/blkmap64_rb.c:rb_free_extent",
+  "lib/ext2fs/blkmap64_rb.c:rb_mark_bmap",
+  "lib/ext2fs/blkmap64_rb.c:rb_mark_bmap_extent"
+ ],
+ "assumes": [
+  "BOUNDED stand-in, not counted as proved: the tree has exactly 2 extents (sorted, disjoint, non-adjacent, count > 0) in every red-black shape of that size; wcursor/rcursor NULL or any node, rcursor_next NULL or the successor of rcursor (any node if rcursor is NULL)",
+  "allocation does not fail: ext2fs.h is compiled with its own hook EXT2_CUSTOM_MEMORY_ROUTINES and ext2fs_get_mem/ext2fs_free_mem are the trivial malloc/free stubs of rb_common.h (typed pointer store instead of memcpy); malloc is __CPROVER_allocate, i.e. never NULL (rb_get_new_extent abort()s on failure anyway)",
+  "BOUNDED: bitmap->real_end - bitmap->start < 2^16 (offsets are 64-bit in the code and in the harness; the cap only narrows the values, chosen because the SAT proof of the ordering lemmas is the bottleneck)",
+  "range inside [start, real_end], count >= 1; rb_insert_extent is called directly with offsets relative to bitmap->start (rb_mark_bmap / rb_mark_bmap_extent only subtract bitmap->start, see rb_wrappers)",
+  "SCENARIO new: the range neither starts in/behind an extent nor reaches/touches a later one (a new node, nothing erased); the four insert scenarios partition the input space",
+  "ext2fs_rb_erase is NOT abstracted: its contract is REQUIRES(false); the obligation that no call is reachable in this scenario is checked at every call site"
+ ],
+ "backend": "minisat",
+ "no_cross_check": true,
+ "native": true,
+ "cbmc_flags": [
+  "--object-bits",
+  "10"
+ ],
+ "unwindset": {
+  "rb_insert_extent.0": 3,
+  "rb_insert_extent.1": 2,
+  "ext2fs_rb_next.0": 3,
+  "ext2fs_rb_next.1": 3,
+  "ext2fs_rb_prev.0": 3,
+  "ext2fs_rb_prev.1": 3,
+  "ext2fs_rb_insert_color.0": 2
+ },
+ "replace": [
+  "ext2fs_rb_erase"
+ ],
+ "timeout": 300
+}
+*/
+/* VERIF-UNIT
+{
+ "name": "rb_insert_extent_new_b3",
+ "props": [
+  "C16"
+ ],
+ "level": "B(3)",
+ "tier": "thorough",
+ "harness": "h_rb_insert",
+ "defines": [
+  "EXT2_CUSTOM_MEMORY_ROUTINES",
+  "RB_N=3",
+  "RB_NEW=1",
+  "RB_BITS=16",
+  "RB_SCEN=2"
+ ],
+ "unwind": 9,
+ "unwind_reason": "BOUNDED: a tree of at most 4 nodes has height <= 3, so every descent / successor / predecessor loop of blkmap64_rb.c and rbtree.c runs at most that often (+1 for the exit test), the neighbour loops at most once per node; rebalancing loops climb at most one level per round; harness loops have constant bounds <= 8 (global unwind 9). Every bound is confirmed by an unwinding assertion.",
+ "sources": [
+  "lib/ext2fs/rbtree.c"
+ ],
+ "functions": [
+  "lib/ext2fs/blkmap64_rb.c:rb_insert_extent",
+  "lib/ext2fs/blkmap64_rb.c:rb_get_new_extent",
+  "lib/ext2fs/blkmap64_rb.c:rb_free_extent",
+  "lib/ext2fs/blkmap64_rb.c:rb_mark_bmap",
+  "lib/ext2fs/blkmap64_rb.c:rb_mark_bmap_extent"
+ ],
+ "assumes": [
+  "BOUNDED stand-in, not counted as proved: the tree has exactly 3 extents (sorted, disjoint, non-adjacent, count > 0) in every red-black shape of that size; wcursor/rcursor NULL or any node, rcursor_next NULL or the successor of rcursor (any node if rcursor is NULL)",
+  "allocation does not fail: ext2fs.h is compiled with its own hook EXT2_CUSTOM_MEMORY_ROUTINES and ext2fs_get_mem/ext2fs_free_mem are the trivial malloc/free stubs of rb_common.h (typed pointer store instead of memcpy); malloc is __CPROVER_allocate, i.e. never NULL (rb_get_new_extent abort()s on failure anyway)",
+  "BOUNDED: bitmap->real_end - bitmap->start < 2^16 (offsets are 64-bit in the code and in the harness; the cap only narrows the values, chosen because the SAT proof of the ordering lemmas is the bottleneck)",
+  "range inside [start, real_end], count >= 1; rb_insert_extent is called directly with offsets relative to bitmap->start (rb_mark_bmap / rb_mark_bmap_extent only subtract bitmap->start, see rb_wrappers)",
+  "SCENARIO new: the range neither starts in/behind an extent nor reaches/touches a later one (a new node, nothing erased); the four insert scenarios partition the input space",
+  "ext2fs_rb_erase is NOT abstracted: its contract is REQUIRES(false); the obligation that no call is reachable in this scenario is checked at every call site"
+ ],
+ "backend": "minisat",
+ "no_cross_check": true,
+ "native": true,
+ "cbmc_flags": [
+  "--object-bits",
+  "10"
+ ],
+ "unwindset": {
+  "rb_insert_extent.0": 3,
+  "rb_insert_extent.1": 2,
+  "ext2fs_rb_next.0": 4,
+  "ext2fs_rb_next.1": 4,
+  "ext2fs_rb_prev.0": 4,
+  "ext2fs_rb_prev.1": 4,
+  "ext2fs_rb_insert_color.0": 2
+ },
+ "replace": [
+  "ext2fs_rb_erase"
+ ],
+ "timeout": 1200
+}
+*/
+/* VERIF-UNIT
+{
+ "name": "rb_insert_extent_merge_b2",
+ "props": [
+  "C16"
+ ],
+ "level": "B(2)",
+ "tier": "thorough",
+ "harness": "h_rb_insert",
+ "defines": [
+  "EXT2_CUSTOM_MEMORY_ROUTINES",
+  "RB_N=2",
+  "RB_NEW=0",
+  "RB_BITS=16",
+  "RB_SCEN=3"
+ ],
+ "unwind": 9,
+ "unwind_reason": "BOUNDED: a tree of at most 2 nodes has height <= 2, so every descent / successor / predecessor loop of blkmap64_rb.c and rbtree.c runs at most that often (+1 for the exit test), the neighbour loops at most once per node; rebalancing loops climb at most one level per round; harness loops have constant bounds <= 8 (global unwind 9). Every bound is confirmed by an unwinding assertion.",
+ "sources": [
+  "lib/ext2fs/rbtree.c"
+ ],
+ "functions": [
+  "lib/ext2fs/blkmap64_rb.c:rb_insert_extent",
+  "lib/ext2fs/blkmap64_rb.c:rb_get_new_extent",
+  "lib/ext2fs/blkmap64_rb.c:rb_free_extent",
+  "lib/ext2fs/blkmap64_rb.c:rb_mark_bmap",
+  "lib/ext2fs/blkmap64_rb.c:rb_mark_bmap_extent"
+ ],
+ "assumes": [
+  "BOUNDED stand-in, not counted as proved: the tree has exactly 2 extents (sorted, disjoint, non-adjacent, count > 0) in every red-black shape of that size; wcursor/rcursor NULL or any node, rcursor_next NULL or the successor of rcursor (any node if rcursor is NULL)",
+  "allocation does not fail: ext2fs.h is compiled with its own hook EXT2_CUSTOM_MEMORY_ROUTINES and ext2fs_get_mem/ext2fs_free_mem are the trivial malloc/free stubs of rb_common.h (typed pointer store instead of memcpy); malloc is __CPROVER_allocate, i.e. never NULL (rb_get_new_extent abort()s on failure anyway)",
+  "BOUNDED: bitmap->real_end - bitmap->start < 2^16 (offsets are 64-bit in the code and in the harness; the cap only narrows the values, chosen because the SAT proof of the ordering lemmas is the bottleneck)",
+  "range inside [start, real_end], count >= 1; rb_insert_extent is called directly with offsets relative to bitmap->start (rb_mark_bmap / rb_mark_bmap_extent only subtract bitmap->start, see rb_wrappers)",
+  "SCENARIO merge: the range starts inside or immediately behind an extent and reaches or touches at least one later extent (erase, no new node); the four insert scenarios partition the input space",
+  "ext2fs_rb_insert_color is NOT abstracted: its contract is REQUIRES(false); the obligation that no call is reachable in this scenario is checked at every call site"
+ ],
+ "backend": "minisat",
+ "no_cross_check": true,
+ "native": true,
+ "cbmc_flags": [
+  "--object-bits",
+  "10"
+ ],
+ "unwindset": {
+  "rb_insert_extent.0": 3,
+  "rb_insert_extent.1": 2,
+  "ext2fs_rb_next.0": 3,
+  "ext2fs_rb_next.1": 3,
+  "ext2fs_rb_prev.0": 3,
+  "ext2fs_rb_prev.1": 3,
+  "ext2fs_rb_erase.0": 1,
+  "__rb_erase_color.0": 1
+ },
+ "replace": [
+  "ext2fs_rb_insert_color"
+ ],
+ "timeout": 1200
+}
+*/
+/* VERIF-UNIT
+{
+ "name": "rb_insert_extent_newmerge_b1",
+ "props": [
+  "C16"
+ ],
+ "level": "B(1)",
+ "tier": "thorough",
+ "harness": "h_rb_insert",
+ "defines": [
+  "EXT2_CUSTOM_MEMORY_ROUTINES",
+  "RB_N=1",
+  "RB_NEW=1",
+  "RB_BITS=16",
+  "RB_SCEN=4"
+ ],
+ "unwind": 9,
+ "unwind_reason": "BOUNDED: a tree of at most 2 nodes has height <= 2, so every descent / successor / predecessor loop of blkmap64_rb.c and rbtree.c runs at most that often (+1 for the exit test), the neighbour loops at most once per node; rebalancing loops climb at most one level per round; harness loops have constant bounds <= 8 (global unwind 9). Every bound is confirmed by an unwinding assertion.",
+ "sources": [
+  "lib/ext2fs/rbtree.c"
+ ],
+ "functions": [
+  "lib/ext2fs/blkmap64_rb.c:rb_insert_extent",
+  "lib/ext2fs/blkmap64_rb.c:rb_get_new_extent",
+  "lib/ext2fs/blkmap64_rb.c:rb_free_extent",
+  "lib/ext2fs/blkmap64_rb.c:rb_mark_bmap",
+  "lib/ext2fs/blkmap64_rb.c:rb_mark_bmap_extent"
+ ],
+ "assumes": [
+  "BOUNDED stand-in, not counted as proved: the tree has exactly 1 extents (sorted, disjoint, non-adjacent, count > 0) in every red-black shape of that size; wcursor/rcursor NULL or any node, rcursor_next NULL or the successor of rcursor (any node if rcursor is NULL)",
+  "allocation does not fail: ext2fs.h is compiled with its own hook EXT2_CUSTOM_MEMORY_ROUTINES and ext2fs_get_mem/ext2fs_free_mem are the trivial malloc/free stubs of rb_common.h (typed pointer store instead of memcpy); malloc is __CPROVER_allocate, i.e. never NULL (rb_get_new_extent abort()s on failure anyway)",
+  "BOUNDED: bitmap->real_end - bitmap->start < 2^16 (offsets are 64-bit in the code and in the harness; the cap only narrows the values, chosen because the SAT proof of the ordering lemmas is the bottleneck)",
+  "range inside [start, real_end], count >= 1; rb_insert_extent is called directly with offsets relative to bitmap->start (rb_mark_bmap / rb_mark_bmap_extent only subtract bitmap->start, see rb_wrappers)",
+  "SCENARIO newmerge: the range does not start in/behind an extent but reaches or touches at least one later extent (new node and erase); the four insert scenarios partition the input space"
+ ],
+ "backend": "minisat",
+ "no_cross_check": true,
+ "native": true,
+ "cbmc_flags": [
+  "--object-bits",
+  "10"
+ ],
+ "unwindset": {
+  "rb_insert_extent.0": 2,
+  "rb_insert_extent.1": 2,
+  "ext2fs_rb_next.0": 3,
+  "ext2fs_rb_next.1": 3,
+  "ext2fs_rb_prev.0": 3,
+  "ext2fs_rb_prev.1": 3,
+  "ext2fs_rb_erase.0": 1,
+  "__rb_erase_color.0": 1,
+  "ext2fs_rb_insert_color.0": 1
+ },
+ "timeout": 1200
+}
+*/
+/* VERIF-UNIT
+{
+ "name": "rb_remove_extent_trunc_b1",
+ "props": [
+  "C16"
+ ],
+ "level": "B(1)",
+ "tier": "quick",
+ "harness": "h_rb_remove",
+ "defines": [
+  "EXT2_CUSTOM_MEMORY_ROUTINES",
+  "RB_N=1",
+  "RB_NEW=0",
+  "RB_BITS=16",
+  "RB_SCEN=1"
+ ],
+ "unwind": 9,
+ "unwind_reason": "BOUNDED: a tree of at most 1 nodes has height <= 1, so every descent / successor / predecessor loop of blkmap64_rb.c and rbtree.c runs at most that often (+1 for the exit test), the neighbour loops at most once per node; rebalancing loops climb at most one level per round; harness loops have constant bounds <= 8 (global unwind 9). Every bound is confirmed by an unwinding assertion.",
+ "sources": [
+  "lib/ext2fs/rbtree.c"
+ ],
+ "functions": [
+  "lib/ext2fs/blkmap64_rb.c:rb_remove_extent",
+  "lib/ext2fs/blkmap64_rb.c:rb_free_extent",
+  "lib/ext2fs/blkmap64_rb.c:rb_unmark_bmap",
+  "lib/ext2fs/blkmap64_rb.c:rb_unmark_bmap_extent"
+ ],
+ "assumes": [
+  "BOUNDED stand-in, not counted as proved: the tree has exactly 1 extents (sorted, disjoint, non-adjacent, count > 0) in every red-black shape of that size; wcursor/rcursor NULL or any node, rcursor_next NULL or the successor of rcursor (any node if rcursor is NULL)",
+  "allocation does not fail: ext2fs.h is compiled with its own hook EXT2_CUSTOM_MEMORY_ROUTINES and ext2fs_get_mem/ext2fs_free_mem are the trivial malloc/free stubs of rb_common.h (typed pointer store instead of memcpy); malloc is __CPROVER_allocate, i.e. never NULL (rb_get_new_extent abort()s on failure anyway)",
+  "BOUNDED: bitmap->real_end - bitmap->start < 2^16 (offsets are 64-bit in the code and in the harness; the cap only narrows the values, chosen because the SAT proof of the ordering lemmas is the bottleneck)",
+  "range inside [start, real_end], count >= 1; rb_remove_extent is called directly with offsets relative to bitmap->start (rb_unmark_bmap / rb_unmark_bmap_extent only subtract bitmap->start, see rb_wrappers)",
+  "SCENARIO trunc: no extent lies entirely inside the range and the range does not lie strictly inside an extent (extents are only shortened: tail, head, prefix, suffix; structure unchanged); the three remove scenarios partition the input space",
+  "ext2fs_rb_erase is NOT abstracted: its contract is REQUIRES(false); the obligation that no call is reachable in this scenario is checked at every call site",
+  "rb_insert_extent is NOT abstracted: its contract is REQUIRES(false); the obligation that no call is reachable in this scenario is checked at every call site"
+ ],
+ "backend": "minisat",
+ "no_cross_check": true,
+ "native": true,
+ "cbmc_flags": [
+  "--object-bits",
+  "10"
+ ],
+ "unwindset": {
+  "rb_remove_extent.0": 3,
+  "rb_remove_extent.1": 3,
+  "ext2fs_rb_next.0": 2,
+  "ext2fs_rb_next.1": 2
+ },
+ "replace": [
+  "ext2fs_rb_erase",
+  "rb_insert_extent"
+ ],
+ "timeout": 300
+}
+*/
+/* VERIF-UNIT
+{
+ "name": "rb_remove_extent_trunc_b2",
+ "props": [
+  "C16"
+ ],
+ "level": "B(2)",
+ "tier": "thorough",
+ "harness": "h_rb_remove",
+ "defines": [
+  "EXT2_CUSTOM_MEMORY_ROUTINES",
+  "RB_N=2",
+  "RB_NEW=0",
+  "RB_BITS=16",
+  "RB_SCEN=1"
+ ],
+ "unwind": 9,
+ "unwind_reason": "BOUNDED: a tree of at most 2 nodes has height <= 2, so every descent / successor / predecessor loop of blkmap64_rb.c and rbtree.c runs at most that often (+1 for the exit test), the neighbour loops at most once per node; rebalancing loops climb at most one level per round; harness loops have constant bounds <= 8 (global unwind 9). Every bound is confirmed by an unwinding assertion.",
+ "sources": [
+  "lib/ext2fs/rbtree.c"
+ ],
+ "functions": [
+  "lib/ext2fs/blkmap64_rb.c:rb_remove_extent",
+  "lib/ext2fs/blkmap64_rb.c:rb_free_extent",
+  "lib/ext2fs/blkmap64_rb.c:rb_unmark_bmap",
+  "lib/ext2fs/blkmap64_rb.c:rb_unmark_bmap_extent"
+ ],
+ "assumes": [
+  "BOUNDED stand-in, not counted as proved: the tree has exactly 2 extents (sorted, disjoint, non-adjacent, count > 0) in every red-black shape of that size; wcursor/rcursor NULL or any node, rcursor_next NULL or the successor of rcursor (any node if rcursor is NULL)",
+  "allocation does not fail: ext2fs.h is compiled with its own hook EXT2_CUSTOM_MEMORY_ROUTINES and ext2fs_get_mem/ext2fs_free_mem are the trivial malloc/free stubs of rb_common.h (typed pointer store instead of memcpy); malloc is __CPROVER_allocate, i.e. never NULL (rb_get_new_extent abort()s on failure anyway)",
+  "BOUNDED: bitmap->real_end - bitmap->start < 2^16 (offsets are 64-bit in the code and in the harness; the cap only narrows the values, chosen because the SAT proof of the ordering lemmas is the bottleneck)",
+  "range inside [start, real_end], count >= 1; rb_remove_extent is called directly with offsets relative to bitmap->start (rb_unmark_bmap / rb_unmark_bmap_extent only subtract bitmap->start, see rb_wrappers)",
+  "SCENARIO trunc: no extent lies entirely inside the range and the range does not lie strictly inside an extent (extents are only shortened: tail, head, prefix, suffix; structure unchanged); the three remove scenarios partition the input space",
+  "ext2fs_rb_erase is NOT abstracted: its contract is REQUIRES(false); the obligation that no call is reachable in this scenario is checked at every call site",
+  "rb_insert_extent is NOT abstracted: its contract is REQUIRES(false); the obligation that no call is reachable in this scenario is checked at every call site"
+ ],
+ "backend": "minisat",
+ "no_cross_check": true,
+ "native": true,
+ "cbmc_flags": [
+  "--object-bits",
+  "10"
+ ],
+ "unwindset": {
+  "rb_remove_extent.0": 4,
+  "rb_remove_extent.1": 4,
+  "ext2fs_rb_next.0": 3,
+  "ext2fs_rb_next.1": 3
+ },
+ "replace": [
+  "ext2fs_rb_erase",
+  "rb_insert_extent"
+ ],
+ "timeout": 1200
+}
+*/
+/* VERIF-UNIT
+{
+ "name": "rb_remove_extent_trunc_b3",
+ "props": [
+  "C16"
+ ],
+ "level": "B(3)",
+ "tier": "thorough",
+ "harness": "h_rb_remove",
+ "defines": [
+  "EXT2_CUSTOM_MEMORY_ROUTINES",
+  "RB_N=3",
+  "RB_NEW=0",
+  "RB_BITS=16",
+  "RB_SCEN=1"
+ ],
+ "unwind": 9,
+ "unwind_reason": "BOUNDED: a tree of at most 3 nodes has height <= 2, so every descent / successor / predecessor loop of blkmap64_rb.c and rbtree.c runs at most that often (+1 for the exit test), the neighbour loops at most once per node; rebalancing loops climb at most one level per round; harness loops have constant bounds <= 8 (global unwind 9). Every bound is confirmed by an unwinding assertion.",
+ "sources": [
+  "lib/ext2fs/rbtree.c"
+ ],
+ "functions": [
+  "lib/ext2fs/blkmap64_rb.c:rb_remove_extent",
+  "lib/ext2fs/blkmap64_rb.c:rb_free_extent",
+  "lib/ext2fs/blkmap64_rb.c:rb_unmark_bmap",
+  "lib/ext2fs/blkmap64_rb.c:rb_unmark_bmap_extent"
+ ],
+ "assumes": [
+  "BOUNDED stand-in, not counted as proved: the tree has exactly 3 extents (sorted, disjoint, non-adjacent, count > 0) in every red-black shape of that size; wcursor/rcursor NULL or any node, rcursor_next NULL or the successor of rcursor (any node if rcursor is NULL)",
+  "allocation does not fail: ext2fs.h is compiled with its own hook EXT2_CUSTOM_MEMORY_ROUTINES and ext2fs_get_mem/ext2fs_free_mem are the trivial malloc/free stubs of rb_common.h (typed pointer store instead of memcpy); malloc is __CPROVER_allocate, i.e. never NULL (rb_get_new_extent abort()s on failure anyway)",
+  "BOUNDED: bitmap->real_end - bitmap->start < 2^16 (offsets are 64-bit in the code and in the harness; the cap only narrows the values, chosen because the SAT proof of the ordering lemmas is the bottleneck)",
+  "range inside [start, real_end], count >= 1; rb_remove_extent is called directly with offsets relative to bitmap->start (rb_unmark_bmap / rb_unmark_bmap_extent only subtract bitmap->start, see rb_wrappers)",
+  "SCENARIO trunc: no extent lies entirely inside the range and the range does not lie strictly inside an extent (extents are only shortened: tail, head, prefix, suffix; structure unchanged); the three remove scenarios partition the input space",
+  "ext2fs_rb_erase is NOT abstracted: its contract is REQUIRES(false); the obligation that no call is reachable in this scenario is checked at every call site",
+  "rb_insert_extent is NOT abstracted: its contract is REQUIRES(false); the obligation that no call is reachable in this scenario is checked at every call site"
+ ],
+ "backend": "minisat",
+ "no_cross_check": true,
+ "native": true,
+ "cbmc_flags": [
+  "--object-bits",
+  "10"
+ ],
+ "unwindset": {
+  "rb_remove_extent.0": 4,
+  "rb_remove_extent.1": 5,
+  "ext2fs_rb_next.0": 3,
+  "ext2fs_rb_next.1": 3
+ },
+ "replace": [
+  "ext2fs_rb_erase",
+  "rb_insert_extent"
+ ],
+ "timeout": 1200
+}
+*/
+/* VERIF-UNIT
+{
+ "name": "rb_remove_extent_split_b1",
+ "props": [
+  "C16"
+ ],
+ "level": "B(1)",
+ "tier": "quick",
+ "harness": "h_rb_remove",
+ "defines": [
+  "EXT2_CUSTOM_MEMORY_ROUTINES",
+  "RB_N=1",
+  "RB_NEW=1",
+  "RB_BITS=16",
+  "RB_SCEN=2"
+ ],
+ "unwind": 9,
+ "unwind_reason": "BOUNDED: a tree of at most 2 nodes has height <= 2, so every descent / successor / predecessor loop of blkmap64_rb.c and rbtree.c runs at most that often (+1 for the exit test), the neighbour loops at most once per node; rebalancing loops climb at most one level per round; harness loops have constant bounds <= 8 (global unwind 9). Every bound is confirmed by an unwinding assertion.",
+ "sources": [
+  "lib/ext2fs/rbtree.c"
+ ],
+ "functions": [
+  "lib/ext2fs/blkmap64_rb.c:rb_remove_extent",
+  "lib/ext2fs/blkmap64_rb.c:rb_free_extent",
+  "lib/ext2fs/blkmap64_rb.c:rb_unmark_bmap",
+  "lib/ext2fs/blkmap64_rb.c:rb_unmark_bmap_extent",
+  "lib/ext2fs/blkmap64_rb.c:rb_insert_extent"
+ ],
+ "assumes": [
+  "BOUNDED stand-in, not counted as proved: the tree has exactly 1 extents (sorted, disjoint, non-adjacent, count > 0) in every red-black shape of that size; wcursor/rcursor NULL or any node, rcursor_next NULL or the successor of rcursor (any node if rcursor is NULL)",
+  "allocation does not fail: ext2fs.h is compiled with its own hook EXT2_CUSTOM_MEMORY_ROUTINES and ext2fs_get_mem/ext2fs_free_mem are the trivial malloc/free stubs of rb_common.h (typed pointer store instead of memcpy); malloc is __CPROVER_allocate, i.e. never NULL (rb_get_new_extent abort()s on failure anyway)",
+  "BOUNDED: bitmap->real_end - bitmap->start < 2^16 (offsets are 64-bit in the code and in the harness; the cap only narrows the values, chosen because the SAT proof of the ordering lemmas is the bottleneck)",
+  "range inside [start, real_end], count >= 1; rb_remove_extent is called directly with offsets relative to bitmap->start (rb_unmark_bmap / rb_unmark_bmap_extent only subtract bitmap->start, see rb_wrappers)",
+  "SCENARIO split: the range lies strictly inside one extent (rb_insert_extent creates the second half; nothing erased); the three remove scenarios partition the input space",
+  "ext2fs_rb_erase is NOT abstracted: its contract is REQUIRES(false); the obligation that no call is reachable in this scenario is checked at every call site"
+ ],
+ "backend": "minisat",
+ "no_cross_check": true,
+ "native": true,
+ "cbmc_flags": [
+  "--object-bits",
+  "10"
+ ],
+ "unwindset": {
+  "rb_remove_extent.0": 2,
+  "rb_remove_extent.1": 1,
+  "rb_insert_extent.0": 2,
+  "rb_insert_extent.1": 2,
+  "ext2fs_rb_next.0": 3,
+  "ext2fs_rb_next.1": 3,
+  "ext2fs_rb_prev.0": 3,
+  "ext2fs_rb_prev.1": 3,
+  "ext2fs_rb_insert_color.0": 1
+ },
+ "replace": [
+  "ext2fs_rb_erase"
+ ],
+ "timeout": 300
+}
+*/
+/* VERIF-UNIT
+{
+ "name": "rb_remove_extent_split_b2",
+ "props": [
+  "C16"
+ ],
+ "level": "B(2)",
+ "tier": "thorough",
+ "harness": "h_rb_remove",
+ "defines": [
+  "EXT2_CUSTOM_MEMORY_ROUTINES",
+  "RB_N=2",
+  "RB_NEW=1",
+  "RB_BITS=16",
+  "RB_SCEN=2"
+ ],
+ "unwind": 9,
+ "unwind_reason": "BOUNDED: a tree of at most 3 nodes has height <= 2, so every descent / successor / predecessor loop of blkmap64_rb.c and rbtree.c runs at most that often (+1 for the exit test), the neighbour loops at most once per node; rebalancing loops climb at most one level per round; harness loops have constant bounds <= 8 (global unwind 9). Every bound is confirmed by an unwinding assertion.",
+ "sources": [
+  "lib/ext2fs/rbtree.c"
+ ],
+ "functions": [
+  "lib/ext2fs/blkmap64_rb.c:rb_remove_extent",
+  "lib/ext2fs/blkmap64_rb.c:rb_free_extent",
+  "lib/ext2fs/blkmap64_rb.c:rb_unmark_bmap",
+  "lib/ext2fs/blkmap64_rb.c:rb_unmark_bmap_extent",
+  "lib/ext2fs/blkmap64_rb.c:rb_insert_extent"
+ ],
+ "assumes": [
+  "BOUNDED stand-in, not counted as proved: the tree has exactly 2 extents (sorted, disjoint, non-adjacent, count > 0) in every red-black shape of that size; wcursor/rcursor NULL or any node, rcursor_next NULL or the successor of rcursor (any node if rcursor is NULL)",
+  "allocation does not fail: ext2fs.h is compiled with its own hook EXT2_CUSTOM_MEMORY_ROUTINES and ext2fs_get_mem/ext2fs_free_mem are the trivial malloc/free stubs of rb_common.h (typed pointer store instead of memcpy); malloc is __CPROVER_allocate, i.e. never NULL (rb_get_new_extent abort()s on failure anyway)",
+  "BOUNDED: bitmap->real_end - bitmap->start < 2^16 (offsets are 64-bit in the code and in the harness; the cap only narrows the values, chosen because the SAT proof of the ordering lemmas is the bottleneck)",
+  "range inside [start, real_end], count >= 1; rb_remove_extent is called directly with offsets relative to bitmap->start (rb_unmark_bmap / rb_unmark_bmap_extent only subtract bitmap->start, see rb_wrappers)",
+  "SCENARIO split: the range lies strictly inside one extent (rb_insert_extent creates the second half; nothing erased); the three remove scenarios partition the input space",
+  "ext2fs_rb_erase is NOT abstracted: its contract is REQUIRES(false); the obligation that no call is reachable in this scenario is checked at every call site"
+ ],
+ "backend": "minisat",
+ "no_cross_check": true,
+ "native": true,
+ "cbmc_flags": [
+  "--object-bits",
+  "10"
+ ],
+ "unwindset": {
+  "rb_remove_extent.0": 3,
+  "rb_remove_extent.1": 1,
+  "rb_insert_extent.0": 3,
+  "rb_insert_extent.1": 2,
+  "ext2fs_rb_next.0": 3,
+  "ext2fs_rb_next.1": 3,
+  "ext2fs_rb_prev.0": 3,
+  "ext2fs_rb_prev.1": 3,
+  "ext2fs_rb_insert_color.0": 2
+ },
+ "replace": [
+  "ext2fs_rb_erase"
+ ],
+ "timeout": 1200
+}
+*/
+/* VERIF-UNIT
+{
+ "name": "rb_remove_extent_delete_b1",
+ "props": [
+  "C16"
+ ],
+ "level": "B(1)",
+ "tier": "quick",
+ "harness": "h_rb_remove",
+ "defines": [
+  "EXT2_CUSTOM_MEMORY_ROUTINES",
+  "RB_N=1",
+  "RB_NEW=0",
+  "RB_BITS=16",
+  "RB_SCEN=3"
+ ],
+ "unwind": 9,
+ "unwind_reason": "BOUNDED: a tree of at most 1 nodes has height <= 1, so every descent / successor / predecessor loop of blkmap64_rb.c and rbtree.c runs at most that often (+1 for the exit test), the neighbour loops at most once per node; rebalancing loops climb at most one level per round; harness loops have constant bounds <= 8 (global unwind 9). Every bound is confirmed by an unwinding assertion.",
+ "sources": [
+  "lib/ext2fs/rbtree.c"
+ ],
+ "functions": [
+  "lib/ext2fs/blkmap64_rb.c:rb_remove_extent",
+  "lib/ext2fs/blkmap64_rb.c:rb_free_extent",
+  "lib/ext2fs/blkmap64_rb.c:rb_unmark_bmap",
+  "lib/ext2fs/blkmap64_rb.c:rb_unmark_bmap_extent"
+ ],
+ "assumes": [
+  "BOUNDED stand-in, not counted as proved: the tree has exactly 1 extents (sorted, disjoint, non-adjacent, count > 0) in every red-black shape of that size; wcursor/rcursor NULL or any node, rcursor_next NULL or the successor of rcursor (any node if rcursor is NULL)",
+  "allocation does not fail: ext2fs.h is compiled with its own hook EXT2_CUSTOM_MEMORY_ROUTINES and ext2fs_get_mem/ext2fs_free_mem are the trivial malloc/free stubs of rb_common.h (typed pointer store instead of memcpy); malloc is __CPROVER_allocate, i.e. never NULL (rb_get_new_extent abort()s on failure anyway)",
+  "BOUNDED: bitmap->real_end - bitmap->start < 2^16 (offsets are 64-bit in the code and in the harness; the cap only narrows the values, chosen because the SAT proof of the ordering lemmas is the bottleneck)",
+  "range inside [start, real_end], count >= 1; rb_remove_extent is called directly with offsets relative to bitmap->start (rb_unmark_bmap / rb_unmark_bmap_extent only subtract bitmap->start, see rb_wrappers)",
+  "SCENARIO delete: at least one extent lies entirely inside the range (erase; rb_insert_extent unreachable); the three remove scenarios partition the input space",
+  "rb_insert_extent is NOT abstracted: its contract is REQUIRES(false); the obligation that no call is reachable in this scenario is checked at every call site"
+ ],
+ "backend": "minisat",
+ "no_cross_check": true,
+ "native": true,
+ "cbmc_flags": [
+  "--object-bits",
+  "10"
+ ],
+ "unwindset": {
+  "rb_remove_extent.0": 3,
+  "rb_remove_extent.1": 3,
+  "ext2fs_rb_next.0": 2,
+  "ext2fs_rb_next.1": 2,
+  "ext2fs_rb_erase.0": 1,
+  "__rb_erase_color.0": 1
+ },
+ "replace": [
+  "rb_insert_extent"
+ ],
+ "timeout": 300
+}
+*/
+/* VERIF-UNIT
+{
+ "name": "rb_remove_extent_delete_b2",
+ "props": [
+  "C16"
+ ],
+ "level": "B(2)",
+ "tier": "thorough",
+ "harness": "h_rb_remove",
+ "defines": [
+  "EXT2_CUSTOM_MEMORY_ROUTINES",
+  "RB_N=2",
+  "RB_NEW=0",
+  "RB_BITS=16",
+  "RB_SCEN=3"
+ ],
+ "unwind": 9,
+ "unwind_reason": "BOUNDED: a tree of at most 2 nodes has height <= 2, so every descent / successor / predecessor loop of blkmap64_rb.c and rbtree.c runs at most that often (+1 for the exit test), the neighbour loops at most once per node; rebalancing loops climb at most one level per round; harness loops have constant bounds <= 8 (global unwind 9). Every bound is confirmed by an unwinding assertion.",
+ "sources": [
+  "lib/ext2fs/rbtree.c"
+ ],
+ "functions": [
+  "lib/ext2fs/blkmap64_rb.c:rb_remove_extent",
+  "lib/ext2fs/blkmap64_rb.c:rb_free_extent",
+  "lib/ext2fs/blkmap64_rb.c:rb_unmark_bmap",
+  "lib/ext2fs/blkmap64_rb.c:rb_unmark_bmap_extent"
+ ],
+ "assumes": [
+  "BOUNDED stand-in, not counted as proved: the tree has exactly 2 extents (sorted, disjoint, non-adjacent, count > 0) in every red-black shape of that size; wcursor/rcursor NULL or any node, rcursor_next NULL or the successor of rcursor (any node if rcursor is NULL)",
+  "allocation does not fail: ext2fs.h is compiled with its own hook EXT2_CUSTOM_MEMORY_ROUTINES and ext2fs_get_mem/ext2fs_free_mem are the trivial malloc/free stubs of rb_common.h (typed pointer store instead of memcpy); malloc is __CPROVER_allocate, i.e. never NULL (rb_get_new_extent abort()s on failure anyway)",
+  "BOUNDED: bitmap->real_end - bitmap->start < 2^16 (offsets are 64-bit in the code and in the harness; the cap only narrows the values, chosen because the SAT proof of the ordering lemmas is the bottleneck)",
+  "range inside [start, real_end], count >= 1; rb_remove_extent is called directly with offsets relative to bitmap->start (rb_unmark_bmap / rb_unmark_bmap_extent only subtract bitmap->start, see rb_wrappers)",
+  "SCENARIO delete: at least one extent lies entirely inside the range (erase; rb_insert_extent unreachable); the three remove scenarios partition the input space",
+  "rb_insert_extent is NOT abstracted: its contract is REQUIRES(false); the obligation that no call is reachable in this scenario is checked at every call site"
+ ],
+ "backend": "minisat",
+ "no_cross_check": true,
+ "native": true,
+ "cbmc_flags": [
+  "--object-bits",
+  "10"
+ ],
+ "unwindset": {
+  "rb_remove_extent.0": 4,
+  "rb_remove_extent.1": 4,
+  "ext2fs_rb_next.0": 3,
+  "ext2fs_rb_next.1": 3,
+  "ext2fs_rb_erase.0": 1,
+  "__rb_erase_color.0": 1
+ },
+ "replace": [
+  "rb_insert_extent"
+ ],
+ "timeout": 1200
+}
+*/
+/* VERIF-UNIT
+{
+ "name": "rb_resize_bmap_keep_b1",
+ "props": [
+  "C16"
+ ],
+ "level": "B(1)",
+ "tier": "quick",
+ "harness": "h_rb_resize",
+ "defines": [
+  "EXT2_CUSTOM_MEMORY_ROUTINES",
+  "RB_N=1",
+  "RB_NEW=0",
+  "RB_BITS=16",
+  "RB_SCEN=1"
+ ],
+ "unwind": 9,
+ "unwind_reason": "BOUNDED: a tree of at most 1 nodes has height <= 1, so every descent / successor / predecessor loop of blkmap64_rb.c and rbtree.c runs at most that often (+1 for the exit test), the neighbour loops at most once per node; rebalancing loops climb at most one level per round; harness loops have constant bounds <= 8 (global unwind 9). Every bound is confirmed by an unwinding assertion.",
+ "sources": [
+  "lib/ext2fs/rbtree.c"
+ ],
+ "functions": [
+  "lib/ext2fs/blkmap64_rb.c:rb_resize_bmap",
+  "lib/ext2fs/blkmap64_rb.c:rb_truncate",
+  "lib/ext2fs/blkmap64_rb.c:rb_insert_extent"
+ ],
+ "assumes": [
+  "BOUNDED stand-in, not counted as proved: the tree has exactly 1 extents (sorted, disjoint, non-adjacent, count > 0) in every red-black shape of that size; wcursor/rcursor NULL or any node, rcursor_next NULL or the successor of rcursor (any node if rcursor is NULL)",
+  "allocation does not fail: ext2fs.h is compiled with its own hook EXT2_CUSTOM_MEMORY_ROUTINES and ext2fs_get_mem/ext2fs_free_mem are the trivial malloc/free stubs of rb_common.h (typed pointer store instead of memcpy); malloc is __CPROVER_allocate, i.e. never NULL (rb_get_new_extent abort()s on failure anyway)",
+  "BOUNDED: bitmap->real_end - bitmap->start < 2^16 (offsets are 64-bit in the code and in the harness; the cap only narrows the values, chosen because the SAT proof of the ordering lemmas is the bottleneck)",
+  "start <= new_end <= new_real_end, new_real_end - start below the same cap as real_end - start",
+  "SCENARIO keep: no extent starts behind min(old end, new end); there is no padding (new_end == new_real_end) or the extent holding bit new_end takes it up (structure unchanged); the four resize scenarios partition the input space",
+  "ext2fs_rb_erase is NOT abstracted: its contract is REQUIRES(false); the obligation that no call is reachable in this scenario is checked at every call site",
+  "ext2fs_rb_insert_color is NOT abstracted: its contract is REQUIRES(false); the obligation that no call is reachable in this scenario is checked at every call site"
+ ],
+ "backend": "minisat",
+ "no_cross_check": true,
+ "native": true,
+ "cbmc_flags": [
+  "--object-bits",
+  "10"
+ ],
+ "unwindset": {
+  "rb_truncate.0": 3,
+  "rb_insert_extent.0": 2,
+  "rb_insert_extent.1": 2,
+  "ext2fs_rb_next.0": 3,
+  "ext2fs_rb_next.1": 3,
+  "ext2fs_rb_prev.0": 3,
+  "ext2fs_rb_prev.1": 3,
+  "ext2fs_rb_last.0": 3
+ },
+ "replace": [
+  "ext2fs_rb_erase",
+  "ext2fs_rb_insert_color"
+ ],
+ "timeout": 300
+}
+*/
+/* VERIF-UNIT
+{
+ "name": "rb_resize_bmap_keep_b2",
+ "props": [
+  "C16"
+ ],
+ "level": "B(2)",
+ "tier": "thorough",
+ "harness": "h_rb_resize",
+ "defines": [
+  "EXT2_CUSTOM_MEMORY_ROUTINES",
+  "RB_N=2",
+  "RB_NEW=0",
+  "RB_BITS=16",
+  "RB_SCEN=1"
+ ],
+ "unwind": 9,
+ "unwind_reason": "BOUNDED: a tree of at most 2 nodes has height <= 2, so every descent / successor / predecessor loop of blkmap64_rb.c and rbtree.c runs at most that often (+1 for the exit test), the neighbour loops at most once per node; rebalancing loops climb at most one level per round; harness loops have constant bounds <= 8 (global unwind 9). Every bound is confirmed by an unwinding assertion.",
+ "sources": [
+  "lib/ext2fs/rbtree.c"
+ ],
+ "functions": [
+  "lib/ext2fs/blkmap64_rb.c:rb_resize_bmap",
+  "lib/ext2fs/blkmap64_rb.c:rb_truncate",
+  "lib/ext2fs/blkmap64_rb.c:rb_insert_extent"
+ ],
+ "assumes": [
+  "BOUNDED stand-in, not counted as proved: the tree has exactly 2 extents (sorted, disjoint, non-adjacent, count > 0) in every red-black shape of that size; wcursor/rcursor NULL or any node, rcursor_next NULL or the successor of rcursor (any node if rcursor is NULL)",
+  "allocation does not fail: ext2fs.h is compiled with its own hook EXT2_CUSTOM_MEMORY_ROUTINES and ext2fs_get_mem/ext2fs_free_mem are the trivial malloc/free stubs of rb_common.h (typed pointer store instead of memcpy); malloc is __CPROVER_allocate, i.e. never NULL (rb_get_new_extent abort()s on failure anyway)",
+  "BOUNDED: bitmap->real_end - bitmap->start < 2^16 (offsets are 64-bit in the code and in the harness; the cap only narrows the values, chosen because the SAT proof of the ordering lemmas is the bottleneck)",
+  "start <= new_end <= new_real_end, new_real_end - start below the same cap as real_end - start",
+  "SCENARIO keep: no extent starts behind min(old end, new end); there is no padding (new_end == new_real_end) or the extent holding bit new_end takes it up (structure unchanged); the four resize scenarios partition the input space",
+  "ext2fs_rb_erase is NOT abstracted: its contract is REQUIRES(false); the obligation that no call is reachable in this scenario is checked at every call site",
+  "ext2fs_rb_insert_color is NOT abstracted: its contract is REQUIRES(false); the obligation that no call is reachable in this scenario is checked at every call site"
+ ],
+ "backend": "minisat",
+ "no_cross_check": true,
+ "native": true,
+ "cbmc_flags": [
+  "--object-bits",
+  "10"
+ ],
+ "unwindset": {
+  "rb_truncate.0": 3,
+  "rb_insert_extent.0": 3,
+  "rb_insert_extent.1": 2,
+  "ext2fs_rb_next.0": 3,
+  "ext2fs_rb_next.1": 3,
+  "ext2fs_rb_prev.0": 3,
+  "ext2fs_rb_prev.1": 3,
+  "ext2fs_rb_last.0": 3
+ },
+ "replace": [
+  "ext2fs_rb_erase",
+  "ext2fs_rb_insert_color"
+ ],
+ "timeout": 1200
+}
+*/
+/* VERIF-UNIT
+{
+ "name": "rb_resize_bmap_keep_b3",
+ "props": [
+  "C16"
+ ],
+ "level": "B(3)",
+ "tier": "quick",
+ "harness": "h_rb_resize",
+ "defines": [
+  "EXT2_CUSTOM_MEMORY_ROUTINES",
+  "RB_N=3",
+  "RB_NEW=0",
+  "RB_BITS=16",
+  "RB_SCEN=1"
+ ],
+ "unwind": 9,
+ "unwind_reason": "BOUNDED: a tree of at most 3 nodes has height <= 2, so every descent / successor / predecessor loop of blkmap64_rb.c and rbtree.c runs at most that often (+1 for the exit test), the neighbour loops at most once per node; rebalancing loops climb at most one level per round; harness loops have constant bounds <= 8 (global unwind 9). Every bound is confirmed by an unwinding assertion.",
+ "sources": [
+  "lib/ext2fs/rbtree.c"
+ ],
+ "functions": [
+  "lib/ext2fs/blkmap64_rb.c:rb_resize_bmap",
+  "lib/ext2fs/blkmap64_rb.c:rb_truncate",
+  "lib/ext2fs/blkmap64_rb.c:rb_insert_extent"
+ ],
+ "assumes": [
+  "BOUNDED stand-in, not counted as proved: the tree has exactly 3 extents (sorted, disjoint, non-adjacent, count > 0) in every red-black shape of that size; wcursor/rcursor NULL or any node, rcursor_next NULL or the successor of rcursor (any node if rcursor is NULL)",
+  "allocation does not fail: ext2fs.h is compiled with its own hook EXT2_CUSTOM_MEMORY_ROUTINES and ext2fs_get_mem/ext2fs_free_mem are the trivial malloc/free stubs of rb_common.h (typed pointer store instead of memcpy); malloc is __CPROVER_allocate, i.e. never NULL (rb_get_new_extent abort()s on failure anyway)",
+  "BOUNDED: bitmap->real_end - bitmap->start < 2^16 (offsets are 64-bit in the code and in the harness; the cap only narrows the values, chosen because the SAT proof of the ordering lemmas is the bottleneck)",
+  "start <= new_end <= new_real_end, new_real_end - start below the same cap as real_end - start",
+  "SCENARIO keep: no extent starts behind min(old end, new end); there is no padding (new_end == new_real_end) or the extent holding bit new_end takes it up (structure unchanged); the four resize scenarios partition the input space",
+  "ext2fs_rb_erase is NOT abstracted: its contract is REQUIRES(false); the obligation that no call is reachable in this scenario is checked at every call site",
+  "ext2fs_rb_insert_color is NOT abstracted: its contract is REQUIRES(false); the obligation that no call is reachable in this scenario is checked at every call site"
+ ],
+ "backend": "minisat",
+ "no_cross_check": true,
+ "native": true,
+ "cbmc_flags": [
+  "--object-bits",
+  "10"
+ ],
+ "unwindset": {
+  "rb_truncate.0": 3,
+  "rb_insert_extent.0": 3,
+  "rb_insert_extent.1": 2,
+  "ext2fs_rb_next.0": 4,
+  "ext2fs_rb_next.1": 4,
+  "ext2fs_rb_prev.0": 4,
+  "ext2fs_rb_prev.1": 4,
+  "ext2fs_rb_last.0": 4
+ },
+ "replace": [
+  "ext2fs_rb_erase",
+  "ext2fs_rb_insert_color"
+ ],
+ "timeout": 300
+}
+*/
+/* VERIF-UNIT
+{
+ "name": "rb_resize_bmap_pad_b1",
+ "props": [
+  "C16"
+ ],
+ "level": "B(1)",
+ "tier": "quick",
+ "harness": "h_rb_resize",
+ "defines": [
+  "EXT2_CUSTOM_MEMORY_ROUTINES",
+  "RB_N=1",
+  "RB_NEW=1",
+  "RB_BITS=16",
+  "RB_SCEN=2"
+ ],
+ "unwind": 9,
+ "unwind_reason": "BOUNDED: a tree of at most 2 nodes has height <= 2, so every descent / successor / predecessor loop of blkmap64_rb.c and rbtree.c runs at most that often (+1 for the exit test), the neighbour loops at most once per node; rebalancing loops climb at most one level per round; harness loops have constant bounds <= 8 (global unwind 9). Every bound is confirmed by an unwinding assertion.",
+ "sources": [
+  "lib/ext2fs/rbtree.c"
+ ],
+ "functions": [
+  "lib/ext2fs/blkmap64_rb.c:rb_resize_bmap",
+  "lib/ext2fs/blkmap64_rb.c:rb_truncate",
+  "lib/ext2fs/blkmap64_rb.c:rb_insert_extent"
+ ],
+ "assumes": [
+  "BOUNDED stand-in, not counted as proved: the tree has exactly 1 extents (sorted, disjoint, non-adjacent, count > 0) in every red-black shape of that size; wcursor/rcursor NULL or any node, rcursor_next NULL or the successor of rcursor (any node if rcursor is NULL)",
+  "allocation does not fail: ext2fs.h is compiled with its own hook EXT2_CUSTOM_MEMORY_ROUTINES and ext2fs_get_mem/ext2fs_free_mem are the trivial malloc/free stubs of rb_common.h (typed pointer store instead of memcpy); malloc is __CPROVER_allocate, i.e. never NULL (rb_get_new_extent abort()s on failure anyway)",
+  "BOUNDED: bitmap->real_end - bitmap->start < 2^16 (offsets are 64-bit in the code and in the harness; the cap only narrows the values, chosen because the SAT proof of the ordering lemmas is the bottleneck)",
+  "start <= new_end <= new_real_end, new_real_end - start below the same cap as real_end - start",
+  "SCENARIO pad: no extent starts behind min(old end, new end); the padding (new_end, new_real_end] becomes a new node; the four resize scenarios partition the input space",
+  "ext2fs_rb_erase is NOT abstracted: its contract is REQUIRES(false); the obligation that no call is reachable in this scenario is checked at every call site"
+ ],
+ "backend": "minisat",
+ "no_cross_check": true,
+ "native": true,
+ "cbmc_flags": [
+  "--object-bits",
+  "10"
+ ],
+ "unwindset": {
+  "rb_truncate.0": 3,
+  "rb_insert_extent.0": 2,
+  "rb_insert_extent.1": 2,
+  "ext2fs_rb_next.0": 3,
+  "ext2fs_rb_next.1": 3,
+  "ext2fs_rb_prev.0": 3,
+  "ext2fs_rb_prev.1": 3,
+  "ext2fs_rb_last.0": 3,
+  "ext2fs_rb_insert_color.0": 1
+ },
+ "replace": [
+  "ext2fs_rb_erase"
+ ],
+ "timeout": 300
+}
+*/
+/* VERIF-UNIT
+{
+ "name": "rb_resize_bmap_pad_b2",
+ "props": [
+  "C16"
+ ],
+ "level": "B(2)",
+ "tier": "thorough",
+ "harness": "h_rb_resize",
+ "defines": [
+  "EXT2_CUSTOM_MEMORY_ROUTINES",
+  "RB_N=2",
+  "RB_NEW=1",
+  "RB_BITS=16",
+  "RB_SCEN=2"
+ ],
+ "unwind": 9,
+ "unwind_reason": "BOUNDED: a tree of at most 3 nodes has height <= 2, so every descent / successor / predecessor loop of blkmap64_rb.c and rbtree.c runs at most that often (+1 for the exit test), the neighbour loops at most once per node; rebalancing loops climb at most one level per round; harness loops have constant bounds <= 8 (global unwind 9). Every bound is confirmed by an unwinding assertion.",
+ "sources": [
+  "lib/ext2fs/rbtree.c"
+ ],
+ "functions": [
+  "lib/ext2fs/blkmap64_rb.c:rb_resize_bmap",
+  "lib/ext2fs/blkmap64_rb.c:rb_truncate",
+  "lib/ext2fs/blkmap64_rb.c:rb_insert_extent"
+ ],
+ "assumes": [
+  "BOUNDED stand-in, not counted as proved: the tree has exactly 2 extents (sorted, disjoint, non-adjacent, count > 0) in every red-black shape of that size; wcursor/rcursor NULL or any node, rcursor_next NULL or the successor of rcursor (any node if rcursor is NULL)",
+  "allocation does not fail: ext2fs.h is compiled with its own hook EXT2_CUSTOM_MEMORY_ROUTINES and ext2fs_get_mem/ext2fs_free_mem are the trivial malloc/free stubs of rb_common.h (typed pointer store instead of memcpy); malloc is __CPROVER_allocate, i.e. never NULL (rb_get_new_extent abort()s on failure anyway)",
+  "BOUNDED: bitmap->real_end - bitmap->start < 2^16 (offsets are 64-bit in the code and in the harness; the cap only narrows the values, chosen because the SAT proof of the ordering lemmas is the bottleneck)",
+  "start <= new_end <= new_real_end, new_real_end - start below the same cap as real_end - start",
+  "SCENARIO pad: no extent starts behind min(old end, new end); the padding (new_end, new_real_end] becomes a new node; the four resize scenarios partition the input space",
+  "ext2fs_rb_erase is NOT abstracted: its contract is REQUIRES(false); the obligation that no call is reachable in this scenario is checked at every call site"
+ ],
+ "backend": "minisat",
+ "no_cross_check": true,
+ "native": true,
+ "cbmc_flags": [
+  "--object-bits",
+  "10"
+ ],
+ "unwindset": {
+  "rb_truncate.0": 3,
+  "rb_insert_extent.0": 3,
+  "rb_insert_extent.1": 2,
+  "ext2fs_rb_next.0": 3,
+  "ext2fs_rb_next.1": 3,
+  "ext2fs_rb_prev.0": 3,
+  "ext2fs_rb_prev.1": 3,
+  "ext2fs_rb_last.0": 3,
+  "ext2fs_rb_insert_color.0": 2
+ },
+ "replace": [
+  "ext2fs_rb_erase"
+ ],
+ "timeout": 1200
+}
+*/
+/* VERIF-UNIT
+{
+ "name": "rb_resize_bmap_cut_b1",
+ "props": [
+  "C16"
+ ],
+ "level": "B(1)",
+ "tier": "wip",
+ "harness": "h_rb_resize",
+ "defines": [
+  "EXT2_CUSTOM_MEMORY_ROUTINES",
+  "RB_N=1",
+  "RB_NEW=0",
+  "RB_BITS=16",
+  "RB_SCEN=3"
+ ],
+ "unwind": 9,
+ "unwind_reason": "BOUNDED: a tree of at most 1 nodes has height <= 1, so every descent / successor / predecessor loop of blkmap64_rb.c and rbtree.c runs at most that often (+1 for the exit test), the neighbour loops at most once per node; rebalancing loops climb at most one level per round; harness loops have constant bounds <= 8 (global unwind 9). Every bound is confirmed by an unwinding assertion.",
+ "sources": [
+  "lib/ext2fs/rbtree.c"
+ ],
+ "functions": [
+  "lib/ext2fs/blkmap64_rb.c:rb_resize_bmap",
+  "lib/ext2fs/blkmap64_rb.c:rb_truncate",
+  "lib/ext2fs/blkmap64_rb.c:rb_insert_extent"
+ ],
+ "assumes": [
+  "BOUNDED stand-in, not counted as proved: the tree has exactly 1 extents (sorted, disjoint, non-adjacent, count > 0) in every red-black shape of that size; wcursor/rcursor NULL or any node, rcursor_next NULL or the successor of rcursor (any node if rcursor is NULL)",
+  "allocation does not fail: ext2fs.h is compiled with its own hook EXT2_CUSTOM_MEMORY_ROUTINES and ext2fs_get_mem/ext2fs_free_mem are the trivial malloc/free stubs of rb_common.h (typed pointer store instead of memcpy); malloc is __CPROVER_allocate, i.e. never NULL (rb_get_new_extent abort()s on failure anyway)",
+  "BOUNDED: bitmap->real_end - bitmap->start < 2^16 (offsets are 64-bit in the code and in the harness; the cap only narrows the values, chosen because the SAT proof of the ordering lemmas is the bottleneck)",
+  "start <= new_end <= new_real_end, new_real_end - start below the same cap as real_end - start",
+  "SCENARIO cut: at least one extent starts behind min(old end, new end) and is erased; no new node; the four resize scenarios partition the input space",
+  "ext2fs_rb_insert_color is NOT abstracted: its contract is REQUIRES(false); the obligation that no call is reachable in this scenario is checked at every call site"
+ ],
+ "backend": "minisat",
+ "no_cross_check": true,
+ "native": true,
+ "cbmc_flags": [
+  "--object-bits",
+  "10"
+ ],
+ "unwindset": {
+  "rb_truncate.0": 4,
+  "rb_insert_extent.0": 2,
+  "rb_insert_extent.1": 2,
+  "ext2fs_rb_next.0": 3,
+  "ext2fs_rb_next.1": 3,
+  "ext2fs_rb_prev.0": 3,
+  "ext2fs_rb_prev.1": 3,
+  "ext2fs_rb_last.0": 3,
+  "ext2fs_rb_erase.0": 1,
+  "__rb_erase_color.0": 1
+ },
+ "replace": [
+  "ext2fs_rb_insert_color"
+ ],
+ "timeout": 1200
+}
+*/
+/* VERIF-UNIT
+{
+ "name": "rb_resize_bmap_cutpad_b1",
+ "props": [
+  "C16"
+ ],
+ "level": "B(1)",
+ "tier": "thorough",
+ "harness": "h_rb_resize",
+ "defines": [
+  "EXT2_CUSTOM_MEMORY_ROUTINES",
+  "RB_N=1",
+  "RB_NEW=1",
+  "RB_BITS=16",
+  "RB_SCEN=4"
+ ],
+ "unwind": 9,
+ "unwind_reason": "BOUNDED: a tree of at most 2 nodes has height <= 2, so every descent / successor / predecessor loop of blkmap64_rb.c and rbtree.c runs at most that often (+1 for the exit test), the neighbour loops at most once per node; rebalancing loops climb at most one level per round; harness loops have constant bounds <= 8 (global unwind 9). Every bound is confirmed by an unwinding assertion.",
+ "sources": [
+  "lib/ext2fs/rbtree.c"
+ ],
+ "functions": [
+  "lib/ext2fs/blkmap64_rb.c:rb_resize_bmap",
+  "lib/ext2fs/blkmap64_rb.c:rb_truncate",
+  "lib/ext2fs/blkmap64_rb.c:rb_insert_extent"
+ ],
+ "assumes": [
+  "BOUNDED stand-in, not counted as proved: the tree has exactly 1 extents (sorted, disjoint, non-adjacent, count > 0) in every red-black shape of that size; wcursor/rcursor NULL or any node, rcursor_next NULL or the successor of rcursor (any node if rcursor is NULL)",
+  "allocation does not fail: ext2fs.h is compiled with its own hook EXT2_CUSTOM_MEMORY_ROUTINES and ext2fs_get_mem/ext2fs_free_mem are the trivial malloc/free stubs of rb_common.h (typed pointer store instead of memcpy); malloc is __CPROVER_allocate, i.e. never NULL (rb_get_new_extent abort()s on failure anyway)",
+  "BOUNDED: bitmap->real_end - bitmap->start < 2^16 (offsets are 64-bit in the code and in the harness; the cap only narrows the values, chosen because the SAT proof of the ordering lemmas is the bottleneck)",
+  "start <= new_end <= new_real_end, new_real_end - start below the same cap as real_end - start",
+  "SCENARIO cutpad: at least one extent is erased and the padding becomes a new node; the four resize scenarios partition the input space"
+ ],
+ "backend": "minisat",
+ "no_cross_check": true,
+ "native": true,
+ "cbmc_flags": [
+  "--object-bits",
+  "10"
+ ],
+ "unwindset": {
+  "rb_truncate.0": 4,
+  "rb_insert_extent.0": 2,
+  "rb_insert_extent.1": 2,
+  "ext2fs_rb_next.0": 3,
+  "ext2fs_rb_next.1": 3,
+  "ext2fs_rb_prev.0": 3,
+  "ext2fs_rb_prev.1": 3,
+  "ext2fs_rb_last.0": 3,
+  "ext2fs_rb_erase.0": 1,
+  "__rb_erase_color.0": 1,
+  "ext2fs_rb_insert_color.0": 1
+ },
+ "timeout": 1200
+}
+*/
+/* VERIF-UNIT
+{
+ "name": "rb_set_bmap_range_p5",
+ "props": [
+  "C16"
+ ],
+ "level": "B(0)",
+ "tier": "quick",
+ "harness": "h_rb_set_range",
+ "defines": [
+  "EXT2_CUSTOM_MEMORY_ROUTINES",
+  "RB_N=0",
+  "RB_NEW=2",
+  "RB_BITS=16",
+  "RB_SCEN=2",
+  "RB_SET_BITS=3",
+  "RB_PATTERN=0x5"
+ ],
+ "unwind": 9,
+ "unwind_reason": "BOUNDED: a tree of at most 2 nodes has height <= 2, so every descent / successor / predecessor loop of blkmap64_rb.c and rbtree.c runs at most that often (+1 for the exit test), the neighbour loops at most once per node; rebalancing loops climb at most one level per round; harness loops have constant bounds <= 8 (global unwind 9). Every bound is confirmed by an unwinding assertion.",
  "sources": [
   "lib/ext2fs/rbtree.c",
   "lib/ext2fs/bitops.c"
  ],
  "functions": [
-  "lib/ext2fs/blkmap64_rb.c:rb_get_bmap_range"
+  "lib/ext2fs/blkmap64_rb.c:rb_set_bmap_range",
+  "lib/ext2fs/blkmap64_rb.c:rb_insert_extent"
  ],
  "assumes": [
-  "x"
+  "BOUNDED stand-in, not counted as proved: the tree has exactly 0 extents (sorted, disjoint, non-adjacent, count > 0) in every red-black shape of that size; wcursor/rcursor NULL or any node, rcursor_next NULL or the successor of rcursor (any node if rcursor is NULL)",
+  "allocation does not fail: ext2fs.h is compiled with its own hook EXT2_CUSTOM_MEMORY_ROUTINES and ext2fs_get_mem/ext2fs_free_mem are the trivial malloc/free stubs of rb_common.h (typed pointer store instead of memcpy); malloc is __CPROVER_allocate, i.e. never NULL (rb_get_new_extent abort()s on failure anyway)",
+  "BOUNDED: bitmap->real_end - bitmap->start < 2^16 (offsets are 64-bit in the code and in the harness; the cap only narrows the values, chosen because the SAT proof of the ordering lemmas is the bottleneck)",
+  "BOUNDED: the input buffer is the constant bit pattern 0x5, num = 3 (concrete control flow of the run-extraction loop; one rb_insert_extent body per run)",
+  "SCENARIO: no extent of the tree overlaps or touches [start - 1, start + num] (the runs become new nodes, nothing is merged)",
+  "range inside [start, real_end]",
+  "ext2fs_rb_erase is NOT abstracted: its contract is REQUIRES(false); the obligation that no call is reachable in this scenario is checked at every call site"
  ],
  "backend": "minisat",
+ "no_cross_check": true,
  "native": true,
  "cbmc_flags": [
   "--object-bits",
   "10"
  ],
  "unwindset": {
-  "ext2fs_rb_next.0": 4,
-  "ext2fs_rb_next.1": 4,
-  "rb_get_bmap_range.0": 4,
-  "rb_get_bmap_range.1": 16,
-  "rb_get_bmap_range.2": 6
- }
-}
-*/
-/* VERIF-UNIT
-{
- "name": "rb_insert_extent_keep_n1",
- "props": [
-  "C16"
- ],
- "level": "B(1)",
- "tier": "wip",
- "harness": "h_rb_insert",
- "defines": [
-  "EXT2_CUSTOM_MEMORY_ROUTINES",
-  "RB_N=1",
-  "RB_NEW=0",
-  "RB_SCEN=1",
-  "RB_BITS=16"
- ],
- "unwind": 9,
- "unwind_reason": "x",
- "sources": [
-  "lib/ext2fs/rbtree.c"
- ],
- "functions": [
-  "lib/ext2fs/blkmap64_rb.c:rb_insert_extent",
-  "lib/ext2fs/blkmap64_rb.c:rb_mark_bmap",
-  "lib/ext2fs/blkmap64_rb.c:rb_mark_bmap_extent",
-  "lib/ext2fs/blkmap64_rb.c:rb_get_new_extent",
-  "lib/ext2fs/blkmap64_rb.c:rb_free_extent"
- ],
- "assumes": [
-  "x"
- ],
- "backend": "minisat",
- "native": true,
- "cbmc_flags": [
-  "--object-bits",
-  "10"
- ],
- "unwindset": {
+  "rb_set_bmap_range.0": 4,
+  "rb_insert_extent.0": 2,
+  "rb_insert_extent.1": 2,
   "ext2fs_rb_next.0": 3,
   "ext2fs_rb_next.1": 3,
   "ext2fs_rb_prev.0": 3,
   "ext2fs_rb_prev.1": 3,
-  "rb_insert_extent.0": 2,
-  "rb_insert_extent.1": 2
- },
- "replace": [
-  "ext2fs_rb_erase",
-  "ext2fs_rb_insert_color"
- ]
-}
-*/
-/* VERIF-UNIT
-{
- "name": "rb_insert_extent_new_n1",
- "props": [
-  "C16"
- ],
- "level": "B(1)",
- "tier": "wip",
- "harness": "h_rb_insert",
- "defines": [
-  "EXT2_CUSTOM_MEMORY_ROUTINES",
-  "RB_N=1",
-  "RB_NEW=1",
-  "RB_SCEN=2",
-  "RB_BITS=16"
- ],
- "unwind": 9,
- "unwind_reason": "x",
- "sources": [
-  "lib/ext2fs/rbtree.c"
- ],
- "functions": [
-  "lib/ext2fs/blkmap64_rb.c:rb_insert_extent",
-  "lib/ext2fs/blkmap64_rb.c:rb_mark_bmap",
-  "lib/ext2fs/blkmap64_rb.c:rb_mark_bmap_extent",
-  "lib/ext2fs/blkmap64_rb.c:rb_get_new_extent",
-  "lib/ext2fs/blkmap64_rb.c:rb_free_extent"
- ],
- "assumes": [
-  "x"
- ],
- "backend": "minisat",
- "native": true,
- "cbmc_flags": [
-  "--object-bits",
-  "10"
- ],
- "unwindset": {
-  "ext2fs_rb_next.0": 3,
-  "ext2fs_rb_next.1": 3,
-  "ext2fs_rb_prev.0": 3,
-  "ext2fs_rb_prev.1": 3,
-  "ext2fs_rb_insert_color.0": 1,
-  "rb_insert_extent.0": 2,
-  "rb_insert_extent.1": 2
+  "ext2fs_rb_insert_color.0": 1
  },
  "replace": [
   "ext2fs_rb_erase"
- ]
+ ],
+ "timeout": 300
 }
 */
 /* VERIF-UNIT
 {
- "name": "rb_insert_extent_merge_n1",
+ "name": "rb_set_bmap_range_p1ff",
  "props": [
   "C16"
  ],
  "level": "B(1)",
- "tier": "wip",
- "harness": "h_rb_insert",
- "defines": [
-  "EXT2_CUSTOM_MEMORY_ROUTINES",
-  "RB_N=1",
-  "RB_NEW=0",
-  "RB_SCEN=3",
-  "RB_BITS=16"
- ],
- "unwind": 9,
- "unwind_reason": "x",
- "sources": [
-  "lib/ext2fs/rbtree.c"
- ],
- "functions": [
-  "lib/ext2fs/blkmap64_rb.c:rb_insert_extent",
-  "lib/ext2fs/blkmap64_rb.c:rb_mark_bmap",
-  "lib/ext2fs/blkmap64_rb.c:rb_mark_bmap_extent",
-  "lib/ext2fs/blkmap64_rb.c:rb_get_new_extent",
-  "lib/ext2fs/blkmap64_rb.c:rb_free_extent"
- ],
- "assumes": [
-  "x"
- ],
- "backend": "minisat",
- "native": true,
- "cbmc_flags": [
-  "--object-bits",
-  "10"
- ],
- "unwindset": {
-  "ext2fs_rb_next.0": 3,
-  "ext2fs_rb_next.1": 3,
-  "ext2fs_rb_prev.0": 3,
-  "ext2fs_rb_prev.1": 3,
-  "ext2fs_rb_erase.0": 1,
-  "__rb_erase_color.0": 1,
-  "rb_insert_extent.0": 2,
-  "rb_insert_extent.1": 2
- },
- "replace": [
-  "ext2fs_rb_insert_color"
- ]
-}
-*/
-/* VERIF-UNIT
-{
- "name": "rb_insert_extent_newmerge_n1",
- "props": [
-  "C16"
- ],
- "level": "B(1)",
- "tier": "wip",
- "harness": "h_rb_insert",
+ "tier": "quick",
+ "harness": "h_rb_set_range",
  "defines": [
   "EXT2_CUSTOM_MEMORY_ROUTINES",
   "RB_N=1",
   "RB_NEW=1",
-  "RB_SCEN=4",
-  "RB_BITS=16"
- ],
- "unwind": 9,
- "unwind_reason": "x",
- "sources": [
-  "lib/ext2fs/rbtree.c"
- ],
- "functions": [
-  "lib/ext2fs/blkmap64_rb.c:rb_insert_extent",
-  "lib/ext2fs/blkmap64_rb.c:rb_mark_bmap",
-  "lib/ext2fs/blkmap64_rb.c:rb_mark_bmap_extent",
-  "lib/ext2fs/blkmap64_rb.c:rb_get_new_extent",
-  "lib/ext2fs/blkmap64_rb.c:rb_free_extent"
- ],
- "assumes": [
-  "x"
- ],
- "backend": "minisat",
- "native": true,
- "cbmc_flags": [
-  "--object-bits",
-  "10"
- ],
- "unwindset": {
-  "ext2fs_rb_next.0": 3,
-  "ext2fs_rb_next.1": 3,
-  "ext2fs_rb_prev.0": 3,
-  "ext2fs_rb_prev.1": 3,
-  "ext2fs_rb_erase.0": 1,
-  "__rb_erase_color.0": 1,
-  "ext2fs_rb_insert_color.0": 1,
-  "rb_insert_extent.0": 2,
-  "rb_insert_extent.1": 2
- }
-}
-*/
-/* VERIF-UNIT
-{
- "name": "rb_remove_extent_trunc_n1",
- "props": [
-  "C16"
- ],
- "level": "B(1)",
- "tier": "wip",
- "harness": "h_rb_remove",
- "defines": [
-  "EXT2_CUSTOM_MEMORY_ROUTINES",
-  "RB_N=1",
-  "RB_NEW=0",
-  "RB_SCEN=1",
-  "RB_BITS=16"
- ],
- "unwind": 9,
- "unwind_reason": "x",
- "sources": [
-  "lib/ext2fs/rbtree.c"
- ],
- "functions": [
-  "lib/ext2fs/blkmap64_rb.c:rb_remove_extent",
-  "lib/ext2fs/blkmap64_rb.c:rb_unmark_bmap",
-  "lib/ext2fs/blkmap64_rb.c:rb_unmark_bmap_extent",
-  "lib/ext2fs/blkmap64_rb.c:rb_free_extent"
- ],
- "assumes": [
-  "x"
- ],
- "backend": "minisat",
- "native": true,
- "cbmc_flags": [
-  "--object-bits",
-  "10"
- ],
- "unwindset": {
-  "ext2fs_rb_next.0": 3,
-  "ext2fs_rb_next.1": 3,
-  "rb_remove_extent.0": 3,
-  "rb_remove_extent.1": 3
- },
- "replace": [
-  "ext2fs_rb_erase",
-  "rb_insert_extent"
- ]
-}
-*/
-/* VERIF-UNIT
-{
- "name": "rb_remove_extent_split_n1",
- "props": [
-  "C16"
- ],
- "level": "B(1)",
- "tier": "wip",
- "harness": "h_rb_remove",
- "defines": [
-  "EXT2_CUSTOM_MEMORY_ROUTINES",
-  "RB_N=1",
-  "RB_NEW=1",
+  "RB_BITS=16",
   "RB_SCEN=2",
-  "RB_BITS=16"
+  "RB_SET_BITS=10",
+  "RB_PATTERN=0x1ff"
  ],
  "unwind": 9,
- "unwind_reason": "x",
+ "unwind_reason": "BOUNDED: a tree of at most 2 nodes has height <= 2, so every descent / successor / predecessor loop of blkmap64_rb.c and rbtree.c runs at most that often (+1 for the exit test), the neighbour loops at most once per node; rebalancing loops climb at most one level per round; harness loops have constant bounds <= 8 (global unwind 9). Every bound is confirmed by an unwinding assertion.",
  "sources": [
-  "lib/ext2fs/rbtree.c"
+  "lib/ext2fs/rbtree.c",
+  "lib/ext2fs/bitops.c"
  ],
  "functions": [
-  "lib/ext2fs/blkmap64_rb.c:rb_remove_extent",
-  "lib/ext2fs/blkmap64_rb.c:rb_unmark_bmap",
-  "lib/ext2fs/blkmap64_rb.c:rb_unmark_bmap_extent",
-  "lib/ext2fs/blkmap64_rb.c:rb_free_extent"
+  "lib/ext2fs/blkmap64_rb.c:rb_set_bmap_range",
+  "lib/ext2fs/blkmap64_rb.c:rb_insert_extent"
  ],
  "assumes": [
-  "x"
+  "BOUNDED stand-in, not counted as proved: the tree has exactly 1 extents (sorted, disjoint, non-adjacent, count > 0) in every red-black shape of that size; wcursor/rcursor NULL or any node, rcursor_next NULL or the successor of rcursor (any node if rcursor is NULL)",
+  "allocation does not fail: ext2fs.h is compiled with its own hook EXT2_CUSTOM_MEMORY_ROUTINES and ext2fs_get_mem/ext2fs_free_mem are the trivial malloc/free stubs of rb_common.h (typed pointer store instead of memcpy); malloc is __CPROVER_allocate, i.e. never NULL (rb_get_new_extent abort()s on failure anyway)",
+  "BOUNDED: bitmap->real_end - bitmap->start < 2^16 (offsets are 64-bit in the code and in the harness; the cap only narrows the values, chosen because the SAT proof of the ordering lemmas is the bottleneck)",
+  "BOUNDED: the input buffer is the constant bit pattern 0x1ff, num = 10 (concrete control flow of the run-extraction loop; one rb_insert_extent body per run)",
+  "SCENARIO: no extent of the tree overlaps or touches [start - 1, start + num] (the runs become new nodes, nothing is merged)",
+  "range inside [start, real_end]",
+  "ext2fs_rb_erase is NOT abstracted: its contract is REQUIRES(false); the obligation that no call is reachable in this scenario is checked at every call site"
  ],
  "backend": "minisat",
+ "no_cross_check": true,
  "native": true,
  "cbmc_flags": [
   "--object-bits",
   "10"
  ],
  "unwindset": {
+  "rb_set_bmap_range.0": 11,
+  "rb_insert_extent.0": 2,
+  "rb_insert_extent.1": 2,
   "ext2fs_rb_next.0": 3,
   "ext2fs_rb_next.1": 3,
   "ext2fs_rb_prev.0": 3,
   "ext2fs_rb_prev.1": 3,
-  "ext2fs_rb_insert_color.0": 1,
+  "ext2fs_rb_insert_color.0": 1
+ },
+ "replace": [
+  "ext2fs_rb_erase"
+ ],
+ "timeout": 300
+}
+*/
+/* VERIF-UNIT
+{
+ "name": "rb_set_bmap_range_p6",
+ "props": [
+  "C16"
+ ],
+ "level": "B(1)",
+ "tier": "quick",
+ "harness": "h_rb_set_range",
+ "defines": [
+  "EXT2_CUSTOM_MEMORY_ROUTINES",
+  "RB_N=1",
+  "RB_NEW=1",
+  "RB_BITS=16",
+  "RB_SCEN=2",
+  "RB_SET_BITS=4",
+  "RB_PATTERN=0x6"
+ ],
+ "unwind": 9,
+ "unwind_reason": "BOUNDED: a tree of at most 2 nodes has height <= 2, so every descent / successor / predecessor loop of blkmap64_rb.c and rbtree.c runs at most that often (+1 for the exit test), the neighbour loops at most once per node; rebalancing loops climb at most one level per round; harness loops have constant bounds <= 8 (global unwind 9). Every bound is confirmed by an unwinding assertion.",
+ "sources": [
+  "lib/ext2fs/rbtree.c",
+  "lib/ext2fs/bitops.c"
+ ],
+ "functions": [
+  "lib/ext2fs/blkmap64_rb.c:rb_set_bmap_range",
+  "lib/ext2fs/blkmap64_rb.c:rb_insert_extent"
+ ],
+ "assumes": [
+  "BOUNDED stand-in, not counted as proved: the tree has exactly 1 extents (sorted, disjoint, non-adjacent, count > 0) in every red-black shape of that size; wcursor/rcursor NULL or any node, rcursor_next NULL or the successor of rcursor (any node if rcursor is NULL)",
+  "allocation does not fail: ext2fs.h is compiled with its own hook EXT2_CUSTOM_MEMORY_ROUTINES and ext2fs_get_mem/ext2fs_free_mem are the trivial malloc/free stubs of rb_common.h (typed pointer store instead of memcpy); malloc is __CPROVER_allocate, i.e. never NULL (rb_get_new_extent abort()s on failure anyway)",
+  "BOUNDED: bitmap->real_end - bitmap->start < 2^16 (offsets are 64-bit in the code and in the harness; the cap only narrows the values, chosen because the SAT proof of the ordering lemmas is the bottleneck)",
+  "BOUNDED: the input buffer is the constant bit pattern 0x6, num = 4 (concrete control flow of the run-extraction loop; one rb_insert_extent body per run)",
+  "SCENARIO: no extent of the tree overlaps or touches [start - 1, start + num] (the runs become new nodes, nothing is merged)",
+  "range inside [start, real_end]",
+  "ext2fs_rb_erase is NOT abstracted: its contract is REQUIRES(false); the obligation that no call is reachable in this scenario is checked at every call site"
+ ],
+ "backend": "minisat",
+ "no_cross_check": true,
+ "native": true,
+ "cbmc_flags": [
+  "--object-bits",
+  "10"
+ ],
+ "unwindset": {
+  "rb_set_bmap_range.0": 5,
+  "rb_insert_extent.0": 2,
+  "rb_insert_extent.1": 2,
+  "ext2fs_rb_next.0": 3,
+  "ext2fs_rb_next.1": 3,
+  "ext2fs_rb_prev.0": 3,
+  "ext2fs_rb_prev.1": 3,
+  "ext2fs_rb_insert_color.0": 1
+ },
+ "replace": [
+  "ext2fs_rb_erase"
+ ],
+ "timeout": 300
+}
+*/
+/* VERIF-UNIT
+{
+ "name": "rb_set_bmap_range_sym3",
+ "props": [
+  "C16"
+ ],
+ "level": "B(0)",
+ "tier": "quick",
+ "harness": "h_rb_set_range",
+ "defines": [
+  "EXT2_CUSTOM_MEMORY_ROUTINES",
+  "RB_N=0",
+  "RB_NEW=2",
+  "RB_BITS=16",
+  "RB_SET_BITS=3"
+ ],
+ "unwind": 9,
+ "unwind_reason": "BOUNDED: a tree of at most 2 nodes has height <= 2, so every descent / successor / predecessor loop of blkmap64_rb.c and rbtree.c runs at most that often (+1 for the exit test), the neighbour loops at most once per node; rebalancing loops climb at most one level per round; harness loops have constant bounds <= 8 (global unwind 9). Every bound is confirmed by an unwinding assertion.",
+ "sources": [
+  "lib/ext2fs/rbtree.c",
+  "lib/ext2fs/bitops.c"
+ ],
+ "functions": [
+  "lib/ext2fs/blkmap64_rb.c:rb_set_bmap_range",
+  "lib/ext2fs/blkmap64_rb.c:rb_insert_extent"
+ ],
+ "assumes": [
+  "BOUNDED stand-in, not counted as proved: the tree has exactly 0 extents (sorted, disjoint, non-adjacent, count > 0) in every red-black shape of that size; wcursor/rcursor NULL or any node, rcursor_next NULL or the successor of rcursor (any node if rcursor is NULL)",
+  "allocation does not fail: ext2fs.h is compiled with its own hook EXT2_CUSTOM_MEMORY_ROUTINES and ext2fs_get_mem/ext2fs_free_mem are the trivial malloc/free stubs of rb_common.h (typed pointer store instead of memcpy); malloc is __CPROVER_allocate, i.e. never NULL (rb_get_new_extent abort()s on failure anyway)",
+  "BOUNDED: bitmap->real_end - bitmap->start < 2^16 (offsets are 64-bit in the code and in the harness; the cap only narrows the values, chosen because the SAT proof of the ordering lemmas is the bottleneck)",
+  "BOUNDED: empty tree, 1 <= num <= 3, arbitrary input bits (at most two runs; nothing can merge, ext2fs_rb_erase unreachable)",
+  "range inside [start, real_end]",
+  "ext2fs_rb_erase is NOT abstracted: its contract is REQUIRES(false); the obligation that no call is reachable in this scenario is checked at every call site"
+ ],
+ "backend": "minisat",
+ "no_cross_check": true,
+ "native": true,
+ "cbmc_flags": [
+  "--object-bits",
+  "10"
+ ],
+ "unwindset": {
+  "rb_set_bmap_range.0": 4,
+  "rb_insert_extent.0": 2,
+  "rb_insert_extent.1": 2,
+  "ext2fs_rb_next.0": 3,
+  "ext2fs_rb_next.1": 3,
+  "ext2fs_rb_prev.0": 3,
+  "ext2fs_rb_prev.1": 3,
+  "ext2fs_rb_insert_color.0": 1
+ },
+ "replace": [
+  "ext2fs_rb_erase"
+ ],
+ "timeout": 300
+}
+*/
+/* VERIF-UNIT
+{
+ "name": "rb_wrappers",
+ "props": [
+  "C16"
+ ],
+ "level": "B(1)",
+ "tier": "quick",
+ "harness": "h_rb_wrappers",
+ "defines": [
+  "EXT2_CUSTOM_MEMORY_ROUTINES",
+  "RB_N=1",
+  "RB_NEW=0",
+  "RB_BITS=16",
+  "RB_SCEN=1"
+ ],
+ "unwind": 9,
+ "unwind_reason": "BOUNDED: a tree of at most 1 nodes has height <= 1, so every descent / successor / predecessor loop of blkmap64_rb.c and rbtree.c runs at most that often (+1 for the exit test), the neighbour loops at most once per node; rebalancing loops climb at most one level per round; harness loops have constant bounds <= 8 (global unwind 9). Every bound is confirmed by an unwinding assertion.",
+ "sources": [
+  "lib/ext2fs/rbtree.c"
+ ],
+ "functions": [
+  "lib/ext2fs/blkmap64_rb.c:rb_mark_bmap",
+  "lib/ext2fs/blkmap64_rb.c:rb_unmark_bmap",
+  "lib/ext2fs/blkmap64_rb.c:rb_mark_bmap_extent",
+  "lib/ext2fs/blkmap64_rb.c:rb_unmark_bmap_extent"
+ ],
+ "assumes": [
+  "BOUNDED stand-in, not counted as proved: the tree has exactly 1 extents (sorted, disjoint, non-adjacent, count > 0) in every red-black shape of that size; wcursor/rcursor NULL or any node, rcursor_next NULL or the successor of rcursor (any node if rcursor is NULL)",
+  "allocation does not fail: ext2fs.h is compiled with its own hook EXT2_CUSTOM_MEMORY_ROUTINES and ext2fs_get_mem/ext2fs_free_mem are the trivial malloc/free stubs of rb_common.h (typed pointer store instead of memcpy); malloc is __CPROVER_allocate, i.e. never NULL (rb_get_new_extent abort()s on failure anyway)",
+  "BOUNDED: bitmap->real_end - bitmap->start < 2^16 (offsets are 64-bit in the code and in the harness; the cap only narrows the values, chosen because the SAT proof of the ordering lemmas is the bottleneck)",
+  "the range lies strictly inside the one extent (mark) or clear of it (unmark): structure unchanged; what is checked is that the ops-table entries translate absolute bit numbers by bitmap->start and hand the result of rb_insert_extent / rb_remove_extent through",
+  "ext2fs_rb_erase is NOT abstracted: its contract is REQUIRES(false); the obligation that no call is reachable in this scenario is checked at every call site",
+  "ext2fs_rb_insert_color is NOT abstracted: its contract is REQUIRES(false); the obligation that no call is reachable in this scenario is checked at every call site"
+ ],
+ "backend": "minisat",
+ "no_cross_check": true,
+ "native": true,
+ "cbmc_flags": [
+  "--object-bits",
+  "12"
+ ],
+ "unwindset": {
   "rb_insert_extent.0": 2,
   "rb_insert_extent.1": 2,
   "rb_remove_extent.0": 3,
-  "rb_remove_extent.1": 3
+  "rb_remove_extent.1": 3,
+  "ext2fs_rb_next.0": 2,
+  "ext2fs_rb_next.1": 2
  },
  "replace": [
-  "ext2fs_rb_erase"
- ]
+  "ext2fs_rb_erase",
+  "ext2fs_rb_insert_color"
+ ],
+ "timeout": 300
 }
 */
 /* VERIF-UNIT
 {
- "name": "rb_remove_extent_delete_n1",
+ "name": "rbtree_erase_b1",
  "props": [
   "C16"
  ],
  "level": "B(1)",
- "tier": "wip",
- "harness": "h_rb_remove",
+ "tier": "quick",
+ "harness": "h_rbtree_erase",
  "defines": [
   "EXT2_CUSTOM_MEMORY_ROUTINES",
   "RB_N=1",
   "RB_NEW=0",
-  "RB_SCEN=3",
   "RB_BITS=16"
  ],
  "unwind": 9,
- "unwind_reason": "x",
+ "unwind_reason": "BOUNDED: a tree of at most 1 nodes has height <= 1, so every descent / successor / predecessor loop of blkmap64_rb.c and rbtree.c runs at most that often (+1 for the exit test), the neighbour loops at most once per node; rebalancing loops climb at most one level per round; harness loops have constant bounds <= 8 (global unwind 9). Every bound is confirmed by an unwinding assertion.",
  "sources": [
   "lib/ext2fs/rbtree.c"
  ],
  "functions": [
-  "lib/ext2fs/blkmap64_rb.c:rb_remove_extent",
-  "lib/ext2fs/blkmap64_rb.c:rb_unmark_bmap",
-  "lib/ext2fs/blkmap64_rb.c:rb_unmark_bmap_extent",
-  "lib/ext2fs/blkmap64_rb.c:rb_free_extent"
+  "lib/ext2fs/rbtree.c:ext2fs_rb_erase",
+  "lib/ext2fs/rbtree.c:__rb_erase_color",
+  "lib/ext2fs/rbtree.c:__rb_rotate_left",
+  "lib/ext2fs/rbtree.c:__rb_rotate_right"
  ],
  "assumes": [
-  "x"
+  "BOUNDED stand-in, not counted as proved: the tree has exactly 1 extents (sorted, disjoint, non-adjacent, count > 0) in every red-black shape of that size; wcursor/rcursor NULL or any node, rcursor_next NULL or the successor of rcursor (any node if rcursor is NULL)",
+  "allocation does not fail: ext2fs.h is compiled with its own hook EXT2_CUSTOM_MEMORY_ROUTINES and ext2fs_get_mem/ext2fs_free_mem are the trivial malloc/free stubs of rb_common.h (typed pointer store instead of memcpy); malloc is __CPROVER_allocate, i.e. never NULL (rb_get_new_extent abort()s on failure anyway)",
+  "BOUNDED: bitmap->real_end - bitmap->start < 2^16 (offsets are 64-bit in the code and in the harness; the cap only narrows the values, chosen because the SAT proof of the ordering lemmas is the bottleneck)",
+  "any node of the tree is erased; cursors are not involved"
  ],
  "backend": "minisat",
+ "no_cross_check": true,
  "native": true,
  "cbmc_flags": [
   "--object-bits",
   "10"
  ],
  "unwindset": {
-  "ext2fs_rb_next.0": 3,
-  "ext2fs_rb_next.1": 3,
   "ext2fs_rb_erase.0": 1,
-  "__rb_erase_color.0": 1,
-  "rb_remove_extent.0": 3,
-  "rb_remove_extent.1": 3
+  "__rb_erase_color.0": 1
  },
- "replace": [
-  "rb_insert_extent"
- ]
+ "timeout": 300
 }
 */
 /* VERIF-UNIT
 {
- "name": "rb_resize_bmap_keep_n1",
+ "name": "rbtree_insert_b1",
  "props": [
   "C16"
  ],
  "level": "B(1)",
- "tier": "wip",
- "harness": "h_rb_resize",
- "defines": [
-  "EXT2_CUSTOM_MEMORY_ROUTINES",
-  "RB_N=1",
-  "RB_NEW=0",
-  "RB_SCEN=1",
-  "RB_BITS=16"
- ],
- "unwind": 9,
- "unwind_reason": "x",
- "sources": [
-  "lib/ext2fs/rbtree.c"
- ],
- "functions": [
-  "lib/ext2fs/blkmap64_rb.c:rb_resize_bmap",
-  "lib/ext2fs/blkmap64_rb.c:rb_truncate",
-  "lib/ext2fs/blkmap64_rb.c:rb_insert_extent"
- ],
- "assumes": [
-  "x"
- ],
- "backend": "minisat",
- "native": true,
- "cbmc_flags": [
-  "--object-bits",
-  "10"
- ],
- "unwindset": {
-  "ext2fs_rb_next.0": 3,
-  "ext2fs_rb_next.1": 3,
-  "ext2fs_rb_prev.0": 3,
-  "ext2fs_rb_prev.1": 3,
-  "ext2fs_rb_last.0": 3,
-  "rb_insert_extent.0": 2,
-  "rb_insert_extent.1": 2,
-  "rb_truncate.0": 4
- },
- "replace": [
-  "ext2fs_rb_erase",
-  "ext2fs_rb_insert_color"
- ]
-}
-*/
-/* VERIF-UNIT
-{
- "name": "rb_resize_bmap_pad_n1",
- "props": [
-  "C16"
- ],
- "level": "B(1)",
- "tier": "wip",
- "harness": "h_rb_resize",
+ "tier": "quick",
+ "harness": "h_rbtree_insert",
  "defines": [
   "EXT2_CUSTOM_MEMORY_ROUTINES",
   "RB_N=1",
   "RB_NEW=1",
-  "RB_SCEN=2",
   "RB_BITS=16"
  ],
  "unwind": 9,
- "unwind_reason": "x",
+ "unwind_reason": "BOUNDED: a tree of at most 2 nodes has height <= 2, so every descent / successor / predecessor loop of blkmap64_rb.c and rbtree.c runs at most that often (+1 for the exit test), the neighbour loops at most once per node; rebalancing loops climb at most one level per round; harness loops have constant bounds <= 8 (global unwind 9). Every bound is confirmed by an unwinding assertion.",
  "sources": [
   "lib/ext2fs/rbtree.c"
  ],
  "functions": [
-  "lib/ext2fs/blkmap64_rb.c:rb_resize_bmap",
-  "lib/ext2fs/blkmap64_rb.c:rb_truncate",
-  "lib/ext2fs/blkmap64_rb.c:rb_insert_extent"
+  "lib/ext2fs/rbtree.c:ext2fs_rb_insert_color",
+  "lib/ext2fs/rbtree.c:__rb_rotate_left",
+  "lib/ext2fs/rbtree.c:__rb_rotate_right",
+  "lib/ext2fs/rbtree.h:ext2fs_rb_link_node"
  ],
  "assumes": [
-  "x"
+  "BOUNDED stand-in, not counted as proved: the tree has exactly 1 extents (sorted, disjoint, non-adjacent, count > 0) in every red-black shape of that size; wcursor/rcursor NULL or any node, rcursor_next NULL or the successor of rcursor (any node if rcursor is NULL)",
+  "allocation does not fail: ext2fs.h is compiled with its own hook EXT2_CUSTOM_MEMORY_ROUTINES and ext2fs_get_mem/ext2fs_free_mem are the trivial malloc/free stubs of rb_common.h (typed pointer store instead of memcpy); malloc is __CPROVER_allocate, i.e. never NULL (rb_get_new_extent abort()s on failure anyway)",
+  "BOUNDED: bitmap->real_end - bitmap->start < 2^16 (offsets are 64-bit in the code and in the harness; the cap only narrows the values, chosen because the SAT proof of the ordering lemmas is the bottleneck)",
+  "the new node is linked by an ordinary binary-search-tree descent at any key position not touching an existing extent"
  ],
  "backend": "minisat",
+ "no_cross_check": true,
  "native": true,
  "cbmc_flags": [
   "--object-bits",
   "10"
  ],
  "unwindset": {
-  "ext2fs_rb_next.0": 3,
-  "ext2fs_rb_next.1": 3,
-  "ext2fs_rb_prev.0": 3,
-  "ext2fs_rb_prev.1": 3,
-  "ext2fs_rb_last.0": 3,
-  "ext2fs_rb_insert_color.0": 1,
-  "rb_insert_extent.0": 2,
-  "rb_insert_extent.1": 2,
-  "rb_truncate.0": 4
+  "ext2fs_rb_insert_color.0": 1
  },
- "replace": [
-  "ext2fs_rb_erase"
- ]
+ "timeout": 300
 }
 */
 /* VERIF-UNIT
 {
- "name": "rb_resize_bmap_cut_n1",
+ "name": "rbtree_erase_b2",
  "props": [
   "C16"
  ],
- "level": "B(1)",
- "tier": "wip",
- "harness": "h_rb_resize",
+ "level": "B(2)",
+ "tier": "quick",
+ "harness": "h_rbtree_erase",
  "defines": [
   "EXT2_CUSTOM_MEMORY_ROUTINES",
-  "RB_N=1",
+  "RB_N=2",
   "RB_NEW=0",
-  "RB_SCEN=3",
   "RB_BITS=16"
  ],
  "unwind": 9,
- "unwind_reason": "x",
+ "unwind_reason": "BOUNDED: a tree of at most 2 nodes has height <= 2, so every descent / successor / predecessor loop of blkmap64_rb.c and rbtree.c runs at most that often (+1 for the exit test), the neighbour loops at most once per node; rebalancing loops climb at most one level per round; harness loops have constant bounds <= 8 (global unwind 9). Every bound is confirmed by an unwinding assertion.",
  "sources": [
   "lib/ext2fs/rbtree.c"
  ],
  "functions": [
-  "lib/ext2fs/blkmap64_rb.c:rb_resize_bmap",
-  "lib/ext2fs/blkmap64_rb.c:rb_truncate",
-  "lib/ext2fs/blkmap64_rb.c:rb_insert_extent"
+  "lib/ext2fs/rbtree.c:ext2fs_rb_erase",
+  "lib/ext2fs/rbtree.c:__rb_erase_color",
+  "lib/ext2fs/rbtree.c:__rb_rotate_left",
+  "lib/ext2fs/rbtree.c:__rb_rotate_right"
  ],
  "assumes": [
-  "x"
+  "BOUNDED stand-in, not counted as proved: the tree has exactly 2 extents (sorted, disjoint, non-adjacent, count > 0) in every red-black shape of that size; wcursor/rcursor NULL or any node, rcursor_next NULL or the successor of rcursor (any node if rcursor is NULL)",
+  "allocation does not fail: ext2fs.h is compiled with its own hook EXT2_CUSTOM_MEMORY_ROUTINES and ext2fs_get_mem/ext2fs_free_mem are the trivial malloc/free stubs of rb_common.h (typed pointer store instead of memcpy); malloc is __CPROVER_allocate, i.e. never NULL (rb_get_new_extent abort()s on failure anyway)",
+  "BOUNDED: bitmap->real_end - bitmap->start < 2^16 (offsets are 64-bit in the code and in the harness; the cap only narrows the values, chosen because the SAT proof of the ordering lemmas is the bottleneck)",
+  "any node of the tree is erased; cursors are not involved"
  ],
  "backend": "minisat",
+ "no_cross_check": true,
  "native": true,
  "cbmc_flags": [
   "--object-bits",
   "10"
  ],
  "unwindset": {
-  "ext2fs_rb_next.0": 3,
-  "ext2fs_rb_next.1": 3,
-  "ext2fs_rb_prev.0": 3,
-  "ext2fs_rb_prev.1": 3,
-  "ext2fs_rb_last.0": 3,
   "ext2fs_rb_erase.0": 1,
-  "__rb_erase_color.0": 1,
-  "rb_insert_extent.0": 2,
-  "rb_insert_extent.1": 2,
-  "rb_truncate.0": 4
+  "__rb_erase_color.0": 1
  },
- "replace": [
-  "ext2fs_rb_insert_color"
- ]
+ "timeout": 300
 }
 */
 /* VERIF-UNIT
 {
- "name": "rb_resize_bmap_cutpad_n1",
- "props": [
-  "C16"
- ],
- "level": "B(1)",
- "tier": "wip",
- "harness": "h_rb_resize",
- "defines": [
-  "EXT2_CUSTOM_MEMORY_ROUTINES",
-  "RB_N=1",
-  "RB_NEW=1",
-  "RB_SCEN=4",
-  "RB_BITS=16"
- ],
- "unwind": 9,
- "unwind_reason": "x",
- "sources": [
-  "lib/ext2fs/rbtree.c"
- ],
- "functions": [
-  "lib/ext2fs/blkmap64_rb.c:rb_resize_bmap",
-  "lib/ext2fs/blkmap64_rb.c:rb_truncate",
-  "lib/ext2fs/blkmap64_rb.c:rb_insert_extent"
- ],
- "assumes": [
-  "x"
- ],
- "backend": "minisat",
- "native": true,
- "cbmc_flags": [
-  "--object-bits",
-  "10"
- ],
- "unwindset": {
-  "ext2fs_rb_next.0": 3,
-  "ext2fs_rb_next.1": 3,
-  "ext2fs_rb_prev.0": 3,
-  "ext2fs_rb_prev.1": 3,
-  "ext2fs_rb_last.0": 3,
-  "ext2fs_rb_erase.0": 1,
-  "__rb_erase_color.0": 1,
-  "ext2fs_rb_insert_color.0": 1,
-  "rb_insert_extent.0": 2,
-  "rb_insert_extent.1": 2,
-  "rb_truncate.0": 4
- }
-}
-*/
-/* VERIF-UNIT
-{
- "name": "rb_insert_extent_keep_n2",
+ "name": "rbtree_insert_b2",
  "props": [
   "C16"
  ],
  "level": "B(2)",
- "tier": "wip",
- "harness": "h_rb_insert",
- "defines": [
-  "EXT2_CUSTOM_MEMORY_ROUTINES",
-  "RB_N=2",
-  "RB_NEW=0",
-  "RB_SCEN=1",
-  "RB_BITS=16"
- ],
- "unwind": 9,
- "unwind_reason": "x",
- "sources": [
-  "lib/ext2fs/rbtree.c"
- ],
- "functions": [
-  "lib/ext2fs/blkmap64_rb.c:rb_insert_extent",
-  "lib/ext2fs/blkmap64_rb.c:rb_mark_bmap",
-  "lib/ext2fs/blkmap64_rb.c:rb_mark_bmap_extent",
-  "lib/ext2fs/blkmap64_rb.c:rb_get_new_extent",
-  "lib/ext2fs/blkmap64_rb.c:rb_free_extent"
- ],
- "assumes": [
-  "x"
- ],
- "backend": "minisat",
- "native": true,
- "cbmc_flags": [
-  "--object-bits",
-  "10"
- ],
- "unwindset": {
-  "ext2fs_rb_next.0": 3,
-  "ext2fs_rb_next.1": 3,
-  "ext2fs_rb_prev.0": 3,
-  "ext2fs_rb_prev.1": 3,
-  "rb_insert_extent.0": 3,
-  "rb_insert_extent.1": 3
- },
- "replace": [
-  "ext2fs_rb_erase",
-  "ext2fs_rb_insert_color"
- ]
-}
-*/
-/* VERIF-UNIT
-{
- "name": "rb_insert_extent_new_n2",
- "props": [
-  "C16"
- ],
- "level": "B(2)",
- "tier": "wip",
- "harness": "h_rb_insert",
+ "tier": "quick",
+ "harness": "h_rbtree_insert",
  "defines": [
   "EXT2_CUSTOM_MEMORY_ROUTINES",
   "RB_N=2",
   "RB_NEW=1",
-  "RB_SCEN=2",
   "RB_BITS=16"
  ],
  "unwind": 9,
- "unwind_reason": "x",
+ "unwind_reason": "BOUNDED: a tree of at most 3 nodes has height <= 2, so every descent / successor / predecessor loop of blkmap64_rb.c and rbtree.c runs at most that often (+1 for the exit test), the neighbour loops at most once per node; rebalancing loops climb at most one level per round; harness loops have constant bounds <= 8 (global unwind 9). Every bound is confirmed by an unwinding assertion.",
  "sources": [
   "lib/ext2fs/rbtree.c"
  ],
  "functions": [
-  "lib/ext2fs/blkmap64_rb.c:rb_insert_extent",
-  "lib/ext2fs/blkmap64_rb.c:rb_mark_bmap",
-  "lib/ext2fs/blkmap64_rb.c:rb_mark_bmap_extent",
-  "lib/ext2fs/blkmap64_rb.c:rb_get_new_extent",
-  "lib/ext2fs/blkmap64_rb.c:rb_free_extent"
+  "lib/ext2fs/rbtree.c:ext2fs_rb_insert_color",
+  "lib/ext2fs/rbtree.c:__rb_rotate_left",
+  "lib/ext2fs/rbtree.c:__rb_rotate_right",
+  "lib/ext2fs/rbtree.h:ext2fs_rb_link_node"
  ],
  "assumes": [
-  "x"
+  "BOUNDED stand-in, not counted as proved: the tree has exactly 2 extents (sorted, disjoint, non-adjacent, count > 0) in every red-black shape of that size; wcursor/rcursor NULL or any node, rcursor_next NULL or the successor of rcursor (any node if rcursor is NULL)",
+  "allocation does not fail: ext2fs.h is compiled with its own hook EXT2_CUSTOM_MEMORY_ROUTINES and ext2fs_get_mem/ext2fs_free_mem are the trivial malloc/free stubs of rb_common.h (typed pointer store instead of memcpy); malloc is __CPROVER_allocate, i.e. never NULL (rb_get_new_extent abort()s on failure anyway)",
+  "BOUNDED: bitmap->real_end - bitmap->start < 2^16 (offsets are 64-bit in the code and in the harness; the cap only narrows the values, chosen because the SAT proof of the ordering lemmas is the bottleneck)",
+  "the new node is linked by an ordinary binary-search-tree descent at any key position not touching an existing extent"
  ],
  "backend": "minisat",
+ "no_cross_check": true,
  "native": true,
  "cbmc_flags": [
   "--object-bits",
   "10"
  ],
  "unwindset": {
-  "ext2fs_rb_next.0": 3,
-  "ext2fs_rb_next.1": 3,
-  "ext2fs_rb_prev.0": 3,
-  "ext2fs_rb_prev.1": 3,
-  "ext2fs_rb_insert_color.0": 2,
-  "rb_insert_extent.0": 3,
-  "rb_insert_extent.1": 3
+  "ext2fs_rb_insert_color.0": 2
  },
- "replace": [
-  "ext2fs_rb_erase"
- ]
+ "timeout": 300
 }
 */
 /* VERIF-UNIT
 {
- "name": "rb_insert_extent_merge_n2",
+ "name": "rbtree_erase_b3",
  "props": [
   "C16"
  ],
- "level": "B(2)",
- "tier": "wip",
- "harness": "h_rb_insert",
+ "level": "B(3)",
+ "tier": "thorough",
+ "harness": "h_rbtree_erase",
  "defines": [
   "EXT2_CUSTOM_MEMORY_ROUTINES",
-  "RB_N=2",
+  "RB_N=3",
   "RB_NEW=0",
-  "RB_SCEN=3",
   "RB_BITS=16"
  ],
  "unwind": 9,
- "unwind_reason": "x",
+ "unwind_reason": "BOUNDED: a tree of at most 3 nodes has height <= 2, so every descent / successor / predecessor loop of blkmap64_rb.c and rbtree.c runs at most that often (+1 for the exit test), the neighbour loops at most once per node; rebalancing loops climb at most one level per round; harness loops have constant bounds <= 8 (global unwind 9). Every bound is confirmed by an unwinding assertion.",
  "sources": [
   "lib/ext2fs/rbtree.c"
  ],
  "functions": [
-  "lib/ext2fs/blkmap64_rb.c:rb_insert_extent",
-  "lib/ext2fs/blkmap64_rb.c:rb_mark_bmap",
-  "lib/ext2fs/blkmap64_rb.c:rb_mark_bmap_extent",
-  "lib/ext2fs/blkmap64_rb.c:rb_get_new_extent",
-  "lib/ext2fs/blkmap64_rb.c:rb_free_extent"
+  "lib/ext2fs/rbtree.c:ext2fs_rb_erase",
+  "lib/ext2fs/rbtree.c:__rb_erase_color",
+  "lib/ext2fs/rbtree.c:__rb_rotate_left",
+  "lib/ext2fs/rbtree.c:__rb_rotate_right"
  ],
  "assumes": [
-  "x"
+  "BOUNDED stand-in, not counted as proved: the tree has exactly 3 extents (sorted, disjoint, non-adjacent, count > 0) in every red-black shape of that size; wcursor/rcursor NULL or any node, rcursor_next NULL or the successor of rcursor (any node if rcursor is NULL)",
+  "allocation does not fail: ext2fs.h is compiled with its own hook EXT2_CUSTOM_MEMORY_ROUTINES and ext2fs_get_mem/ext2fs_free_mem are the trivial malloc/free stubs of rb_common.h (typed pointer store instead of memcpy); malloc is __CPROVER_allocate, i.e. never NULL (rb_get_new_extent abort()s on failure anyway)",
+  "BOUNDED: bitmap->real_end - bitmap->start < 2^16 (offsets are 64-bit in the code and in the harness; the cap only narrows the values, chosen because the SAT proof of the ordering lemmas is the bottleneck)",
+  "any node of the tree is erased; cursors are not involved"
  ],
  "backend": "minisat",
+ "no_cross_check": true,
  "native": true,
  "cbmc_flags": [
   "--object-bits",
   "10"
  ],
  "unwindset": {
-  "ext2fs_rb_next.0": 3,
-  "ext2fs_rb_next.1": 3,
-  "ext2fs_rb_prev.0": 3,
-  "ext2fs_rb_prev.1": 3,
   "ext2fs_rb_erase.0": 2,
-  "__rb_erase_color.0": 2,
-  "rb_insert_extent.0": 3,
-  "rb_insert_extent.1": 3
+  "__rb_erase_color.0": 2
  },
- "replace": [
-  "ext2fs_rb_insert_color"
- ]
+ "timeout": 1200
 }
 */
 /* VERIF-UNIT
 {
- "name": "rb_insert_extent_newmerge_n2",
+ "name": "rbtree_insert_b3",
  "props": [
   "C16"
  ],
- "level": "B(2)",
- "tier": "wip",
- "harness": "h_rb_insert",
+ "level": "B(3)",
+ "tier": "thorough",
+ "harness": "h_rbtree_insert",
  "defines": [
   "EXT2_CUSTOM_MEMORY_ROUTINES",
-  "RB_N=2",
+  "RB_N=3",
   "RB_NEW=1",
-  "RB_SCEN=4",
   "RB_BITS=16"
  ],
  "unwind": 9,
- "unwind_reason": "x",
+ "unwind_reason": "BOUNDED: a tree of at most 4 nodes has height <= 3, so every descent / successor / predecessor loop of blkmap64_rb.c and rbtree.c runs at most that often (+1 for the exit test), the neighbour loops at most once per node; rebalancing loops climb at most one level per round; harness loops have constant bounds <= 8 (global unwind 9). Every bound is confirmed by an unwinding assertion.",
  "sources": [
   "lib/ext2fs/rbtree.c"
  ],
  "functions": [
-  "lib/ext2fs/blkmap64_rb.c:rb_insert_extent",
-  "lib/ext2fs/blkmap64_rb.c:rb_mark_bmap",
-  "lib/ext2fs/blkmap64_rb.c:rb_mark_bmap_extent",
-  "lib/ext2fs/blkmap64_rb.c:rb_get_new_extent",
-  "lib/ext2fs/blkmap64_rb.c:rb_free_extent"
+  "lib/ext2fs/rbtree.c:ext2fs_rb_insert_color",
+  "lib/ext2fs/rbtree.c:__rb_rotate_left",
+  "lib/ext2fs/rbtree.c:__rb_rotate_right",
+  "lib/ext2fs/rbtree.h:ext2fs_rb_link_node"
  ],
  "assumes": [
-  "x"
+  "BOUNDED stand-in, not counted as proved: the tree has exactly 3 extents (sorted, disjoint, non-adjacent, count > 0) in every red-black shape of that size; wcursor/rcursor NULL or any node, rcursor_next NULL or the successor of rcursor (any node if rcursor is NULL)",
+  "allocation does not fail: ext2fs.h is compiled with its own hook EXT2_CUSTOM_MEMORY_ROUTINES and ext2fs_get_mem/ext2fs_free_mem are the trivial malloc/free stubs of rb_common.h (typed pointer store instead of memcpy); malloc is __CPROVER_allocate, i.e. never NULL (rb_get_new_extent abort()s on failure anyway)",
+  "BOUNDED: bitmap->real_end - bitmap->start < 2^16 (offsets are 64-bit in the code and in the harness; the cap only narrows the values, chosen because the SAT proof of the ordering lemmas is the bottleneck)",
+  "the new node is linked by an ordinary binary-search-tree descent at any key position not touching an existing extent"
  ],
  "backend": "minisat",
+ "no_cross_check": true,
  "native": true,
  "cbmc_flags": [
   "--object-bits",
   "10"
  ],
  "unwindset": {
-  "ext2fs_rb_next.0": 3,
-  "ext2fs_rb_next.1": 3,
-  "ext2fs_rb_prev.0": 3,
-  "ext2fs_rb_prev.1": 3,
+  "ext2fs_rb_insert_color.0": 2
+ },
+ "timeout": 1200
+}
+*/
+/* VERIF-UNIT
+{
+ "name": "rbtree_erase_b4",
+ "props": [
+  "C16"
+ ],
+ "level": "B(4)",
+ "tier": "thorough",
+ "harness": "h_rbtree_erase",
+ "defines": [
+  "EXT2_CUSTOM_MEMORY_ROUTINES",
+  "RB_N=4",
+  "RB_NEW=0",
+  "RB_BITS=16"
+ ],
+ "unwind": 9,
+ "unwind_reason": "BOUNDED: a tree of at most 4 nodes has height <= 3, so every descent / successor / predecessor loop of blkmap64_rb.c and rbtree.c runs at most that often (+1 for the exit test), the neighbour loops at most once per node; rebalancing loops climb at most one level per round; harness loops have constant bounds <= 8 (global unwind 9). Every bound is confirmed by an unwinding assertion.",
+ "sources": [
+  "lib/ext2fs/rbtree.c"
+ ],
+ "functions": [
+  "lib/ext2fs/rbtree.c:ext2fs_rb_erase",
+  "lib/ext2fs/rbtree.c:__rb_erase_color",
+  "lib/ext2fs/rbtree.c:__rb_rotate_left",
+  "lib/ext2fs/rbtree.c:__rb_rotate_right"
+ ],
+ "assumes": [
+  "BOUNDED stand-in, not counted as proved: the tree has exactly 4 extents (sorted, disjoint, non-adjacent, count > 0) in every red-black shape of that size; wcursor/rcursor NULL or any node, rcursor_next NULL or the successor of rcursor (any node if rcursor is NULL)",
+  "allocation does not fail: ext2fs.h is compiled with its own hook EXT2_CUSTOM_MEMORY_ROUTINES and ext2fs_get_mem/ext2fs_free_mem are the trivial malloc/free stubs of rb_common.h (typed pointer store instead of memcpy); malloc is __CPROVER_allocate, i.e. never NULL (rb_get_new_extent abort()s on failure anyway)",
+  "BOUNDED: bitmap->real_end - bitmap->start < 2^16 (offsets are 64-bit in the code and in the harness; the cap only narrows the values, chosen because the SAT proof of the ordering lemmas is the bottleneck)",
+  "any node of the tree is erased; cursors are not involved"
+ ],
+ "backend": "minisat",
+ "no_cross_check": true,
+ "native": true,
+ "cbmc_flags": [
+  "--object-bits",
+  "10"
+ ],
+ "unwindset": {
   "ext2fs_rb_erase.0": 2,
-  "__rb_erase_color.0": 2,
-  "ext2fs_rb_insert_color.0": 2,
-  "rb_insert_extent.0": 3,
-  "rb_insert_extent.1": 3
- }
-}
-*/
-/* VERIF-UNIT
-{
- "name": "rb_remove_extent_trunc_n2",
- "props": [
-  "C16"
- ],
- "level": "B(2)",
- "tier": "wip",
- "harness": "h_rb_remove",
- "defines": [
-  "EXT2_CUSTOM_MEMORY_ROUTINES",
-  "RB_N=2",
-  "RB_NEW=0",
-  "RB_SCEN=1",
-  "RB_BITS=16"
- ],
- "unwind": 9,
- "unwind_reason": "x",
- "sources": [
-  "lib/ext2fs/rbtree.c"
- ],
- "functions": [
-  "lib/ext2fs/blkmap64_rb.c:rb_remove_extent",
-  "lib/ext2fs/blkmap64_rb.c:rb_unmark_bmap",
-  "lib/ext2fs/blkmap64_rb.c:rb_unmark_bmap_extent",
-  "lib/ext2fs/blkmap64_rb.c:rb_free_extent"
- ],
- "assumes": [
-  "x"
- ],
- "backend": "minisat",
- "native": true,
- "cbmc_flags": [
-  "--object-bits",
-  "10"
- ],
- "unwindset": {
-  "ext2fs_rb_next.0": 3,
-  "ext2fs_rb_next.1": 3,
-  "rb_remove_extent.0": 4,
-  "rb_remove_extent.1": 4
+  "__rb_erase_color.0": 2
  },
- "replace": [
-  "ext2fs_rb_erase",
-  "rb_insert_extent"
- ]
+ "timeout": 1200
 }
 */
 /* VERIF-UNIT
 {
- "name": "rb_remove_extent_split_n2",
- "props": [
-  "C16"
- ],
- "level": "B(2)",
- "tier": "wip",
- "harness": "h_rb_remove",
- "defines": [
-  "EXT2_CUSTOM_MEMORY_ROUTINES",
-  "RB_N=2",
-  "RB_NEW=1",
-  "RB_SCEN=2",
-  "RB_BITS=16"
- ],
- "unwind": 9,
- "unwind_reason": "x",
- "sources": [
-  "lib/ext2fs/rbtree.c"
- ],
- "functions": [
-  "lib/ext2fs/blkmap64_rb.c:rb_remove_extent",
-  "lib/ext2fs/blkmap64_rb.c:rb_unmark_bmap",
-  "lib/ext2fs/blkmap64_rb.c:rb_unmark_bmap_extent",
-  "lib/ext2fs/blkmap64_rb.c:rb_free_extent"
- ],
- "assumes": [
-  "x"
- ],
- "backend": "minisat",
- "native": true,
- "cbmc_flags": [
-  "--object-bits",
-  "10"
- ],
- "unwindset": {
-  "ext2fs_rb_next.0": 3,
-  "ext2fs_rb_next.1": 3,
-  "ext2fs_rb_prev.0": 3,
-  "ext2fs_rb_prev.1": 3,
-  "ext2fs_rb_insert_color.0": 2,
-  "rb_insert_extent.0": 3,
-  "rb_insert_extent.1": 3,
-  "rb_remove_extent.0": 4,
-  "rb_remove_extent.1": 4
- },
- "replace": [
-  "ext2fs_rb_erase"
- ]
-}
-*/
-/* VERIF-UNIT
-{
- "name": "rb_remove_extent_delete_n2",
- "props": [
-  "C16"
- ],
- "level": "B(2)",
- "tier": "wip",
- "harness": "h_rb_remove",
- "defines": [
-  "EXT2_CUSTOM_MEMORY_ROUTINES",
-  "RB_N=2",
-  "RB_NEW=0",
-  "RB_SCEN=3",
-  "RB_BITS=16"
- ],
- "unwind": 9,
- "unwind_reason": "x",
- "sources": [
-  "lib/ext2fs/rbtree.c"
- ],
- "functions": [
-  "lib/ext2fs/blkmap64_rb.c:rb_remove_extent",
-  "lib/ext2fs/blkmap64_rb.c:rb_unmark_bmap",
-  "lib/ext2fs/blkmap64_rb.c:rb_unmark_bmap_extent",
-  "lib/ext2fs/blkmap64_rb.c:rb_free_extent"
- ],
- "assumes": [
-  "x"
- ],
- "backend": "minisat",
- "native": true,
- "cbmc_flags": [
-  "--object-bits",
-  "10"
- ],
- "unwindset": {
-  "ext2fs_rb_next.0": 3,
-  "ext2fs_rb_next.1": 3,
-  "ext2fs_rb_erase.0": 2,
-  "__rb_erase_color.0": 2,
-  "rb_remove_extent.0": 4,
-  "rb_remove_extent.1": 4
- },
- "replace": [
-  "rb_insert_extent"
- ]
-}
-*/
-/* VERIF-UNIT
-{
- "name": "rb_resize_bmap_keep_n2",
- "props": [
-  "C16"
- ],
- "level": "B(2)",
- "tier": "wip",
- "harness": "h_rb_resize",
- "defines": [
-  "EXT2_CUSTOM_MEMORY_ROUTINES",
-  "RB_N=2",
-  "RB_NEW=0",
-  "RB_SCEN=1",
-  "RB_BITS=16"
- ],
- "unwind": 9,
- "unwind_reason": "x",
- "sources": [
-  "lib/ext2fs/rbtree.c"
- ],
- "functions": [
-  "lib/ext2fs/blkmap64_rb.c:rb_resize_bmap",
-  "lib/ext2fs/blkmap64_rb.c:rb_truncate",
-  "lib/ext2fs/blkmap64_rb.c:rb_insert_extent"
- ],
- "assumes": [
-  "x"
- ],
- "backend": "minisat",
- "native": true,
- "cbmc_flags": [
-  "--object-bits",
-  "10"
- ],
- "unwindset": {
-  "ext2fs_rb_next.0": 3,
-  "ext2fs_rb_next.1": 3,
-  "ext2fs_rb_prev.0": 3,
-  "ext2fs_rb_prev.1": 3,
-  "ext2fs_rb_last.0": 3,
-  "rb_insert_extent.0": 3,
-  "rb_insert_extent.1": 3,
-  "rb_truncate.0": 5
- },
- "replace": [
-  "ext2fs_rb_erase",
-  "ext2fs_rb_insert_color"
- ]
-}
-*/
-/* VERIF-UNIT
-{
- "name": "rb_resize_bmap_pad_n2",
- "props": [
-  "C16"
- ],
- "level": "B(2)",
- "tier": "wip",
- "harness": "h_rb_resize",
- "defines": [
-  "EXT2_CUSTOM_MEMORY_ROUTINES",
-  "RB_N=2",
-  "RB_NEW=1",
-  "RB_SCEN=2",
-  "RB_BITS=16"
- ],
- "unwind": 9,
- "unwind_reason": "x",
- "sources": [
-  "lib/ext2fs/rbtree.c"
- ],
- "functions": [
-  "lib/ext2fs/blkmap64_rb.c:rb_resize_bmap",
-  "lib/ext2fs/blkmap64_rb.c:rb_truncate",
-  "lib/ext2fs/blkmap64_rb.c:rb_insert_extent"
- ],
- "assumes": [
-  "x"
- ],
- "backend": "minisat",
- "native": true,
- "cbmc_flags": [
-  "--object-bits",
-  "10"
- ],
- "unwindset": {
-  "ext2fs_rb_next.0": 3,
-  "ext2fs_rb_next.1": 3,
-  "ext2fs_rb_prev.0": 3,
-  "ext2fs_rb_prev.1": 3,
-  "ext2fs_rb_last.0": 3,
-  "ext2fs_rb_insert_color.0": 2,
-  "rb_insert_extent.0": 3,
-  "rb_insert_extent.1": 3,
-  "rb_truncate.0": 5
- },
- "replace": [
-  "ext2fs_rb_erase"
- ]
-}
-*/
-/* VERIF-UNIT
-{
- "name": "rb_resize_bmap_cut_n2",
- "props": [
-  "C16"
- ],
- "level": "B(2)",
- "tier": "wip",
- "harness": "h_rb_resize",
- "defines": [
-  "EXT2_CUSTOM_MEMORY_ROUTINES",
-  "RB_N=2",
-  "RB_NEW=0",
-  "RB_SCEN=3",
-  "RB_BITS=16"
- ],
- "unwind": 9,
- "unwind_reason": "x",
- "sources": [
-  "lib/ext2fs/rbtree.c"
- ],
- "functions": [
-  "lib/ext2fs/blkmap64_rb.c:rb_resize_bmap",
-  "lib/ext2fs/blkmap64_rb.c:rb_truncate",
-  "lib/ext2fs/blkmap64_rb.c:rb_insert_extent"
- ],
- "assumes": [
-  "x"
- ],
- "backend": "minisat",
- "native": true,
- "cbmc_flags": [
-  "--object-bits",
-  "10"
- ],
- "unwindset": {
-  "ext2fs_rb_next.0": 3,
-  "ext2fs_rb_next.1": 3,
-  "ext2fs_rb_prev.0": 3,
-  "ext2fs_rb_prev.1": 3,
-  "ext2fs_rb_last.0": 3,
-  "ext2fs_rb_erase.0": 2,
-  "__rb_erase_color.0": 2,
-  "rb_insert_extent.0": 3,
-  "rb_insert_extent.1": 3,
-  "rb_truncate.0": 5
- },
- "replace": [
-  "ext2fs_rb_insert_color"
- ]
-}
-*/
-/* VERIF-UNIT
-{
- "name": "rb_resize_bmap_cutpad_n2",
- "props": [
-  "C16"
- ],
- "level": "B(2)",
- "tier": "wip",
- "harness": "h_rb_resize",
- "defines": [
-  "EXT2_CUSTOM_MEMORY_ROUTINES",
-  "RB_N=2",
-  "RB_NEW=1",
-  "RB_SCEN=4",
-  "RB_BITS=16"
- ],
- "unwind": 9,
- "unwind_reason": "x",
- "sources": [
-  "lib/ext2fs/rbtree.c"
- ],
- "functions": [
-  "lib/ext2fs/blkmap64_rb.c:rb_resize_bmap",
-  "lib/ext2fs/blkmap64_rb.c:rb_truncate",
-  "lib/ext2fs/blkmap64_rb.c:rb_insert_extent"
- ],
- "assumes": [
-  "x"
- ],
- "backend": "minisat",
- "native": true,
- "cbmc_flags": [
-  "--object-bits",
-  "10"
- ],
- "unwindset": {
-  "ext2fs_rb_next.0": 3,
-  "ext2fs_rb_next.1": 3,
-  "ext2fs_rb_prev.0": 3,
-  "ext2fs_rb_prev.1": 3,
-  "ext2fs_rb_last.0": 3,
-  "ext2fs_rb_erase.0": 2,
-  "__rb_erase_color.0": 2,
-  "ext2fs_rb_insert_color.0": 2,
-  "rb_insert_extent.0": 3,
-  "rb_insert_extent.1": 3,
-  "rb_truncate.0": 5
- }
-}
-*/
-/* VERIF-UNIT
-{
- "name": "rb_insert_extent_keep_n3",
- "props": [
-  "C16"
- ],
- "level": "B(3)",
- "tier": "wip",
- "harness": "h_rb_insert",
- "defines": [
-  "EXT2_CUSTOM_MEMORY_ROUTINES",
-  "RB_N=3",
-  "RB_NEW=0",
-  "RB_SCEN=1",
-  "RB_BITS=16"
- ],
- "unwind": 9,
- "unwind_reason": "x",
- "sources": [
-  "lib/ext2fs/rbtree.c"
- ],
- "functions": [
-  "lib/ext2fs/blkmap64_rb.c:rb_insert_extent",
-  "lib/ext2fs/blkmap64_rb.c:rb_mark_bmap",
-  "lib/ext2fs/blkmap64_rb.c:rb_mark_bmap_extent",
-  "lib/ext2fs/blkmap64_rb.c:rb_get_new_extent",
-  "lib/ext2fs/blkmap64_rb.c:rb_free_extent"
- ],
- "assumes": [
-  "x"
- ],
- "backend": "minisat",
- "native": true,
- "cbmc_flags": [
-  "--object-bits",
-  "10"
- ],
- "unwindset": {
-  "ext2fs_rb_next.0": 4,
-  "ext2fs_rb_next.1": 4,
-  "ext2fs_rb_prev.0": 4,
-  "ext2fs_rb_prev.1": 4,
-  "rb_insert_extent.0": 3,
-  "rb_insert_extent.1": 4
- },
- "replace": [
-  "ext2fs_rb_erase",
-  "ext2fs_rb_insert_color"
- ]
-}
-*/
-/* VERIF-UNIT
-{
- "name": "rb_insert_extent_new_n3",
- "props": [
-  "C16"
- ],
- "level": "B(3)",
- "tier": "wip",
- "harness": "h_rb_insert",
- "defines": [
-  "EXT2_CUSTOM_MEMORY_ROUTINES",
-  "RB_N=3",
-  "RB_NEW=1",
-  "RB_SCEN=2",
-  "RB_BITS=16"
- ],
- "unwind": 9,
- "unwind_reason": "x",
- "sources": [
-  "lib/ext2fs/rbtree.c"
- ],
- "functions": [
-  "lib/ext2fs/blkmap64_rb.c:rb_insert_extent",
-  "lib/ext2fs/blkmap64_rb.c:rb_mark_bmap",
-  "lib/ext2fs/blkmap64_rb.c:rb_mark_bmap_extent",
-  "lib/ext2fs/blkmap64_rb.c:rb_get_new_extent",
-  "lib/ext2fs/blkmap64_rb.c:rb_free_extent"
- ],
- "assumes": [
-  "x"
- ],
- "backend": "minisat",
- "native": true,
- "cbmc_flags": [
-  "--object-bits",
-  "10"
- ],
- "unwindset": {
-  "ext2fs_rb_next.0": 4,
-  "ext2fs_rb_next.1": 4,
-  "ext2fs_rb_prev.0": 4,
-  "ext2fs_rb_prev.1": 4,
-  "ext2fs_rb_insert_color.0": 2,
-  "rb_insert_extent.0": 3,
-  "rb_insert_extent.1": 4
- },
- "replace": [
-  "ext2fs_rb_erase"
- ]
-}
-*/
-/* VERIF-UNIT
-{
- "name": "rb_insert_extent_merge_n3",
- "props": [
-  "C16"
- ],
- "level": "B(3)",
- "tier": "wip",
- "harness": "h_rb_insert",
- "defines": [
-  "EXT2_CUSTOM_MEMORY_ROUTINES",
-  "RB_N=3",
-  "RB_NEW=0",
-  "RB_SCEN=3",
-  "RB_BITS=16"
- ],
- "unwind": 9,
- "unwind_reason": "x",
- "sources": [
-  "lib/ext2fs/rbtree.c"
- ],
- "functions": [
-  "lib/ext2fs/blkmap64_rb.c:rb_insert_extent",
-  "lib/ext2fs/blkmap64_rb.c:rb_mark_bmap",
-  "lib/ext2fs/blkmap64_rb.c:rb_mark_bmap_extent",
-  "lib/ext2fs/blkmap64_rb.c:rb_get_new_extent",
-  "lib/ext2fs/blkmap64_rb.c:rb_free_extent"
- ],
- "assumes": [
-  "x"
- ],
- "backend": "minisat",
- "native": true,
- "cbmc_flags": [
-  "--object-bits",
-  "10"
- ],
- "unwindset": {
-  "ext2fs_rb_next.0": 4,
-  "ext2fs_rb_next.1": 4,
-  "ext2fs_rb_prev.0": 4,
-  "ext2fs_rb_prev.1": 4,
-  "ext2fs_rb_erase.0": 2,
-  "__rb_erase_color.0": 2,
-  "rb_insert_extent.0": 3,
-  "rb_insert_extent.1": 4
- },
- "replace": [
-  "ext2fs_rb_insert_color"
- ]
-}
-*/
-/* VERIF-UNIT
-{
- "name": "rb_insert_extent_newmerge_n3",
- "props": [
-  "C16"
- ],
- "level": "B(3)",
- "tier": "wip",
- "harness": "h_rb_insert",
- "defines": [
-  "EXT2_CUSTOM_MEMORY_ROUTINES",
-  "RB_N=3",
-  "RB_NEW=1",
-  "RB_SCEN=4",
-  "RB_BITS=16"
- ],
- "unwind": 9,
- "unwind_reason": "x",
- "sources": [
-  "lib/ext2fs/rbtree.c"
- ],
- "functions": [
-  "lib/ext2fs/blkmap64_rb.c:rb_insert_extent",
-  "lib/ext2fs/blkmap64_rb.c:rb_mark_bmap",
-  "lib/ext2fs/blkmap64_rb.c:rb_mark_bmap_extent",
-  "lib/ext2fs/blkmap64_rb.c:rb_get_new_extent",
-  "lib/ext2fs/blkmap64_rb.c:rb_free_extent"
- ],
- "assumes": [
-  "x"
- ],
- "backend": "minisat",
- "native": true,
- "cbmc_flags": [
-  "--object-bits",
-  "10"
- ],
- "unwindset": {
-  "ext2fs_rb_next.0": 4,
-  "ext2fs_rb_next.1": 4,
-  "ext2fs_rb_prev.0": 4,
-  "ext2fs_rb_prev.1": 4,
-  "ext2fs_rb_erase.0": 2,
-  "__rb_erase_color.0": 2,
-  "ext2fs_rb_insert_color.0": 2,
-  "rb_insert_extent.0": 3,
-  "rb_insert_extent.1": 4
- }
-}
-*/
-/* VERIF-UNIT
-{
- "name": "rb_remove_extent_trunc_n3",
- "props": [
-  "C16"
- ],
- "level": "B(3)",
- "tier": "wip",
- "harness": "h_rb_remove",
- "defines": [
-  "EXT2_CUSTOM_MEMORY_ROUTINES",
-  "RB_N=3",
-  "RB_NEW=0",
-  "RB_SCEN=1",
-  "RB_BITS=16"
- ],
- "unwind": 9,
- "unwind_reason": "x",
- "sources": [
-  "lib/ext2fs/rbtree.c"
- ],
- "functions": [
-  "lib/ext2fs/blkmap64_rb.c:rb_remove_extent",
-  "lib/ext2fs/blkmap64_rb.c:rb_unmark_bmap",
-  "lib/ext2fs/blkmap64_rb.c:rb_unmark_bmap_extent",
-  "lib/ext2fs/blkmap64_rb.c:rb_free_extent"
- ],
- "assumes": [
-  "x"
- ],
- "backend": "minisat",
- "native": true,
- "cbmc_flags": [
-  "--object-bits",
-  "10"
- ],
- "unwindset": {
-  "ext2fs_rb_next.0": 4,
-  "ext2fs_rb_next.1": 4,
-  "rb_remove_extent.0": 4,
-  "rb_remove_extent.1": 5
- },
- "replace": [
-  "ext2fs_rb_erase",
-  "rb_insert_extent"
- ]
-}
-*/
-/* VERIF-UNIT
-{
- "name": "rb_remove_extent_split_n3",
- "props": [
-  "C16"
- ],
- "level": "B(3)",
- "tier": "wip",
- "harness": "h_rb_remove",
- "defines": [
-  "EXT2_CUSTOM_MEMORY_ROUTINES",
-  "RB_N=3",
-  "RB_NEW=1",
-  "RB_SCEN=2",
-  "RB_BITS=16"
- ],
- "unwind": 9,
- "unwind_reason": "x",
- "sources": [
-  "lib/ext2fs/rbtree.c"
- ],
- "functions": [
-  "lib/ext2fs/blkmap64_rb.c:rb_remove_extent",
-  "lib/ext2fs/blkmap64_rb.c:rb_unmark_bmap",
-  "lib/ext2fs/blkmap64_rb.c:rb_unmark_bmap_extent",
-  "lib/ext2fs/blkmap64_rb.c:rb_free_extent"
- ],
- "assumes": [
-  "x"
- ],
- "backend": "minisat",
- "native": true,
- "cbmc_flags": [
-  "--object-bits",
-  "10"
- ],
- "unwindset": {
-  "ext2fs_rb_next.0": 4,
-  "ext2fs_rb_next.1": 4,
-  "ext2fs_rb_prev.0": 4,
-  "ext2fs_rb_prev.1": 4,
-  "ext2fs_rb_insert_color.0": 2,
-  "rb_insert_extent.0": 3,
-  "rb_insert_extent.1": 4,
-  "rb_remove_extent.0": 4,
-  "rb_remove_extent.1": 5
- },
- "replace": [
-  "ext2fs_rb_erase"
- ]
-}
-*/
-/* VERIF-UNIT
-{
- "name": "rb_remove_extent_delete_n3",
- "props": [
-  "C16"
- ],
- "level": "B(3)",
- "tier": "wip",
- "harness": "h_rb_remove",
- "defines": [
-  "EXT2_CUSTOM_MEMORY_ROUTINES",
-  "RB_N=3",
-  "RB_NEW=0",
-  "RB_SCEN=3",
-  "RB_BITS=16"
- ],
- "unwind": 9,
- "unwind_reason": "x",
- "sources": [
-  "lib/ext2fs/rbtree.c"
- ],
- "functions": [
-  "lib/ext2fs/blkmap64_rb.c:rb_remove_extent",
-  "lib/ext2fs/blkmap64_rb.c:rb_unmark_bmap",
-  "lib/ext2fs/blkmap64_rb.c:rb_unmark_bmap_extent",
-  "lib/ext2fs/blkmap64_rb.c:rb_free_extent"
- ],
- "assumes": [
-  "x"
- ],
- "backend": "minisat",
- "native": true,
- "cbmc_flags": [
-  "--object-bits",
-  "10"
- ],
- "unwindset": {
-  "ext2fs_rb_next.0": 4,
-  "ext2fs_rb_next.1": 4,
-  "ext2fs_rb_erase.0": 2,
-  "__rb_erase_color.0": 2,
-  "rb_remove_extent.0": 4,
-  "rb_remove_extent.1": 5
- },
- "replace": [
-  "rb_insert_extent"
- ]
-}
-*/
-/* VERIF-UNIT
-{
- "name": "rb_resize_bmap_keep_n3",
- "props": [
-  "C16"
- ],
- "level": "B(3)",
- "tier": "wip",
- "harness": "h_rb_resize",
- "defines": [
-  "EXT2_CUSTOM_MEMORY_ROUTINES",
-  "RB_N=3",
-  "RB_NEW=0",
-  "RB_SCEN=1",
-  "RB_BITS=16"
- ],
- "unwind": 9,
- "unwind_reason": "x",
- "sources": [
-  "lib/ext2fs/rbtree.c"
- ],
- "functions": [
-  "lib/ext2fs/blkmap64_rb.c:rb_resize_bmap",
-  "lib/ext2fs/blkmap64_rb.c:rb_truncate",
-  "lib/ext2fs/blkmap64_rb.c:rb_insert_extent"
- ],
- "assumes": [
-  "x"
- ],
- "backend": "minisat",
- "native": true,
- "cbmc_flags": [
-  "--object-bits",
-  "10"
- ],
- "unwindset": {
-  "ext2fs_rb_next.0": 4,
-  "ext2fs_rb_next.1": 4,
-  "ext2fs_rb_prev.0": 4,
-  "ext2fs_rb_prev.1": 4,
-  "ext2fs_rb_last.0": 4,
-  "rb_insert_extent.0": 3,
-  "rb_insert_extent.1": 4,
-  "rb_truncate.0": 6
- },
- "replace": [
-  "ext2fs_rb_erase",
-  "ext2fs_rb_insert_color"
- ]
-}
-*/
-/* VERIF-UNIT
-{
- "name": "rb_resize_bmap_pad_n3",
- "props": [
-  "C16"
- ],
- "level": "B(3)",
- "tier": "wip",
- "harness": "h_rb_resize",
- "defines": [
-  "EXT2_CUSTOM_MEMORY_ROUTINES",
-  "RB_N=3",
-  "RB_NEW=1",
-  "RB_SCEN=2",
-  "RB_BITS=16"
- ],
- "unwind": 9,
- "unwind_reason": "x",
- "sources": [
-  "lib/ext2fs/rbtree.c"
- ],
- "functions": [
-  "lib/ext2fs/blkmap64_rb.c:rb_resize_bmap",
-  "lib/ext2fs/blkmap64_rb.c:rb_truncate",
-  "lib/ext2fs/blkmap64_rb.c:rb_insert_extent"
- ],
- "assumes": [
-  "x"
- ],
- "backend": "minisat",
- "native": true,
- "cbmc_flags": [
-  "--object-bits",
-  "10"
- ],
- "unwindset": {
-  "ext2fs_rb_next.0": 4,
-  "ext2fs_rb_next.1": 4,
-  "ext2fs_rb_prev.0": 4,
-  "ext2fs_rb_prev.1": 4,
-  "ext2fs_rb_last.0": 4,
-  "ext2fs_rb_insert_color.0": 2,
-  "rb_insert_extent.0": 3,
-  "rb_insert_extent.1": 4,
-  "rb_truncate.0": 6
- },
- "replace": [
-  "ext2fs_rb_erase"
- ]
-}
-*/
-/* VERIF-UNIT
-{
- "name": "rb_resize_bmap_cut_n3",
- "props": [
-  "C16"
- ],
- "level": "B(3)",
- "tier": "wip",
- "harness": "h_rb_resize",
- "defines": [
-  "EXT2_CUSTOM_MEMORY_ROUTINES",
-  "RB_N=3",
-  "RB_NEW=0",
-  "RB_SCEN=3",
-  "RB_BITS=16"
- ],
- "unwind": 9,
- "unwind_reason": "x",
- "sources": [
-  "lib/ext2fs/rbtree.c"
- ],
- "functions": [
-  "lib/ext2fs/blkmap64_rb.c:rb_resize_bmap",
-  "lib/ext2fs/blkmap64_rb.c:rb_truncate",
-  "lib/ext2fs/blkmap64_rb.c:rb_insert_extent"
- ],
- "assumes": [
-  "x"
- ],
- "backend": "minisat",
- "native": true,
- "cbmc_flags": [
-  "--object-bits",
-  "10"
- ],
- "unwindset": {
-  "ext2fs_rb_next.0": 4,
-  "ext2fs_rb_next.1": 4,
-  "ext2fs_rb_prev.0": 4,
-  "ext2fs_rb_prev.1": 4,
-  "ext2fs_rb_last.0": 4,
-  "ext2fs_rb_erase.0": 2,
-  "__rb_erase_color.0": 2,
-  "rb_insert_extent.0": 3,
-  "rb_insert_extent.1": 4,
-  "rb_truncate.0": 6
- },
- "replace": [
-  "ext2fs_rb_insert_color"
- ]
-}
-*/
-/* VERIF-UNIT
-{
- "name": "rb_resize_bmap_cutpad_n3",
- "props": [
-  "C16"
- ],
- "level": "B(3)",
- "tier": "wip",
- "harness": "h_rb_resize",
- "defines": [
-  "EXT2_CUSTOM_MEMORY_ROUTINES",
-  "RB_N=3",
-  "RB_NEW=1",
-  "RB_SCEN=4",
-  "RB_BITS=16"
- ],
- "unwind": 9,
- "unwind_reason": "x",
- "sources": [
-  "lib/ext2fs/rbtree.c"
- ],
- "functions": [
-  "lib/ext2fs/blkmap64_rb.c:rb_resize_bmap",
-  "lib/ext2fs/blkmap64_rb.c:rb_truncate",
-  "lib/ext2fs/blkmap64_rb.c:rb_insert_extent"
- ],
- "assumes": [
-  "x"
- ],
- "backend": "minisat",
- "native": true,
- "cbmc_flags": [
-  "--object-bits",
-  "10"
- ],
- "unwindset": {
-  "ext2fs_rb_next.0": 4,
-  "ext2fs_rb_next.1": 4,
-  "ext2fs_rb_prev.0": 4,
-  "ext2fs_rb_prev.1": 4,
-  "ext2fs_rb_last.0": 4,
-  "ext2fs_rb_erase.0": 2,
-  "__rb_erase_color.0": 2,
-  "ext2fs_rb_insert_color.0": 2,
-  "rb_insert_extent.0": 3,
-  "rb_insert_extent.1": 4,
-  "rb_truncate.0": 6
- }
-}
-*/
-/* VERIF-UNIT
-{
- "name": "rb_insert_extent_keep_n4",
+ "name": "rbtree_insert_b4",
  "props": [
   "C16"
  ],
  "level": "B(4)",
- "tier": "wip",
- "harness": "h_rb_insert",
- "defines": [
-  "EXT2_CUSTOM_MEMORY_ROUTINES",
-  "RB_N=4",
-  "RB_NEW=0",
-  "RB_SCEN=1",
-  "RB_BITS=16"
- ],
- "unwind": 9,
- "unwind_reason": "x",
- "sources": [
-  "lib/ext2fs/rbtree.c"
- ],
- "functions": [
-  "lib/ext2fs/blkmap64_rb.c:rb_insert_extent",
-  "lib/ext2fs/blkmap64_rb.c:rb_mark_bmap",
-  "lib/ext2fs/blkmap64_rb.c:rb_mark_bmap_extent",
-  "lib/ext2fs/blkmap64_rb.c:rb_get_new_extent",
-  "lib/ext2fs/blkmap64_rb.c:rb_free_extent"
- ],
- "assumes": [
-  "x"
- ],
- "backend": "minisat",
- "native": true,
- "cbmc_flags": [
-  "--object-bits",
-  "10"
- ],
- "unwindset": {
-  "ext2fs_rb_next.0": 4,
-  "ext2fs_rb_next.1": 4,
-  "ext2fs_rb_prev.0": 4,
-  "ext2fs_rb_prev.1": 4,
-  "rb_insert_extent.0": 4,
-  "rb_insert_extent.1": 5
- },
- "replace": [
-  "ext2fs_rb_erase",
-  "ext2fs_rb_insert_color"
- ]
-}
-*/
-/* VERIF-UNIT
-{
- "name": "rb_insert_extent_new_n4",
- "props": [
-  "C16"
- ],
- "level": "B(4)",
- "tier": "wip",
- "harness": "h_rb_insert",
+ "tier": "thorough",
+ "harness": "h_rbtree_insert",
  "defines": [
   "EXT2_CUSTOM_MEMORY_ROUTINES",
   "RB_N=4",
   "RB_NEW=1",
-  "RB_SCEN=2",
   "RB_BITS=16"
  ],
  "unwind": 9,
- "unwind_reason": "x",
+ "unwind_reason": "BOUNDED: a tree of at most 5 nodes has height <= 3, so every descent / successor / predecessor loop of blkmap64_rb.c and rbtree.c runs at most that often (+1 for the exit test), the neighbour loops at most once per node; rebalancing loops climb at most one level per round; harness loops have constant bounds <= 8 (global unwind 9). Every bound is confirmed by an unwinding assertion.",
  "sources": [
   "lib/ext2fs/rbtree.c"
  ],
  "functions": [
-  "lib/ext2fs/blkmap64_rb.c:rb_insert_extent",
-  "lib/ext2fs/blkmap64_rb.c:rb_mark_bmap",
-  "lib/ext2fs/blkmap64_rb.c:rb_mark_bmap_extent",
-  "lib/ext2fs/blkmap64_rb.c:rb_get_new_extent",
-  "lib/ext2fs/blkmap64_rb.c:rb_free_extent"
+  "lib/ext2fs/rbtree.c:ext2fs_rb_insert_color",
+  "lib/ext2fs/rbtree.c:__rb_rotate_left",
+  "lib/ext2fs/rbtree.c:__rb_rotate_right",
+  "lib/ext2fs/rbtree.h:ext2fs_rb_link_node"
  ],
  "assumes": [
-  "x"
+  "BOUNDED stand-in, not counted as proved: the tree has exactly 4 extents (sorted, disjoint, non-adjacent, count > 0) in every red-black shape of that size; wcursor/rcursor NULL or any node, rcursor_next NULL or the successor of rcursor (any node if rcursor is NULL)",
+  "allocation does not fail: ext2fs.h is compiled with its own hook EXT2_CUSTOM_MEMORY_ROUTINES and ext2fs_get_mem/ext2fs_free_mem are the trivial malloc/free stubs of rb_common.h (typed pointer store instead of memcpy); malloc is __CPROVER_allocate, i.e. never NULL (rb_get_new_extent abort()s on failure anyway)",
+  "BOUNDED: bitmap->real_end - bitmap->start < 2^16 (offsets are 64-bit in the code and in the harness; the cap only narrows the values, chosen because the SAT proof of the ordering lemmas is the bottleneck)",
+  "the new node is linked by an ordinary binary-search-tree descent at any key position not touching an existing extent"
  ],
  "backend": "minisat",
+ "no_cross_check": true,
  "native": true,
  "cbmc_flags": [
   "--object-bits",
   "10"
  ],
  "unwindset": {
-  "ext2fs_rb_next.0": 4,
-  "ext2fs_rb_next.1": 4,
-  "ext2fs_rb_prev.0": 4,
-  "ext2fs_rb_prev.1": 4,
-  "ext2fs_rb_insert_color.0": 2,
-  "rb_insert_extent.0": 4,
-  "rb_insert_extent.1": 5
+  "ext2fs_rb_insert_color.0": 2
  },
- "replace": [
-  "ext2fs_rb_erase"
- ]
-}
-*/
-/* VERIF-UNIT
-{
- "name": "rb_insert_extent_merge_n4",
- "props": [
-  "C16"
- ],
- "level": "B(4)",
- "tier": "wip",
- "harness": "h_rb_insert",
- "defines": [
-  "EXT2_CUSTOM_MEMORY_ROUTINES",
-  "RB_N=4",
-  "RB_NEW=0",
-  "RB_SCEN=3",
-  "RB_BITS=16"
- ],
- "unwind": 9,
- "unwind_reason": "x",
- "sources": [
-  "lib/ext2fs/rbtree.c"
- ],
- "functions": [
-  "lib/ext2fs/blkmap64_rb.c:rb_insert_extent",
-  "lib/ext2fs/blkmap64_rb.c:rb_mark_bmap",
-  "lib/ext2fs/blkmap64_rb.c:rb_mark_bmap_extent",
-  "lib/ext2fs/blkmap64_rb.c:rb_get_new_extent",
-  "lib/ext2fs/blkmap64_rb.c:rb_free_extent"
- ],
- "assumes": [
-  "x"
- ],
- "backend": "minisat",
- "native": true,
- "cbmc_flags": [
-  "--object-bits",
-  "10"
- ],
- "unwindset": {
-  "ext2fs_rb_next.0": 4,
-  "ext2fs_rb_next.1": 4,
-  "ext2fs_rb_prev.0": 4,
-  "ext2fs_rb_prev.1": 4,
-  "ext2fs_rb_erase.0": 3,
-  "__rb_erase_color.0": 3,
-  "rb_insert_extent.0": 4,
-  "rb_insert_extent.1": 5
- },
- "replace": [
-  "ext2fs_rb_insert_color"
- ]
-}
-*/
-/* VERIF-UNIT
-{
- "name": "rb_insert_extent_newmerge_n4",
- "props": [
-  "C16"
- ],
- "level": "B(4)",
- "tier": "wip",
- "harness": "h_rb_insert",
- "defines": [
-  "EXT2_CUSTOM_MEMORY_ROUTINES",
-  "RB_N=4",
-  "RB_NEW=1",
-  "RB_SCEN=4",
-  "RB_BITS=16"
- ],
- "unwind": 9,
- "unwind_reason": "x",
- "sources": [
-  "lib/ext2fs/rbtree.c"
- ],
- "functions": [
-  "lib/ext2fs/blkmap64_rb.c:rb_insert_extent",
-  "lib/ext2fs/blkmap64_rb.c:rb_mark_bmap",
-  "lib/ext2fs/blkmap64_rb.c:rb_mark_bmap_extent",
-  "lib/ext2fs/blkmap64_rb.c:rb_get_new_extent",
-  "lib/ext2fs/blkmap64_rb.c:rb_free_extent"
- ],
- "assumes": [
-  "x"
- ],
- "backend": "minisat",
- "native": true,
- "cbmc_flags": [
-  "--object-bits",
-  "10"
- ],
- "unwindset": {
-  "ext2fs_rb_next.0": 4,
-  "ext2fs_rb_next.1": 4,
-  "ext2fs_rb_prev.0": 4,
-  "ext2fs_rb_prev.1": 4,
-  "ext2fs_rb_erase.0": 3,
-  "__rb_erase_color.0": 3,
-  "ext2fs_rb_insert_color.0": 2,
-  "rb_insert_extent.0": 4,
-  "rb_insert_extent.1": 5
- }
-}
-*/
-/* VERIF-UNIT
-{
- "name": "rb_remove_extent_trunc_n4",
- "props": [
-  "C16"
- ],
- "level": "B(4)",
- "tier": "wip",
- "harness": "h_rb_remove",
- "defines": [
-  "EXT2_CUSTOM_MEMORY_ROUTINES",
-  "RB_N=4",
-  "RB_NEW=0",
-  "RB_SCEN=1",
-  "RB_BITS=16"
- ],
- "unwind": 9,
- "unwind_reason": "x",
- "sources": [
-  "lib/ext2fs/rbtree.c"
- ],
- "functions": [
-  "lib/ext2fs/blkmap64_rb.c:rb_remove_extent",
-  "lib/ext2fs/blkmap64_rb.c:rb_unmark_bmap",
-  "lib/ext2fs/blkmap64_rb.c:rb_unmark_bmap_extent",
-  "lib/ext2fs/blkmap64_rb.c:rb_free_extent"
- ],
- "assumes": [
-  "x"
- ],
- "backend": "minisat",
- "native": true,
- "cbmc_flags": [
-  "--object-bits",
-  "10"
- ],
- "unwindset": {
-  "ext2fs_rb_next.0": 4,
-  "ext2fs_rb_next.1": 4,
-  "rb_remove_extent.0": 5,
-  "rb_remove_extent.1": 6
- },
- "replace": [
-  "ext2fs_rb_erase",
-  "rb_insert_extent"
- ]
-}
-*/
-/* VERIF-UNIT
-{
- "name": "rb_remove_extent_split_n4",
- "props": [
-  "C16"
- ],
- "level": "B(4)",
- "tier": "wip",
- "harness": "h_rb_remove",
- "defines": [
-  "EXT2_CUSTOM_MEMORY_ROUTINES",
-  "RB_N=4",
-  "RB_NEW=1",
-  "RB_SCEN=2",
-  "RB_BITS=16"
- ],
- "unwind": 9,
- "unwind_reason": "x",
- "sources": [
-  "lib/ext2fs/rbtree.c"
- ],
- "functions": [
-  "lib/ext2fs/blkmap64_rb.c:rb_remove_extent",
-  "lib/ext2fs/blkmap64_rb.c:rb_unmark_bmap",
-  "lib/ext2fs/blkmap64_rb.c:rb_unmark_bmap_extent",
-  "lib/ext2fs/blkmap64_rb.c:rb_free_extent"
- ],
- "assumes": [
-  "x"
- ],
- "backend": "minisat",
- "native": true,
- "cbmc_flags": [
-  "--object-bits",
-  "10"
- ],
- "unwindset": {
-  "ext2fs_rb_next.0": 4,
-  "ext2fs_rb_next.1": 4,
-  "ext2fs_rb_prev.0": 4,
-  "ext2fs_rb_prev.1": 4,
-  "ext2fs_rb_insert_color.0": 2,
-  "rb_insert_extent.0": 4,
-  "rb_insert_extent.1": 5,
-  "rb_remove_extent.0": 5,
-  "rb_remove_extent.1": 6
- },
- "replace": [
-  "ext2fs_rb_erase"
- ]
-}
-*/
-/* VERIF-UNIT
-{
- "name": "rb_remove_extent_delete_n4",
- "props": [
-  "C16"
- ],
- "level": "B(4)",
- "tier": "wip",
- "harness": "h_rb_remove",
- "defines": [
-  "EXT2_CUSTOM_MEMORY_ROUTINES",
-  "RB_N=4",
-  "RB_NEW=0",
-  "RB_SCEN=3",
-  "RB_BITS=16"
- ],
- "unwind": 9,
- "unwind_reason": "x",
- "sources": [
-  "lib/ext2fs/rbtree.c"
- ],
- "functions": [
-  "lib/ext2fs/blkmap64_rb.c:rb_remove_extent",
-  "lib/ext2fs/blkmap64_rb.c:rb_unmark_bmap",
-  "lib/ext2fs/blkmap64_rb.c:rb_unmark_bmap_extent",
-  "lib/ext2fs/blkmap64_rb.c:rb_free_extent"
- ],
- "assumes": [
-  "x"
- ],
- "backend": "minisat",
- "native": true,
- "cbmc_flags": [
-  "--object-bits",
-  "10"
- ],
- "unwindset": {
-  "ext2fs_rb_next.0": 4,
-  "ext2fs_rb_next.1": 4,
-  "ext2fs_rb_erase.0": 3,
-  "__rb_erase_color.0": 3,
-  "rb_remove_extent.0": 5,
-  "rb_remove_extent.1": 6
- },
- "replace": [
-  "rb_insert_extent"
- ]
-}
-*/
-/* VERIF-UNIT
-{
- "name": "rb_resize_bmap_keep_n4",
- "props": [
-  "C16"
- ],
- "level": "B(4)",
- "tier": "wip",
- "harness": "h_rb_resize",
- "defines": [
-  "EXT2_CUSTOM_MEMORY_ROUTINES",
-  "RB_N=4",
-  "RB_NEW=0",
-  "RB_SCEN=1",
-  "RB_BITS=16"
- ],
- "unwind": 9,
- "unwind_reason": "x",
- "sources": [
-  "lib/ext2fs/rbtree.c"
- ],
- "functions": [
-  "lib/ext2fs/blkmap64_rb.c:rb_resize_bmap",
-  "lib/ext2fs/blkmap64_rb.c:rb_truncate",
-  "lib/ext2fs/blkmap64_rb.c:rb_insert_extent"
- ],
- "assumes": [
-  "x"
- ],
- "backend": "minisat",
- "native": true,
- "cbmc_flags": [
-  "--object-bits",
-  "10"
- ],
- "unwindset": {
-  "ext2fs_rb_next.0": 4,
-  "ext2fs_rb_next.1": 4,
-  "ext2fs_rb_prev.0": 4,
-  "ext2fs_rb_prev.1": 4,
-  "ext2fs_rb_last.0": 4,
-  "rb_insert_extent.0": 4,
-  "rb_insert_extent.1": 5,
-  "rb_truncate.0": 7
- },
- "replace": [
-  "ext2fs_rb_erase",
-  "ext2fs_rb_insert_color"
- ]
-}
-*/
-/* VERIF-UNIT
-{
- "name": "rb_resize_bmap_pad_n4",
- "props": [
-  "C16"
- ],
- "level": "B(4)",
- "tier": "wip",
- "harness": "h_rb_resize",
- "defines": [
-  "EXT2_CUSTOM_MEMORY_ROUTINES",
-  "RB_N=4",
-  "RB_NEW=1",
-  "RB_SCEN=2",
-  "RB_BITS=16"
- ],
- "unwind": 9,
- "unwind_reason": "x",
- "sources": [
-  "lib/ext2fs/rbtree.c"
- ],
- "functions": [
-  "lib/ext2fs/blkmap64_rb.c:rb_resize_bmap",
-  "lib/ext2fs/blkmap64_rb.c:rb_truncate",
-  "lib/ext2fs/blkmap64_rb.c:rb_insert_extent"
- ],
- "assumes": [
-  "x"
- ],
- "backend": "minisat",
- "native": true,
- "cbmc_flags": [
-  "--object-bits",
-  "10"
- ],
- "unwindset": {
-  "ext2fs_rb_next.0": 4,
-  "ext2fs_rb_next.1": 4,
-  "ext2fs_rb_prev.0": 4,
-  "ext2fs_rb_prev.1": 4,
-  "ext2fs_rb_last.0": 4,
-  "ext2fs_rb_insert_color.0": 2,
-  "rb_insert_extent.0": 4,
-  "rb_insert_extent.1": 5,
-  "rb_truncate.0": 7
- },
- "replace": [
-  "ext2fs_rb_erase"
- ]
-}
-*/
-/* VERIF-UNIT
-{
- "name": "rb_resize_bmap_cut_n4",
- "props": [
-  "C16"
- ],
- "level": "B(4)",
- "tier": "wip",
- "harness": "h_rb_resize",
- "defines": [
-  "EXT2_CUSTOM_MEMORY_ROUTINES",
-  "RB_N=4",
-  "RB_NEW=0",
-  "RB_SCEN=3",
-  "RB_BITS=16"
- ],
- "unwind": 9,
- "unwind_reason": "x",
- "sources": [
-  "lib/ext2fs/rbtree.c"
- ],
- "functions": [
-  "lib/ext2fs/blkmap64_rb.c:rb_resize_bmap",
-  "lib/ext2fs/blkmap64_rb.c:rb_truncate",
-  "lib/ext2fs/blkmap64_rb.c:rb_insert_extent"
- ],
- "assumes": [
-  "x"
- ],
- "backend": "minisat",
- "native": true,
- "cbmc_flags": [
-  "--object-bits",
-  "10"
- ],
- "unwindset": {
-  "ext2fs_rb_next.0": 4,
-  "ext2fs_rb_next.1": 4,
-  "ext2fs_rb_prev.0": 4,
-  "ext2fs_rb_prev.1": 4,
-  "ext2fs_rb_last.0": 4,
-  "ext2fs_rb_erase.0": 3,
-  "__rb_erase_color.0": 3,
-  "rb_insert_extent.0": 4,
-  "rb_insert_extent.1": 5,
-  "rb_truncate.0": 7
- },
- "replace": [
-  "ext2fs_rb_insert_color"
- ]
-}
-*/
-/* VERIF-UNIT
-{
- "name": "rb_resize_bmap_cutpad_n4",
- "props": [
-  "C16"
- ],
- "level": "B(4)",
- "tier": "wip",
- "harness": "h_rb_resize",
- "defines": [
-  "EXT2_CUSTOM_MEMORY_ROUTINES",
-  "RB_N=4",
-  "RB_NEW=1",
-  "RB_SCEN=4",
-  "RB_BITS=16"
- ],
- "unwind": 9,
- "unwind_reason": "x",
- "sources": [
-  "lib/ext2fs/rbtree.c"
- ],
- "functions": [
-  "lib/ext2fs/blkmap64_rb.c:rb_resize_bmap",
-  "lib/ext2fs/blkmap64_rb.c:rb_truncate",
-  "lib/ext2fs/blkmap64_rb.c:rb_insert_extent"
- ],
- "assumes": [
-  "x"
- ],
- "backend": "minisat",
- "native": true,
- "cbmc_flags": [
-  "--object-bits",
-  "10"
- ],
- "unwindset": {
-  "ext2fs_rb_next.0": 4,
-  "ext2fs_rb_next.1": 4,
-  "ext2fs_rb_prev.0": 4,
-  "ext2fs_rb_prev.1": 4,
-  "ext2fs_rb_last.0": 4,
-  "ext2fs_rb_erase.0": 3,
-  "__rb_erase_color.0": 3,
-  "ext2fs_rb_insert_color.0": 2,
-  "rb_insert_extent.0": 4,
-  "rb_insert_extent.1": 5,
-  "rb_truncate.0": 7
- }
+ "timeout": 1200
 }
 */
 #include "rb_common.h"
@@ -4886,16 +2530,17 @@ void h_rb_ffs(void)
 }
 
 #ifndef RB_RANGE_BITS
-#define RB_RANGE_BITS 64
+#define RB_RANGE_BITS 16
 #endif
+#define RB_RANGE_BYTES ((RB_RANGE_BITS + 7) / 8)
 void h_rb_get_range(void)
 {
 	build_rb();
 	ASSUME(IN.num >= 1 && IN.num <= RB_RANGE_BITS);
 	ASSUME(IN.arg >= IN.start && IN.arg <= IN.real_end && IN.num - 1 <= IN.real_end - IN.arg);
-	unsigned char *out = malloc(8);
+	unsigned char *out = malloc(RB_RANGE_BYTES);
 	ASSUME(out != 0);
-	for (int i = 0; i < 8; i++)
+	for (int i = 0; i < RB_RANGE_BYTES; i++)
 		out[i] = IN.buf[i];		/* previous content of the caller's buffer: arbitrary */
 	unsigned long long j = IN.k;		/* ghost bit position inside the range */
 	ASSUME(j < IN.num);
@@ -4905,7 +2550,7 @@ void h_rb_get_range(void)
 	verif_k = IN.arg - IN.start + j;
 	check_unchanged();
 #if RB_N >= 1
-	if (NN == RB_N && IN.arg - IN.start > IN.es[0] && IN.arg - IN.start < IN.es[0] + IN.ec[0] && IN.num > 8) REACH("range starts inside extent 0, more than a byte");
+	if (NN == RB_N && IN.arg - IN.start > IN.es[0] && IN.arg - IN.start < IN.es[0] + IN.ec[0] && IN.num > 8 && IN.es[0] + IN.ec[0] - (IN.arg - IN.start) > 8) REACH("range starts inside extent 0 and more than a byte of it follows");
 	if (NN == RB_N && IN.arg - IN.start < IN.es[0] && IN.arg - IN.start + IN.num > IN.es[RB_N - 1] + IN.ec[RB_N - 1]) REACH("range covers every extent");
 #endif
 	REACH("end");
@@ -4914,23 +2559,41 @@ void h_rb_get_range(void)
 #ifndef RB_SET_BITS
 #define RB_SET_BITS 6
 #endif
+/*
+ * RB_PATTERN (optional): the input buffer is that constant (little endian, up to 16 bits) and num is exactly RB_SET_BITS,
+ * so that the run-extraction loop of rb_set_bmap_range has concrete control flow and the formula contains exactly as
+ * many rb_insert_extent bodies as the pattern has runs.  Without it buffer and num (1..RB_SET_BITS) are symbolic.
+ * RB_SCEN 2: no extent of the tree touches or is adjacent to [start - 1, start + num]: the new runs are new nodes and
+ * nothing is merged (ext2fs_rb_erase unreachable).
+ */
 void h_rb_set_range(void)
 {
 	build_rb();
+#ifdef RB_PATTERN
+	IN.num = RB_SET_BITS;
+	IN.buf[0] = (RB_PATTERN) & 0xff;
+	IN.buf[1] = ((RB_PATTERN) >> 8) & 0xff;
+#endif
 	ASSUME(IN.num >= 1 && IN.num <= RB_SET_BITS);
 	ASSUME(IN.arg >= IN.start && IN.arg <= IN.real_end && IN.num - 1 <= IN.real_end - IN.arg);
-	unsigned char *in = malloc(8);
+	unsigned char *in = malloc((RB_SET_BITS + 7) / 8);
 	ASSUME(in != 0);
-	for (int i = 0; i < 8; i++)
+	for (int i = 0; i < (RB_SET_BITS + 7) / 8; i++)
 		in[i] = IN.buf[i];
 	unsigned long long s = IN.arg - IN.start;
+#if RB_SCEN == 2
+	ASSUME(!sc_hit(s) && !sc_reach(s, IN.num) && !ref_any_in(s, IN.num));
+	ASSUME(s == 0 || !ref_member(s - 1));
+#endif
 	errcode_t r = rb_set_bmap_range(&BM, IN.arg, IN.num, in);
 	CHECK(r == 0, "set_bmap_range succeeds");
 	CHECK_TREE("set_bmap_range");
 	CHECK(view(verif_k) == (ref_member(verif_k) || (IN_RANGE_REL(verif_k, s, IN.num) && ((IN.buf[(verif_k - s) >> 3] >> ((verif_k - s) & 7)) & 1))),
 	      "set_bmap_range: the set gains exactly the bits set in the input buffer");
-	if (IN.num >= 5 && (IN.buf[0] & 0x1f) == 0x15 && !ref_any_in(s, 6)) REACH("three separate runs inserted");
+#ifndef RB_PATTERN
+	if (IN.num >= 3 && (IN.buf[0] & 7) == 5) REACH("two separate runs inserted");
 	if (IN.num == RB_SET_BITS && (IN.buf[0] & ((1 << RB_SET_BITS) - 1)) == ((1 << RB_SET_BITS) - 1)) REACH("one run up to the end of the range");
+#endif
 	REACH("end");
 }
 
@@ -4989,5 +2652,79 @@ void h_rbtree_erase(void)
 	for (int i = 0; i < RB_N; i++)
 		if (i < WN)
 			CHECK(W[i] == ND[i < (int)IN.num ? i : i + 1], "rb_erase: the in-order sequence is the old one without the victim");
+	REACH("end");
+}
+
+void h_rbtree_insert(void)
+{
+	build_rb();
+	BP->wcursor = BP->rcursor = BP->rcursor_next = 0;
+	/* the new key [arg, arg+arg2) lies in a gap of the sequence, not adjacent to a neighbour */
+	ASSUME(IN.arg2 >= 1 && IN.arg <= IN.real_end - IN.start && IN.arg2 - 1 <= IN.real_end - IN.start - IN.arg);
+	ASSUME(!sc_hit(IN.arg) && !sc_reach(IN.arg, IN.arg2) && !ref_any_in(IN.arg, IN.arg2));
+	struct bmap_rb_extent *nw = malloc(sizeof(struct bmap_rb_extent));
+	ASSUME(nw != 0);
+	nw->start = IN.arg;
+	nw->count = IN.arg2;
+	ND[RB_N] = nw;
+	/* ordinary binary-search-tree descent by key (what every caller of ext2fs_rb_link_node does) */
+	struct rb_node **link = &BP->root.rb_node, *parent = 0;
+	for (int d = 0; d < RB_MAXH; d++) {
+		if (*link) {
+			parent = *link;
+			link = IN.arg < node_to_extent(parent)->start ? &parent->rb_left : &parent->rb_right;
+		}
+	}
+	CHECK(*link == 0, "harness: the descent ends at a free link (the builder's trees are not higher than RB_MAXH)");
+	ext2fs_rb_link_node(&nw->node, parent, link);
+	ext2fs_rb_insert_color(&nw->node, &BP->root);
+	CHECK_TREE("rb_insert_color");
+	CHECK(WN == RB_N + 1, "rb_insert_color: one node more");
+	CHECK(in_tree(nw), "rb_insert_color: the new node is in the tree");
+	for (int i = 0; i < RB_N; i++)
+		CHECK(in_tree(ND[i]), "rb_insert_color: every old node is still in the tree");
+	CHECK(view(verif_k) == (ref_member(verif_k) || IN_RANGE_REL(verif_k, IN.arg, IN.arg2)), "rb_insert_color: the keys are the old ones plus the new one (sorted: see well_formed)");
+#if RB_N >= 1
+	if (IN.arg < IN.es[0]) REACH("new smallest key");
+	if (IN.arg > IN.es[RB_N - 1]) REACH("new largest key");
+#endif
+	REACH("end");
+}
+
+/*
+ * the ops-table entries rb_mark_bmap / rb_mark_bmap_extent / rb_unmark_bmap / rb_unmark_bmap_extent: they subtract
+ * bitmap->start and call rb_insert_extent / rb_remove_extent.  One extent; mark: the range lies strictly inside it,
+ * unmark: the range is a proper prefix of it (tree structure unchanged in both cases).
+ */
+void h_rb_wrappers(void)
+{
+	build_rb();
+	ASSUME(IN.num >= 1 && IN.arg <= IN.real_end - IN.start && IN.num - 1 <= IN.real_end - IN.start - IN.arg);
+	unsigned long long a = IN.arg, c = IN.num;
+	int expect;
+	if (IN.shape & 0x40) {
+		ASSUME(a > IN.es[0] && a + c < IN.es[0] + IN.ec[0]);
+		if (IN.shape & 0x20) {
+			ASSUME(c == 1);
+			int r = rb_mark_bmap(&BM, IN.start + a);
+			CHECK(r != 0, "mark_bmap of a member returns nonzero");
+		} else
+			rb_mark_bmap_extent(&BM, IN.start + a, IN.num);
+		expect = ref_member(verif_k);
+		REACH("mark inside the extent");
+	} else {
+		ASSUME(a == IN.es[0] && c < IN.ec[0]);
+		if (IN.shape & 0x20) {
+			ASSUME(c == 1);
+			int r = rb_unmark_bmap(&BM, IN.start + a);
+			CHECK(r != 0, "unmark_bmap of a member returns nonzero");
+		} else
+			rb_unmark_bmap_extent(&BM, IN.start + a, IN.num);
+		expect = ref_member(verif_k) && !IN_RANGE_REL(verif_k, a, c);
+		REACH("unmark a proper prefix of the extent");
+	}
+	CHECK_TREE("mark/unmark");
+	CHECK(view(verif_k) == expect, "mark/unmark through the ops-table entries: exactly the bits of the absolute range change");
+	CHECK(BM.start == IN.start && BM.end == IN.end && BM.real_end == IN.real_end, "geometry untouched");
 	REACH("end");
 }
